@@ -23,6 +23,7 @@ CONSTANTS N,          \* threads 1..N
           WLOCK, SPIN, WAITING, DESIG, CONDB, WRW, LONGW, ALLF, RLOCK,    \* bits of mu.word (common.h)
           WZLO, WZHI, RZLO, RZHI,     \* MU_WZERO_TO_ACQUIRE / MU_RZERO_TO_ACQUIRE: low bits, and whether the reader field is included
           LTW, LTR,   \* lock_type tables as records [zlo, zhi, add, sww, coa, cour]
+          CvFix,      \* cv.c wakes nsync_wait_n records under the cv spinlock (TRUE, after the fix) or in wake_waiters (FALSE)
           DbgFixed,   \* debug.c releases the spinlock by CAS loop (TRUE) or by a plain store of the stale word (FALSE)
           Loopers     \* threads whose program restarts for ever (C14 bargers)
 
@@ -138,6 +139,7 @@ Xfer(tw, wl, fca) ==
     wc = [w \in Waiters |-> 0],                  \* waiter.cond (index into Conds, 0 = none)
     sc = [n |-> [w \in Waiters |-> w], p |-> [w \in Waiters |-> w]],   \* same_condition rings
     nww = [t \in Threads |-> 0],                 \* nsync_wait_n record: waiting
+    nwsem = [t \in Threads |-> 0],               \* nsync_wait_n record: sem (the waiter whose semaphore it names)
     sem = [w \in Waiters |-> 0],
     data = [v \in 1..NV |-> 0],                  \* client cells, written under the write lock
     now = 0,
@@ -158,7 +160,7 @@ Xfer(tw, wl, fca) ==
 
   define { CurOp(t) == Prog[t][ip[t]]
            W(t) == mw[t]
-           SemOf(x) == IF x > 0 THEN x ELSE mw[-x]
+           SemOf(x) == IF x > 0 THEN x ELSE nwsem[-x]
            ThreadOf(x) == IF x < 0 THEN -x ELSE CHOOSE u \in Threads : mw[u] = x }
 
   \* nsync_waiter_new_ (common.c:166-213): the thread's reserved waiter, else the head of the free pool, else a fresh struct
@@ -198,7 +200,7 @@ Xfer(tw, wl, fca) ==
    ls_7_ld:  if (waiting[W(self)] # 0) { goto ls_8_p; }                             \* mu.c:102 ATM_LOAD_ACQ
              else {
                wcnt := IF wcnt > K THEN wcnt ELSE wcnt + 1;
-               lw := IF wcnt + 1 = K THEN LONGW ELSE lw;
+               lw := IF wcnt = K THEN LONGW ELSE lw;                             \* (wcnt here is the incremented value)
                clear := DESIG;
                goto ls_d;
              };
@@ -435,13 +437,18 @@ Xfer(tw, wl, fca) ==
                  else { with (x = SignalPick(cvq, wl)) { tws := x.tw; alr := x.allr; cvq := x.rest; }; };
                };
              } else { goto cs_2_d; };
-   cs_3b_l:  rmq := SelectSeq(tws, IsMuCv);
+   cs_3b_l:  rmq := IF CvFix THEN tws ELSE SelectSeq(tws, IsMuCv);
              picked := [u \in Threads |-> picked[u] \/ (\E i \in 1..Len(tws) : ThreadOf(tws[i]) = u)];
+             tws := IF CvFix THEN SelectSeq(tws, IsMuCv) ELSE tws;               \* only pooled waiters go to wake_waiters
              goto cs_rmq_l;
    cs_2_d:   goto cs_2_ld;
-   cs_rmq_l: if (rmq = <<>>) { goto cs_4_st; };
+   cs_rmq_l: if (rmq = <<>>) { goto cs_4_st; } else if (~IsMuCv(Head(rmq))) { goto cs_f_st; };
    cs_rm_ld: skip;                                                               \* cv.c:333/374/420 ATM_LOAD remove_count
    cs_rm_cas: rmc[Head(rmq)] := rmc[Head(rmq)] + 1;                              \* cv.c:334/376/421 ATM_CAS
+             rmq := Tail(rmq);
+             goto cs_rmq_l;
+   cs_f_st:  nww[-Head(rmq)] := 0;                                               \* cv.c wake_non_native_waiter: ATM_STORE_REL
+   cs_f_v:   sem[SemOf(Head(rmq))] := SetV(sem[SemOf(Head(rmq))]);              \* nsync_mu_semaphore_v, still under the cv spinlock
              rmq := Tail(rmq);
              goto cs_rmq_l;
    cs_4_st:  cvword := IF all THEN 0 ELSE (IF cvq = <<>> THEN Clr(old, CVNE) ELSE old);   \* cv.c:389/427 ATM_STORE_REL
@@ -495,7 +502,7 @@ Xfer(tw, wl, fca) ==
   procedure wait_n(ndl)
     variables old = 0, wq = FALSE;
   {
-   wn_1_st:  nww[self] := 0; picked[self] := FALSE; nwalive[self] := TRUE;                              \* wait.c:54 ATM_STORE
+   wn_1_st:  nww[self] := 0; picked[self] := FALSE; nwalive[self] := TRUE; nwsem[self] := W(self);                              \* wait.c:54 ATM_STORE
    wn_2_ld:  old := cvword;                                                      \* cv.c:463 nsync_spin_test_and_set_
              if ((old & CVSPIN) # 0) { goto wn_2_d; };
    wn_3_cas: if (cvword = old) { cvword := old | CVSPIN; cvq := Append(cvq, -self); goto wn_4_st; } else { goto wn_2_d; };
@@ -577,7 +584,7 @@ Xfer(tw, wl, fca) ==
          }
          else if (CurOp(self).op = "decref") {                                     \* C13: last := (--refs = 0), under the lock
            ip[self] := ip[self] + 1;
-           refs := refs - 1; ret[self] := IF refs = 1 THEN 1 ELSE 0;
+           ret[self] := IF refs = 1 THEN 1 ELSE 0; refs := refs - 1;
          }
          else if (CurOp(self).op = "freeiflast") { ip[self] := ip[self] + 1; if (ret[self] = 1) { muFreed := TRUE; }; }
          else { ip[self] := ip[self] + 1; };
@@ -585,38 +592,38 @@ Xfer(tw, wl, fca) ==
   }
 } *)
 \* BEGIN TRANSLATION
-\* Procedure variable old of procedure lock_slow at line 174 col 15 changed to old_
-\* Procedure variable old of procedure unlock_slow at line 213 col 15 changed to old_u
-\* Procedure variable rmq of procedure unlock_slow at line 213 col 101 changed to rmq_
-\* Procedure variable old of procedure mu_lock at line 274 col 15 changed to old_m
-\* Procedure variable old of procedure mu_trylock at line 287 col 15 changed to old_mu
-\* Procedure variable old of procedure mu_unlock at line 298 col 15 changed to old_mu_
-\* Procedure variable old of procedure try_acquire at line 328 col 15 changed to old_t
-\* Procedure variable old of procedure mu_wait at line 355 col 15 changed to old_mu_w
-\* Procedure variable lt of procedure mu_wait at line 355 col 24 changed to lt_
-\* Procedure variable out of procedure mu_wait at line 355 col 46 changed to out_
-\* Procedure variable rc of procedure mu_wait at line 355 col 55 changed to rc_
-\* Procedure variable so of procedure mu_wait at line 355 col 86 changed to so_
-\* Procedure variable old of procedure cv_wake at line 426 col 15 changed to old_c
-\* Procedure variable old of procedure cv_wait at line 453 col 15 changed to old_cv
-\* Procedure variable lt of procedure cv_wait at line 453 col 24 changed to lt_c
-\* Procedure variable rc of procedure cv_wait at line 453 col 32 changed to rc_c
-\* Parameter lt of procedure lock_slow at line 173 col 23 changed to lt_l
-\* Parameter lt of procedure unlock_slow at line 212 col 25 changed to lt_u
-\* Parameter lt of procedure mu_lock at line 273 col 21 changed to lt_m
-\* Parameter lt of procedure mu_trylock at line 286 col 24 changed to lt_mu
-\* Parameter lt of procedure mu_unlock at line 297 col 23 changed to lt_mu_
-\* Parameter dl of procedure mu_wait at line 354 col 24 changed to dl_
-\* Parameter cn of procedure mu_wait at line 354 col 28 changed to cn_
+\* Procedure variable old of procedure lock_slow at line 176 col 15 changed to old_
+\* Procedure variable old of procedure unlock_slow at line 215 col 15 changed to old_u
+\* Procedure variable rmq of procedure unlock_slow at line 215 col 101 changed to rmq_
+\* Procedure variable old of procedure mu_lock at line 276 col 15 changed to old_m
+\* Procedure variable old of procedure mu_trylock at line 289 col 15 changed to old_mu
+\* Procedure variable old of procedure mu_unlock at line 300 col 15 changed to old_mu_
+\* Procedure variable old of procedure try_acquire at line 330 col 15 changed to old_t
+\* Procedure variable old of procedure mu_wait at line 357 col 15 changed to old_mu_w
+\* Procedure variable lt of procedure mu_wait at line 357 col 24 changed to lt_
+\* Procedure variable out of procedure mu_wait at line 357 col 46 changed to out_
+\* Procedure variable rc of procedure mu_wait at line 357 col 55 changed to rc_
+\* Procedure variable so of procedure mu_wait at line 357 col 86 changed to so_
+\* Procedure variable old of procedure cv_wake at line 428 col 15 changed to old_c
+\* Procedure variable old of procedure cv_wait at line 460 col 15 changed to old_cv
+\* Procedure variable lt of procedure cv_wait at line 460 col 24 changed to lt_c
+\* Procedure variable rc of procedure cv_wait at line 460 col 32 changed to rc_c
+\* Parameter lt of procedure lock_slow at line 175 col 23 changed to lt_l
+\* Parameter lt of procedure unlock_slow at line 214 col 25 changed to lt_u
+\* Parameter lt of procedure mu_lock at line 275 col 21 changed to lt_m
+\* Parameter lt of procedure mu_trylock at line 288 col 24 changed to lt_mu
+\* Parameter lt of procedure mu_unlock at line 299 col 23 changed to lt_mu_
+\* Parameter dl of procedure mu_wait at line 356 col 24 changed to dl_
+\* Parameter cn of procedure mu_wait at line 356 col 28 changed to cn_
 CONSTANT defaultInitValue
 VARIABLES pc, word, queue, cvword, cvq, waiting, rmc, cvmu, wl, wc, sc, nww, 
-          sem, data, now, note, nreg, held, ret, sres, picked, sleeps, inlock, 
-          ip, mw, pool, nalloc, muFreed, refs, nwalive, taint3, stack
+          nwsem, sem, data, now, note, nreg, held, ret, sres, picked, sleeps, 
+          inlock, ip, mw, pool, nalloc, muFreed, refs, nwalive, taint3, stack
 
 (* define statement *)
 CurOp(t) == Prog[t][ip[t]]
 W(t) == mw[t]
-SemOf(x) == IF x > 0 THEN x ELSE mw[-x]
+SemOf(x) == IF x > 0 THEN x ELSE nwsem[-x]
 ThreadOf(x) == IF x < 0 THEN -x ELSE CHOOSE u \in Threads : mw[u] = x
 
 VARIABLES lt_l, clear, old_, zlo, zhi, wcnt, lw, lt_u, old_u, tc, nwl, wtrs, 
@@ -627,7 +634,7 @@ VARIABLES lt_l, clear, old_, zlo, zhi, wcnt, lw, lt_u, old_u, tc, nwl, wtrs,
           old, wq, dw, k
 
 vars == << pc, word, queue, cvword, cvq, waiting, rmc, cvmu, wl, wc, sc, nww, 
-           sem, data, now, note, nreg, held, ret, sres, picked, sleeps, 
+           nwsem, sem, data, now, note, nreg, held, ret, sres, picked, sleeps, 
            inlock, ip, mw, pool, nalloc, muFreed, refs, nwalive, taint3, 
            stack, lt_l, clear, old_, zlo, zhi, wcnt, lw, lt_u, old_u, tc, nwl, 
            wtrs, wake, wty, sor, cor, rmq_, late, lt_m, old_m, lt_mu, old_mu, 
@@ -650,6 +657,7 @@ Init == (* Global variables *)
         /\ wc = [w \in Waiters |-> 0]
         /\ sc = [n |-> [w \in Waiters |-> w], p |-> [w \in Waiters |-> w]]
         /\ nww = [t \in Threads |-> 0]
+        /\ nwsem = [t \in Threads |-> 0]
         /\ sem = [w \in Waiters |-> 0]
         /\ data = [v \in 1..NV |-> 0]
         /\ now = 0
@@ -762,13 +770,13 @@ ls_1_ld(self) == /\ pc[self] = "ls_1_ld"
                                   THEN /\ pc' = [pc EXCEPT ![self] = "ls_3_cas"]
                                   ELSE /\ pc' = [pc EXCEPT ![self] = "ls_d"]
                  /\ UNCHANGED << word, queue, cvword, cvq, waiting, rmc, sc, 
-                                 nww, sem, data, now, note, nreg, held, ret, 
-                                 sres, picked, sleeps, inlock, ip, mw, pool, 
-                                 nalloc, muFreed, refs, nwalive, taint3, stack, 
-                                 lt_l, clear, wcnt, lw, lt_u, old_u, tc, nwl, 
-                                 wtrs, wake, wty, sor, cor, rmq_, late, lt_m, 
-                                 old_m, lt_mu, old_mu, lt_mu_, ww, old_mu_, 
-                                 sdl, scn, lt, rc, old_t, c, dl_, cn_, 
+                                 nww, nwsem, sem, data, now, note, nreg, held, 
+                                 ret, sres, picked, sleeps, inlock, ip, mw, 
+                                 pool, nalloc, muFreed, refs, nwalive, taint3, 
+                                 stack, lt_l, clear, wcnt, lw, lt_u, old_u, tc, 
+                                 nwl, wtrs, wake, wty, sor, cor, rmq_, late, 
+                                 lt_m, old_m, lt_mu, old_mu, lt_mu_, ww, 
+                                 old_mu_, sdl, scn, lt, rc, old_t, c, dl_, cn_, 
                                  old_mu_w, lt_, first, out_, rc_, hadw, ata, 
                                  so_, havel, tw, allr, omw, fca, sorw, all, 
                                  old_c, tws, alr, rmq, dl, cn, old_cv, lt_c, 
@@ -777,17 +785,17 @@ ls_1_ld(self) == /\ pc[self] = "ls_1_ld"
 ls_d(self) == /\ pc[self] = "ls_d"
               /\ pc' = [pc EXCEPT ![self] = "ls_1_ld"]
               /\ UNCHANGED << word, queue, cvword, cvq, waiting, rmc, cvmu, wl, 
-                              wc, sc, nww, sem, data, now, note, nreg, held, 
-                              ret, sres, picked, sleeps, inlock, ip, mw, pool, 
-                              nalloc, muFreed, refs, nwalive, taint3, stack, 
-                              lt_l, clear, old_, zlo, zhi, wcnt, lw, lt_u, 
-                              old_u, tc, nwl, wtrs, wake, wty, sor, cor, rmq_, 
-                              late, lt_m, old_m, lt_mu, old_mu, lt_mu_, ww, 
-                              old_mu_, sdl, scn, lt, rc, old_t, c, dl_, cn_, 
-                              old_mu_w, lt_, first, out_, rc_, hadw, ata, so_, 
-                              havel, tw, allr, omw, fca, sorw, all, old_c, tws, 
-                              alr, rmq, dl, cn, old_cv, lt_c, rc_c, so, out, 
-                              ndl, old, wq, dw, k >>
+                              wc, sc, nww, nwsem, sem, data, now, note, nreg, 
+                              held, ret, sres, picked, sleeps, inlock, ip, mw, 
+                              pool, nalloc, muFreed, refs, nwalive, taint3, 
+                              stack, lt_l, clear, old_, zlo, zhi, wcnt, lw, 
+                              lt_u, old_u, tc, nwl, wtrs, wake, wty, sor, cor, 
+                              rmq_, late, lt_m, old_m, lt_mu, old_mu, lt_mu_, 
+                              ww, old_mu_, sdl, scn, lt, rc, old_t, c, dl_, 
+                              cn_, old_mu_w, lt_, first, out_, rc_, hadw, ata, 
+                              so_, havel, tw, allr, omw, fca, sorw, all, old_c, 
+                              tws, alr, rmq, dl, cn, old_cv, lt_c, rc_c, so, 
+                              out, ndl, old, wq, dw, k >>
 
 ls_2_cas(self) == /\ pc[self] = "ls_2_cas"
                   /\ IF word = old_[self]
@@ -807,16 +815,17 @@ ls_2_cas(self) == /\ pc[self] = "ls_2_cas"
                              /\ UNCHANGED << word, held, inlock, stack, lt_l, 
                                              clear, old_, zlo, zhi, wcnt, lw >>
                   /\ UNCHANGED << queue, cvword, cvq, waiting, rmc, cvmu, wl, 
-                                  wc, sc, nww, sem, data, now, note, nreg, ret, 
-                                  sres, picked, sleeps, ip, mw, pool, nalloc, 
-                                  muFreed, refs, nwalive, taint3, lt_u, old_u, 
-                                  tc, nwl, wtrs, wake, wty, sor, cor, rmq_, 
-                                  late, lt_m, old_m, lt_mu, old_mu, lt_mu_, ww, 
-                                  old_mu_, sdl, scn, lt, rc, old_t, c, dl_, 
-                                  cn_, old_mu_w, lt_, first, out_, rc_, hadw, 
-                                  ata, so_, havel, tw, allr, omw, fca, sorw, 
-                                  all, old_c, tws, alr, rmq, dl, cn, old_cv, 
-                                  lt_c, rc_c, so, out, ndl, old, wq, dw, k >>
+                                  wc, sc, nww, nwsem, sem, data, now, note, 
+                                  nreg, ret, sres, picked, sleeps, ip, mw, 
+                                  pool, nalloc, muFreed, refs, nwalive, taint3, 
+                                  lt_u, old_u, tc, nwl, wtrs, wake, wty, sor, 
+                                  cor, rmq_, late, lt_m, old_m, lt_mu, old_mu, 
+                                  lt_mu_, ww, old_mu_, sdl, scn, lt, rc, old_t, 
+                                  c, dl_, cn_, old_mu_w, lt_, first, out_, rc_, 
+                                  hadw, ata, so_, havel, tw, allr, omw, fca, 
+                                  sorw, all, old_c, tws, alr, rmq, dl, cn, 
+                                  old_cv, lt_c, rc_c, so, out, ndl, old, wq, 
+                                  dw, k >>
 
 ls_3_cas(self) == /\ pc[self] = "ls_3_cas"
                   /\ IF word = old_[self]
@@ -825,43 +834,44 @@ ls_3_cas(self) == /\ pc[self] = "ls_3_cas"
                         ELSE /\ pc' = [pc EXCEPT ![self] = "ls_d"]
                              /\ word' = word
                   /\ UNCHANGED << queue, cvword, cvq, waiting, rmc, cvmu, wl, 
-                                  wc, sc, nww, sem, data, now, note, nreg, 
-                                  held, ret, sres, picked, sleeps, inlock, ip, 
-                                  mw, pool, nalloc, muFreed, refs, nwalive, 
-                                  taint3, stack, lt_l, clear, old_, zlo, zhi, 
-                                  wcnt, lw, lt_u, old_u, tc, nwl, wtrs, wake, 
-                                  wty, sor, cor, rmq_, late, lt_m, old_m, 
-                                  lt_mu, old_mu, lt_mu_, ww, old_mu_, sdl, scn, 
-                                  lt, rc, old_t, c, dl_, cn_, old_mu_w, lt_, 
-                                  first, out_, rc_, hadw, ata, so_, havel, tw, 
-                                  allr, omw, fca, sorw, all, old_c, tws, alr, 
-                                  rmq, dl, cn, old_cv, lt_c, rc_c, so, out, 
-                                  ndl, old, wq, dw, k >>
+                                  wc, sc, nww, nwsem, sem, data, now, note, 
+                                  nreg, held, ret, sres, picked, sleeps, 
+                                  inlock, ip, mw, pool, nalloc, muFreed, refs, 
+                                  nwalive, taint3, stack, lt_l, clear, old_, 
+                                  zlo, zhi, wcnt, lw, lt_u, old_u, tc, nwl, 
+                                  wtrs, wake, wty, sor, cor, rmq_, late, lt_m, 
+                                  old_m, lt_mu, old_mu, lt_mu_, ww, old_mu_, 
+                                  sdl, scn, lt, rc, old_t, c, dl_, cn_, 
+                                  old_mu_w, lt_, first, out_, rc_, hadw, ata, 
+                                  so_, havel, tw, allr, omw, fca, sorw, all, 
+                                  old_c, tws, alr, rmq, dl, cn, old_cv, lt_c, 
+                                  rc_c, so, out, ndl, old, wq, dw, k >>
 
 ls_4_st(self) == /\ pc[self] = "ls_4_st"
                  /\ waiting' = [waiting EXCEPT ![W(self)] = 1]
                  /\ queue' = (IF wcnt[self] = 0 THEN Append(queue, W(self)) ELSE <<W(self)>> \o queue)
                  /\ pc' = [pc EXCEPT ![self] = "ls_5_ld"]
                  /\ UNCHANGED << word, cvword, cvq, rmc, cvmu, wl, wc, sc, nww, 
-                                 sem, data, now, note, nreg, held, ret, sres, 
-                                 picked, sleeps, inlock, ip, mw, pool, nalloc, 
-                                 muFreed, refs, nwalive, taint3, stack, lt_l, 
-                                 clear, old_, zlo, zhi, wcnt, lw, lt_u, old_u, 
-                                 tc, nwl, wtrs, wake, wty, sor, cor, rmq_, 
-                                 late, lt_m, old_m, lt_mu, old_mu, lt_mu_, ww, 
-                                 old_mu_, sdl, scn, lt, rc, old_t, c, dl_, cn_, 
-                                 old_mu_w, lt_, first, out_, rc_, hadw, ata, 
-                                 so_, havel, tw, allr, omw, fca, sorw, all, 
-                                 old_c, tws, alr, rmq, dl, cn, old_cv, lt_c, 
-                                 rc_c, so, out, ndl, old, wq, dw, k >>
+                                 nwsem, sem, data, now, note, nreg, held, ret, 
+                                 sres, picked, sleeps, inlock, ip, mw, pool, 
+                                 nalloc, muFreed, refs, nwalive, taint3, stack, 
+                                 lt_l, clear, old_, zlo, zhi, wcnt, lw, lt_u, 
+                                 old_u, tc, nwl, wtrs, wake, wty, sor, cor, 
+                                 rmq_, late, lt_m, old_m, lt_mu, old_mu, 
+                                 lt_mu_, ww, old_mu_, sdl, scn, lt, rc, old_t, 
+                                 c, dl_, cn_, old_mu_w, lt_, first, out_, rc_, 
+                                 hadw, ata, so_, havel, tw, allr, omw, fca, 
+                                 sorw, all, old_c, tws, alr, rmq, dl, cn, 
+                                 old_cv, lt_c, rc_c, so, out, ndl, old, wq, dw, 
+                                 k >>
 
 ls_5_ld(self) == /\ pc[self] = "ls_5_ld"
                  /\ old_' = [old_ EXCEPT ![self] = word]
                  /\ pc' = [pc EXCEPT ![self] = "ls_6_cas"]
                  /\ UNCHANGED << word, queue, cvword, cvq, waiting, rmc, cvmu, 
-                                 wl, wc, sc, nww, sem, data, now, note, nreg, 
-                                 held, ret, sres, picked, sleeps, inlock, ip, 
-                                 mw, pool, nalloc, muFreed, refs, nwalive, 
+                                 wl, wc, sc, nww, nwsem, sem, data, now, note, 
+                                 nreg, held, ret, sres, picked, sleeps, inlock, 
+                                 ip, mw, pool, nalloc, muFreed, refs, nwalive, 
                                  taint3, stack, lt_l, clear, zlo, zhi, wcnt, 
                                  lw, lt_u, old_u, tc, nwl, wtrs, wake, wty, 
                                  sor, cor, rmq_, late, lt_m, old_m, lt_mu, 
@@ -879,31 +889,31 @@ ls_6_cas(self) == /\ pc[self] = "ls_6_cas"
                         ELSE /\ pc' = [pc EXCEPT ![self] = "ls_5_ld"]
                              /\ word' = word
                   /\ UNCHANGED << queue, cvword, cvq, waiting, rmc, cvmu, wl, 
-                                  wc, sc, nww, sem, data, now, note, nreg, 
-                                  held, ret, sres, picked, sleeps, inlock, ip, 
-                                  mw, pool, nalloc, muFreed, refs, nwalive, 
-                                  taint3, stack, lt_l, clear, old_, zlo, zhi, 
-                                  wcnt, lw, lt_u, old_u, tc, nwl, wtrs, wake, 
-                                  wty, sor, cor, rmq_, late, lt_m, old_m, 
-                                  lt_mu, old_mu, lt_mu_, ww, old_mu_, sdl, scn, 
-                                  lt, rc, old_t, c, dl_, cn_, old_mu_w, lt_, 
-                                  first, out_, rc_, hadw, ata, so_, havel, tw, 
-                                  allr, omw, fca, sorw, all, old_c, tws, alr, 
-                                  rmq, dl, cn, old_cv, lt_c, rc_c, so, out, 
-                                  ndl, old, wq, dw, k >>
+                                  wc, sc, nww, nwsem, sem, data, now, note, 
+                                  nreg, held, ret, sres, picked, sleeps, 
+                                  inlock, ip, mw, pool, nalloc, muFreed, refs, 
+                                  nwalive, taint3, stack, lt_l, clear, old_, 
+                                  zlo, zhi, wcnt, lw, lt_u, old_u, tc, nwl, 
+                                  wtrs, wake, wty, sor, cor, rmq_, late, lt_m, 
+                                  old_m, lt_mu, old_mu, lt_mu_, ww, old_mu_, 
+                                  sdl, scn, lt, rc, old_t, c, dl_, cn_, 
+                                  old_mu_w, lt_, first, out_, rc_, hadw, ata, 
+                                  so_, havel, tw, allr, omw, fca, sorw, all, 
+                                  old_c, tws, alr, rmq, dl, cn, old_cv, lt_c, 
+                                  rc_c, so, out, ndl, old, wq, dw, k >>
 
 ls_7_ld(self) == /\ pc[self] = "ls_7_ld"
                  /\ IF waiting[W(self)] # 0
                        THEN /\ pc' = [pc EXCEPT ![self] = "ls_8_p"]
                             /\ UNCHANGED << clear, wcnt, lw >>
                        ELSE /\ wcnt' = [wcnt EXCEPT ![self] = IF wcnt[self] > K THEN wcnt[self] ELSE wcnt[self] + 1]
-                            /\ lw' = [lw EXCEPT ![self] = IF wcnt'[self] + 1 = K THEN LONGW ELSE lw[self]]
+                            /\ lw' = [lw EXCEPT ![self] = IF wcnt'[self] = K THEN LONGW ELSE lw[self]]
                             /\ clear' = [clear EXCEPT ![self] = DESIG]
                             /\ pc' = [pc EXCEPT ![self] = "ls_d"]
                  /\ UNCHANGED << word, queue, cvword, cvq, waiting, rmc, cvmu, 
-                                 wl, wc, sc, nww, sem, data, now, note, nreg, 
-                                 held, ret, sres, picked, sleeps, inlock, ip, 
-                                 mw, pool, nalloc, muFreed, refs, nwalive, 
+                                 wl, wc, sc, nww, nwsem, sem, data, now, note, 
+                                 nreg, held, ret, sres, picked, sleeps, inlock, 
+                                 ip, mw, pool, nalloc, muFreed, refs, nwalive, 
                                  taint3, stack, lt_l, old_, zlo, zhi, lt_u, 
                                  old_u, tc, nwl, wtrs, wake, wty, sor, cor, 
                                  rmq_, late, lt_m, old_m, lt_mu, old_mu, 
@@ -920,8 +930,8 @@ ls_8_p(self) == /\ pc[self] = "ls_8_p"
                 /\ sleeps' = [sleeps EXCEPT ![self] = IF sleeps[self] >= SB THEN SB ELSE sleeps[self] + 1]
                 /\ pc' = [pc EXCEPT ![self] = "ls_7_ld"]
                 /\ UNCHANGED << word, queue, cvword, cvq, waiting, rmc, cvmu, 
-                                wl, wc, sc, nww, data, now, note, nreg, held, 
-                                ret, sres, picked, inlock, ip, mw, pool, 
+                                wl, wc, sc, nww, nwsem, data, now, note, nreg, 
+                                held, ret, sres, picked, inlock, ip, mw, pool, 
                                 nalloc, muFreed, refs, nwalive, taint3, stack, 
                                 lt_l, clear, old_, zlo, zhi, wcnt, lw, lt_u, 
                                 old_u, tc, nwl, wtrs, wake, wty, sor, cor, 
@@ -946,9 +956,9 @@ us_1_ld(self) == /\ pc[self] = "us_1_ld"
                                   THEN /\ pc' = [pc EXCEPT ![self] = "us_3_cas"]
                                   ELSE /\ pc' = [pc EXCEPT ![self] = "us_d"]
                  /\ UNCHANGED << word, queue, cvword, cvq, waiting, rmc, cvmu, 
-                                 wl, wc, sc, nww, sem, data, now, note, nreg, 
-                                 held, ret, sres, picked, sleeps, inlock, ip, 
-                                 mw, pool, nalloc, muFreed, refs, nwalive, 
+                                 wl, wc, sc, nww, nwsem, sem, data, now, note, 
+                                 nreg, held, ret, sres, picked, sleeps, inlock, 
+                                 ip, mw, pool, nalloc, muFreed, refs, nwalive, 
                                  taint3, stack, lt_l, clear, old_, zlo, zhi, 
                                  wcnt, lw, lt_u, nwl, wtrs, wake, wty, sor, 
                                  cor, rmq_, late, lt_m, old_m, lt_mu, old_mu, 
@@ -962,17 +972,17 @@ us_1_ld(self) == /\ pc[self] = "us_1_ld"
 us_d(self) == /\ pc[self] = "us_d"
               /\ pc' = [pc EXCEPT ![self] = "us_1_ld"]
               /\ UNCHANGED << word, queue, cvword, cvq, waiting, rmc, cvmu, wl, 
-                              wc, sc, nww, sem, data, now, note, nreg, held, 
-                              ret, sres, picked, sleeps, inlock, ip, mw, pool, 
-                              nalloc, muFreed, refs, nwalive, taint3, stack, 
-                              lt_l, clear, old_, zlo, zhi, wcnt, lw, lt_u, 
-                              old_u, tc, nwl, wtrs, wake, wty, sor, cor, rmq_, 
-                              late, lt_m, old_m, lt_mu, old_mu, lt_mu_, ww, 
-                              old_mu_, sdl, scn, lt, rc, old_t, c, dl_, cn_, 
-                              old_mu_w, lt_, first, out_, rc_, hadw, ata, so_, 
-                              havel, tw, allr, omw, fca, sorw, all, old_c, tws, 
-                              alr, rmq, dl, cn, old_cv, lt_c, rc_c, so, out, 
-                              ndl, old, wq, dw, k >>
+                              wc, sc, nww, nwsem, sem, data, now, note, nreg, 
+                              held, ret, sres, picked, sleeps, inlock, ip, mw, 
+                              pool, nalloc, muFreed, refs, nwalive, taint3, 
+                              stack, lt_l, clear, old_, zlo, zhi, wcnt, lw, 
+                              lt_u, old_u, tc, nwl, wtrs, wake, wty, sor, cor, 
+                              rmq_, late, lt_m, old_m, lt_mu, old_mu, lt_mu_, 
+                              ww, old_mu_, sdl, scn, lt, rc, old_t, c, dl_, 
+                              cn_, old_mu_w, lt_, first, out_, rc_, hadw, ata, 
+                              so_, havel, tw, allr, omw, fca, sorw, all, old_c, 
+                              tws, alr, rmq, dl, cn, old_cv, lt_c, rc_c, so, 
+                              out, ndl, old, wq, dw, k >>
 
 us_2_cas(self) == /\ pc[self] = "us_2_cas"
                   /\ IF word = old_u[self]
@@ -995,12 +1005,12 @@ us_2_cas(self) == /\ pc[self] = "us_2_cas"
                                              wtrs, wake, wty, sor, cor, rmq_, 
                                              late >>
                   /\ UNCHANGED << queue, cvword, cvq, waiting, rmc, cvmu, wl, 
-                                  wc, sc, nww, sem, data, now, note, nreg, 
-                                  held, ret, sres, picked, sleeps, inlock, ip, 
-                                  mw, pool, nalloc, muFreed, refs, nwalive, 
-                                  taint3, lt_l, clear, old_, zlo, zhi, wcnt, 
-                                  lw, lt_m, old_m, lt_mu, old_mu, lt_mu_, ww, 
-                                  old_mu_, sdl, scn, lt, rc, old_t, c, dl_, 
+                                  wc, sc, nww, nwsem, sem, data, now, note, 
+                                  nreg, held, ret, sres, picked, sleeps, 
+                                  inlock, ip, mw, pool, nalloc, muFreed, refs, 
+                                  nwalive, taint3, lt_l, clear, old_, zlo, zhi, 
+                                  wcnt, lw, lt_m, old_m, lt_mu, old_mu, lt_mu_, 
+                                  ww, old_mu_, sdl, scn, lt, rc, old_t, c, dl_, 
                                   cn_, old_mu_w, lt_, first, out_, rc_, hadw, 
                                   ata, so_, havel, tw, allr, omw, fca, sorw, 
                                   all, old_c, tws, alr, rmq, dl, cn, old_cv, 
@@ -1021,9 +1031,9 @@ us_3_cas(self) == /\ pc[self] = "us_3_cas"
                              /\ UNCHANGED << word, queue, nwl, wtrs, wake, wty, 
                                              sor, late >>
                   /\ UNCHANGED << cvword, cvq, waiting, rmc, cvmu, wl, wc, sc, 
-                                  nww, sem, data, now, note, nreg, held, ret, 
-                                  sres, picked, sleeps, inlock, ip, mw, pool, 
-                                  nalloc, muFreed, refs, nwalive, taint3, 
+                                  nww, nwsem, sem, data, now, note, nreg, held, 
+                                  ret, sres, picked, sleeps, inlock, ip, mw, 
+                                  pool, nalloc, muFreed, refs, nwalive, taint3, 
                                   stack, lt_l, clear, old_, zlo, zhi, wcnt, lw, 
                                   lt_u, old_u, tc, cor, rmq_, lt_m, old_m, 
                                   lt_mu, old_mu, lt_mu_, ww, old_mu_, sdl, scn, 
@@ -1044,53 +1054,53 @@ us_pass_l(self) == /\ pc[self] = "us_pass_l"
                               /\ pc' = [pc EXCEPT ![self] = "us_rel_l"]
                               /\ UNCHANGED << queue, cor >>
                    /\ UNCHANGED << word, cvword, cvq, waiting, rmc, cvmu, wl, 
-                                   wc, sc, nww, sem, data, now, note, nreg, 
-                                   held, ret, sres, picked, sleeps, inlock, ip, 
-                                   mw, pool, nalloc, muFreed, refs, nwalive, 
-                                   taint3, stack, lt_l, clear, old_, zlo, zhi, 
-                                   wcnt, lw, lt_u, old_u, nwl, wtrs, wake, wty, 
-                                   sor, rmq_, late, lt_m, old_m, lt_mu, old_mu, 
-                                   lt_mu_, ww, old_mu_, sdl, scn, lt, rc, 
-                                   old_t, c, dl_, cn_, old_mu_w, lt_, first, 
-                                   out_, rc_, hadw, ata, so_, havel, tw, allr, 
-                                   omw, fca, sorw, all, old_c, tws, alr, rmq, 
-                                   dl, cn, old_cv, lt_c, rc_c, so, out, ndl, 
-                                   old, wq, dw, k >>
+                                   wc, sc, nww, nwsem, sem, data, now, note, 
+                                   nreg, held, ret, sres, picked, sleeps, 
+                                   inlock, ip, mw, pool, nalloc, muFreed, refs, 
+                                   nwalive, taint3, stack, lt_l, clear, old_, 
+                                   zlo, zhi, wcnt, lw, lt_u, old_u, nwl, wtrs, 
+                                   wake, wty, sor, rmq_, late, lt_m, old_m, 
+                                   lt_mu, old_mu, lt_mu_, ww, old_mu_, sdl, 
+                                   scn, lt, rc, old_t, c, dl_, cn_, old_mu_w, 
+                                   lt_, first, out_, rc_, hadw, ata, so_, 
+                                   havel, tw, allr, omw, fca, sorw, all, old_c, 
+                                   tws, alr, rmq, dl, cn, old_cv, lt_c, rc_c, 
+                                   so, out, ndl, old, wq, dw, k >>
 
 us_rel_l(self) == /\ pc[self] = "us_rel_l"
                   /\ IF tc[self]
                         THEN /\ pc' = [pc EXCEPT ![self] = "us_rs_ld"]
                         ELSE /\ pc' = [pc EXCEPT ![self] = "us_scan_l"]
                   /\ UNCHANGED << word, queue, cvword, cvq, waiting, rmc, cvmu, 
-                                  wl, wc, sc, nww, sem, data, now, note, nreg, 
-                                  held, ret, sres, picked, sleeps, inlock, ip, 
-                                  mw, pool, nalloc, muFreed, refs, nwalive, 
-                                  taint3, stack, lt_l, clear, old_, zlo, zhi, 
-                                  wcnt, lw, lt_u, old_u, tc, nwl, wtrs, wake, 
-                                  wty, sor, cor, rmq_, late, lt_m, old_m, 
+                                  wl, wc, sc, nww, nwsem, sem, data, now, note, 
+                                  nreg, held, ret, sres, picked, sleeps, 
+                                  inlock, ip, mw, pool, nalloc, muFreed, refs, 
+                                  nwalive, taint3, stack, lt_l, clear, old_, 
+                                  zlo, zhi, wcnt, lw, lt_u, old_u, tc, nwl, 
+                                  wtrs, wake, wty, sor, cor, rmq_, late, lt_m, 
+                                  old_m, lt_mu, old_mu, lt_mu_, ww, old_mu_, 
+                                  sdl, scn, lt, rc, old_t, c, dl_, cn_, 
+                                  old_mu_w, lt_, first, out_, rc_, hadw, ata, 
+                                  so_, havel, tw, allr, omw, fca, sorw, all, 
+                                  old_c, tws, alr, rmq, dl, cn, old_cv, lt_c, 
+                                  rc_c, so, out, ndl, old, wq, dw, k >>
+
+us_rs_ld(self) == /\ pc[self] = "us_rs_ld"
+                  /\ old_u' = [old_u EXCEPT ![self] = word]
+                  /\ pc' = [pc EXCEPT ![self] = "us_rs_cas"]
+                  /\ UNCHANGED << word, queue, cvword, cvq, waiting, rmc, cvmu, 
+                                  wl, wc, sc, nww, nwsem, sem, data, now, note, 
+                                  nreg, held, ret, sres, picked, sleeps, 
+                                  inlock, ip, mw, pool, nalloc, muFreed, refs, 
+                                  nwalive, taint3, stack, lt_l, clear, old_, 
+                                  zlo, zhi, wcnt, lw, lt_u, tc, nwl, wtrs, 
+                                  wake, wty, sor, cor, rmq_, late, lt_m, old_m, 
                                   lt_mu, old_mu, lt_mu_, ww, old_mu_, sdl, scn, 
                                   lt, rc, old_t, c, dl_, cn_, old_mu_w, lt_, 
                                   first, out_, rc_, hadw, ata, so_, havel, tw, 
                                   allr, omw, fca, sorw, all, old_c, tws, alr, 
                                   rmq, dl, cn, old_cv, lt_c, rc_c, so, out, 
                                   ndl, old, wq, dw, k >>
-
-us_rs_ld(self) == /\ pc[self] = "us_rs_ld"
-                  /\ old_u' = [old_u EXCEPT ![self] = word]
-                  /\ pc' = [pc EXCEPT ![self] = "us_rs_cas"]
-                  /\ UNCHANGED << word, queue, cvword, cvq, waiting, rmc, cvmu, 
-                                  wl, wc, sc, nww, sem, data, now, note, nreg, 
-                                  held, ret, sres, picked, sleeps, inlock, ip, 
-                                  mw, pool, nalloc, muFreed, refs, nwalive, 
-                                  taint3, stack, lt_l, clear, old_, zlo, zhi, 
-                                  wcnt, lw, lt_u, tc, nwl, wtrs, wake, wty, 
-                                  sor, cor, rmq_, late, lt_m, old_m, lt_mu, 
-                                  old_mu, lt_mu_, ww, old_mu_, sdl, scn, lt, 
-                                  rc, old_t, c, dl_, cn_, old_mu_w, lt_, first, 
-                                  out_, rc_, hadw, ata, so_, havel, tw, allr, 
-                                  omw, fca, sorw, all, old_c, tws, alr, rmq, 
-                                  dl, cn, old_cv, lt_c, rc_c, so, out, ndl, 
-                                  old, wq, dw, k >>
 
 us_rs_cas(self) == /\ pc[self] = "us_rs_cas"
                    /\ IF word = old_u[self]
@@ -1099,23 +1109,23 @@ us_rs_cas(self) == /\ pc[self] = "us_rs_cas"
                          ELSE /\ pc' = [pc EXCEPT ![self] = "us_rs_ld"]
                               /\ word' = word
                    /\ UNCHANGED << queue, cvword, cvq, waiting, rmc, cvmu, wl, 
-                                   wc, sc, nww, sem, data, now, note, nreg, 
-                                   held, ret, sres, picked, sleeps, inlock, ip, 
-                                   mw, pool, nalloc, muFreed, refs, nwalive, 
-                                   taint3, stack, lt_l, clear, old_, zlo, zhi, 
-                                   wcnt, lw, lt_u, old_u, tc, nwl, wtrs, wake, 
-                                   wty, sor, cor, rmq_, late, lt_m, old_m, 
-                                   lt_mu, old_mu, lt_mu_, ww, old_mu_, sdl, 
-                                   scn, lt, rc, old_t, c, dl_, cn_, old_mu_w, 
-                                   lt_, first, out_, rc_, hadw, ata, so_, 
-                                   havel, tw, allr, omw, fca, sorw, all, old_c, 
-                                   tws, alr, rmq, dl, cn, old_cv, lt_c, rc_c, 
-                                   so, out, ndl, old, wq, dw, k >>
+                                   wc, sc, nww, nwsem, sem, data, now, note, 
+                                   nreg, held, ret, sres, picked, sleeps, 
+                                   inlock, ip, mw, pool, nalloc, muFreed, refs, 
+                                   nwalive, taint3, stack, lt_l, clear, old_, 
+                                   zlo, zhi, wcnt, lw, lt_u, old_u, tc, nwl, 
+                                   wtrs, wake, wty, sor, cor, rmq_, late, lt_m, 
+                                   old_m, lt_mu, old_mu, lt_mu_, ww, old_mu_, 
+                                   sdl, scn, lt, rc, old_t, c, dl_, cn_, 
+                                   old_mu_w, lt_, first, out_, rc_, hadw, ata, 
+                                   so_, havel, tw, allr, omw, fca, sorw, all, 
+                                   old_c, tws, alr, rmq, dl, cn, old_cv, lt_c, 
+                                   rc_c, so, out, ndl, old, wq, dw, k >>
 
 us_scan_l(self) == /\ pc[self] = "us_scan_l"
                    /\ LET r == Scan(nwl[self], 1, <<>>, wty[self], sor[self], sc, wc, wl, data, tc[self]) IN
                         /\ Assert(tc[self] => ((word & WLOCK) # 0 /\ \A u \in Threads : held[u] = 0), 
-                                  "Failure of assertion at line 244, column 16.")
+                                  "Failure of assertion at line 246, column 16.")
                         /\ nwl' = [nwl EXCEPT ![self] = r.l]
                         /\ rmq_' = [rmq_ EXCEPT ![self] = r.wake]
                         /\ wake' = [wake EXCEPT ![self] = wake[self] \o r.wake]
@@ -1124,8 +1134,8 @@ us_scan_l(self) == /\ pc[self] = "us_scan_l"
                         /\ sor' = [sor EXCEPT ![self] = IF r.more THEN Clr(r.sor, ALLF) ELSE r.sor]
                    /\ pc' = [pc EXCEPT ![self] = "us_rmq_l"]
                    /\ UNCHANGED << word, queue, cvword, cvq, waiting, rmc, 
-                                   cvmu, wl, wc, nww, sem, data, now, note, 
-                                   nreg, held, ret, sres, picked, sleeps, 
+                                   cvmu, wl, wc, nww, nwsem, sem, data, now, 
+                                   note, nreg, held, ret, sres, picked, sleeps, 
                                    inlock, ip, mw, pool, nalloc, muFreed, refs, 
                                    nwalive, taint3, stack, lt_l, clear, old_, 
                                    zlo, zhi, wcnt, lw, lt_u, old_u, tc, wtrs, 
@@ -1142,61 +1152,61 @@ us_rmq_l(self) == /\ pc[self] = "us_rmq_l"
                         THEN /\ pc' = [pc EXCEPT ![self] = "us_after_l"]
                         ELSE /\ pc' = [pc EXCEPT ![self] = "us_rm_ld"]
                   /\ UNCHANGED << word, queue, cvword, cvq, waiting, rmc, cvmu, 
-                                  wl, wc, sc, nww, sem, data, now, note, nreg, 
-                                  held, ret, sres, picked, sleeps, inlock, ip, 
-                                  mw, pool, nalloc, muFreed, refs, nwalive, 
-                                  taint3, stack, lt_l, clear, old_, zlo, zhi, 
-                                  wcnt, lw, lt_u, old_u, tc, nwl, wtrs, wake, 
-                                  wty, sor, cor, rmq_, late, lt_m, old_m, 
-                                  lt_mu, old_mu, lt_mu_, ww, old_mu_, sdl, scn, 
-                                  lt, rc, old_t, c, dl_, cn_, old_mu_w, lt_, 
-                                  first, out_, rc_, hadw, ata, so_, havel, tw, 
-                                  allr, omw, fca, sorw, all, old_c, tws, alr, 
-                                  rmq, dl, cn, old_cv, lt_c, rc_c, so, out, 
-                                  ndl, old, wq, dw, k >>
+                                  wl, wc, sc, nww, nwsem, sem, data, now, note, 
+                                  nreg, held, ret, sres, picked, sleeps, 
+                                  inlock, ip, mw, pool, nalloc, muFreed, refs, 
+                                  nwalive, taint3, stack, lt_l, clear, old_, 
+                                  zlo, zhi, wcnt, lw, lt_u, old_u, tc, nwl, 
+                                  wtrs, wake, wty, sor, cor, rmq_, late, lt_m, 
+                                  old_m, lt_mu, old_mu, lt_mu_, ww, old_mu_, 
+                                  sdl, scn, lt, rc, old_t, c, dl_, cn_, 
+                                  old_mu_w, lt_, first, out_, rc_, hadw, ata, 
+                                  so_, havel, tw, allr, omw, fca, sorw, all, 
+                                  old_c, tws, alr, rmq, dl, cn, old_cv, lt_c, 
+                                  rc_c, so, out, ndl, old, wq, dw, k >>
 
 us_rm_ld(self) == /\ pc[self] = "us_rm_ld"
                   /\ TRUE
                   /\ pc' = [pc EXCEPT ![self] = "us_rm_cas"]
                   /\ UNCHANGED << word, queue, cvword, cvq, waiting, rmc, cvmu, 
-                                  wl, wc, sc, nww, sem, data, now, note, nreg, 
-                                  held, ret, sres, picked, sleeps, inlock, ip, 
-                                  mw, pool, nalloc, muFreed, refs, nwalive, 
-                                  taint3, stack, lt_l, clear, old_, zlo, zhi, 
-                                  wcnt, lw, lt_u, old_u, tc, nwl, wtrs, wake, 
-                                  wty, sor, cor, rmq_, late, lt_m, old_m, 
-                                  lt_mu, old_mu, lt_mu_, ww, old_mu_, sdl, scn, 
-                                  lt, rc, old_t, c, dl_, cn_, old_mu_w, lt_, 
-                                  first, out_, rc_, hadw, ata, so_, havel, tw, 
-                                  allr, omw, fca, sorw, all, old_c, tws, alr, 
-                                  rmq, dl, cn, old_cv, lt_c, rc_c, so, out, 
-                                  ndl, old, wq, dw, k >>
+                                  wl, wc, sc, nww, nwsem, sem, data, now, note, 
+                                  nreg, held, ret, sres, picked, sleeps, 
+                                  inlock, ip, mw, pool, nalloc, muFreed, refs, 
+                                  nwalive, taint3, stack, lt_l, clear, old_, 
+                                  zlo, zhi, wcnt, lw, lt_u, old_u, tc, nwl, 
+                                  wtrs, wake, wty, sor, cor, rmq_, late, lt_m, 
+                                  old_m, lt_mu, old_mu, lt_mu_, ww, old_mu_, 
+                                  sdl, scn, lt, rc, old_t, c, dl_, cn_, 
+                                  old_mu_w, lt_, first, out_, rc_, hadw, ata, 
+                                  so_, havel, tw, allr, omw, fca, sorw, all, 
+                                  old_c, tws, alr, rmq, dl, cn, old_cv, lt_c, 
+                                  rc_c, so, out, ndl, old, wq, dw, k >>
 
 us_rm_cas(self) == /\ pc[self] = "us_rm_cas"
                    /\ rmc' = [rmc EXCEPT ![Head(rmq_[self])] = rmc[Head(rmq_[self])] + 1]
                    /\ rmq_' = [rmq_ EXCEPT ![self] = Tail(rmq_[self])]
                    /\ pc' = [pc EXCEPT ![self] = "us_rmq_l"]
                    /\ UNCHANGED << word, queue, cvword, cvq, waiting, cvmu, wl, 
-                                   wc, sc, nww, sem, data, now, note, nreg, 
-                                   held, ret, sres, picked, sleeps, inlock, ip, 
-                                   mw, pool, nalloc, muFreed, refs, nwalive, 
-                                   taint3, stack, lt_l, clear, old_, zlo, zhi, 
-                                   wcnt, lw, lt_u, old_u, tc, nwl, wtrs, wake, 
-                                   wty, sor, cor, late, lt_m, old_m, lt_mu, 
-                                   old_mu, lt_mu_, ww, old_mu_, sdl, scn, lt, 
-                                   rc, old_t, c, dl_, cn_, old_mu_w, lt_, 
-                                   first, out_, rc_, hadw, ata, so_, havel, tw, 
-                                   allr, omw, fca, sorw, all, old_c, tws, alr, 
-                                   rmq, dl, cn, old_cv, lt_c, rc_c, so, out, 
-                                   ndl, old, wq, dw, k >>
+                                   wc, sc, nww, nwsem, sem, data, now, note, 
+                                   nreg, held, ret, sres, picked, sleeps, 
+                                   inlock, ip, mw, pool, nalloc, muFreed, refs, 
+                                   nwalive, taint3, stack, lt_l, clear, old_, 
+                                   zlo, zhi, wcnt, lw, lt_u, old_u, tc, nwl, 
+                                   wtrs, wake, wty, sor, cor, late, lt_m, 
+                                   old_m, lt_mu, old_mu, lt_mu_, ww, old_mu_, 
+                                   sdl, scn, lt, rc, old_t, c, dl_, cn_, 
+                                   old_mu_w, lt_, first, out_, rc_, hadw, ata, 
+                                   so_, havel, tw, allr, omw, fca, sorw, all, 
+                                   old_c, tws, alr, rmq, dl, cn, old_cv, lt_c, 
+                                   rc_c, so, out, ndl, old, wq, dw, k >>
 
 us_after_l(self) == /\ pc[self] = "us_after_l"
                     /\ IF tc[self]
                           THEN /\ pc' = [pc EXCEPT ![self] = "us_ts_ld"]
                           ELSE /\ pc' = [pc EXCEPT ![self] = "us_merge_l"]
                     /\ UNCHANGED << word, queue, cvword, cvq, waiting, rmc, 
-                                    cvmu, wl, wc, sc, nww, sem, data, now, 
-                                    note, nreg, held, ret, sres, picked, 
+                                    cvmu, wl, wc, sc, nww, nwsem, sem, data, 
+                                    now, note, nreg, held, ret, sres, picked, 
                                     sleeps, inlock, ip, mw, pool, nalloc, 
                                     muFreed, refs, nwalive, taint3, stack, 
                                     lt_l, clear, old_, zlo, zhi, wcnt, lw, 
@@ -1215,18 +1225,18 @@ us_ts_ld(self) == /\ pc[self] = "us_ts_ld"
                         THEN /\ pc' = [pc EXCEPT ![self] = "us_ts_d"]
                         ELSE /\ pc' = [pc EXCEPT ![self] = "us_ts_cas"]
                   /\ UNCHANGED << word, queue, cvword, cvq, waiting, rmc, cvmu, 
-                                  wl, wc, sc, nww, sem, data, now, note, nreg, 
-                                  held, ret, sres, picked, sleeps, inlock, ip, 
-                                  mw, pool, nalloc, muFreed, refs, nwalive, 
-                                  taint3, stack, lt_l, clear, old_, zlo, zhi, 
-                                  wcnt, lw, lt_u, tc, nwl, wtrs, wake, wty, 
-                                  sor, cor, rmq_, late, lt_m, old_m, lt_mu, 
-                                  old_mu, lt_mu_, ww, old_mu_, sdl, scn, lt, 
-                                  rc, old_t, c, dl_, cn_, old_mu_w, lt_, first, 
-                                  out_, rc_, hadw, ata, so_, havel, tw, allr, 
-                                  omw, fca, sorw, all, old_c, tws, alr, rmq, 
-                                  dl, cn, old_cv, lt_c, rc_c, so, out, ndl, 
-                                  old, wq, dw, k >>
+                                  wl, wc, sc, nww, nwsem, sem, data, now, note, 
+                                  nreg, held, ret, sres, picked, sleeps, 
+                                  inlock, ip, mw, pool, nalloc, muFreed, refs, 
+                                  nwalive, taint3, stack, lt_l, clear, old_, 
+                                  zlo, zhi, wcnt, lw, lt_u, tc, nwl, wtrs, 
+                                  wake, wty, sor, cor, rmq_, late, lt_m, old_m, 
+                                  lt_mu, old_mu, lt_mu_, ww, old_mu_, sdl, scn, 
+                                  lt, rc, old_t, c, dl_, cn_, old_mu_w, lt_, 
+                                  first, out_, rc_, hadw, ata, so_, havel, tw, 
+                                  allr, omw, fca, sorw, all, old_c, tws, alr, 
+                                  rmq, dl, cn, old_cv, lt_c, rc_c, so, out, 
+                                  ndl, old, wq, dw, k >>
 
 us_ts_cas(self) == /\ pc[self] = "us_ts_cas"
                    /\ IF word = old_u[self]
@@ -1235,25 +1245,25 @@ us_ts_cas(self) == /\ pc[self] = "us_ts_cas"
                          ELSE /\ pc' = [pc EXCEPT ![self] = "us_ts_d"]
                               /\ word' = word
                    /\ UNCHANGED << queue, cvword, cvq, waiting, rmc, cvmu, wl, 
-                                   wc, sc, nww, sem, data, now, note, nreg, 
-                                   held, ret, sres, picked, sleeps, inlock, ip, 
-                                   mw, pool, nalloc, muFreed, refs, nwalive, 
-                                   taint3, stack, lt_l, clear, old_, zlo, zhi, 
-                                   wcnt, lw, lt_u, old_u, tc, nwl, wtrs, wake, 
-                                   wty, sor, cor, rmq_, late, lt_m, old_m, 
-                                   lt_mu, old_mu, lt_mu_, ww, old_mu_, sdl, 
-                                   scn, lt, rc, old_t, c, dl_, cn_, old_mu_w, 
-                                   lt_, first, out_, rc_, hadw, ata, so_, 
-                                   havel, tw, allr, omw, fca, sorw, all, old_c, 
-                                   tws, alr, rmq, dl, cn, old_cv, lt_c, rc_c, 
-                                   so, out, ndl, old, wq, dw, k >>
+                                   wc, sc, nww, nwsem, sem, data, now, note, 
+                                   nreg, held, ret, sres, picked, sleeps, 
+                                   inlock, ip, mw, pool, nalloc, muFreed, refs, 
+                                   nwalive, taint3, stack, lt_l, clear, old_, 
+                                   zlo, zhi, wcnt, lw, lt_u, old_u, tc, nwl, 
+                                   wtrs, wake, wty, sor, cor, rmq_, late, lt_m, 
+                                   old_m, lt_mu, old_mu, lt_mu_, ww, old_mu_, 
+                                   sdl, scn, lt, rc, old_t, c, dl_, cn_, 
+                                   old_mu_w, lt_, first, out_, rc_, hadw, ata, 
+                                   so_, havel, tw, allr, omw, fca, sorw, all, 
+                                   old_c, tws, alr, rmq, dl, cn, old_cv, lt_c, 
+                                   rc_c, so, out, ndl, old, wq, dw, k >>
 
 us_ts_d(self) == /\ pc[self] = "us_ts_d"
                  /\ pc' = [pc EXCEPT ![self] = "us_ts_ld"]
                  /\ UNCHANGED << word, queue, cvword, cvq, waiting, rmc, cvmu, 
-                                 wl, wc, sc, nww, sem, data, now, note, nreg, 
-                                 held, ret, sres, picked, sleeps, inlock, ip, 
-                                 mw, pool, nalloc, muFreed, refs, nwalive, 
+                                 wl, wc, sc, nww, nwsem, sem, data, now, note, 
+                                 nreg, held, ret, sres, picked, sleeps, inlock, 
+                                 ip, mw, pool, nalloc, muFreed, refs, nwalive, 
                                  taint3, stack, lt_l, clear, old_, zlo, zhi, 
                                  wcnt, lw, lt_u, old_u, tc, nwl, wtrs, wake, 
                                  wty, sor, cor, rmq_, late, lt_m, old_m, lt_mu, 
@@ -1271,26 +1281,26 @@ us_merge_l(self) == /\ pc[self] = "us_merge_l"
                     /\ queue' = <<>>
                     /\ pc' = [pc EXCEPT ![self] = "us_pass_l"]
                     /\ UNCHANGED << word, cvword, cvq, waiting, rmc, cvmu, wl, 
-                                    wc, nww, sem, data, now, note, nreg, held, 
-                                    ret, sres, picked, sleeps, inlock, ip, mw, 
-                                    pool, nalloc, muFreed, refs, nwalive, 
-                                    taint3, stack, lt_l, clear, old_, zlo, zhi, 
-                                    wcnt, lw, lt_u, old_u, tc, wake, wty, sor, 
-                                    cor, rmq_, late, lt_m, old_m, lt_mu, 
-                                    old_mu, lt_mu_, ww, old_mu_, sdl, scn, lt, 
-                                    rc, old_t, c, dl_, cn_, old_mu_w, lt_, 
-                                    first, out_, rc_, hadw, ata, so_, havel, 
-                                    tw, allr, omw, fca, sorw, all, old_c, tws, 
-                                    alr, rmq, dl, cn, old_cv, lt_c, rc_c, so, 
-                                    out, ndl, old, wq, dw, k >>
+                                    wc, nww, nwsem, sem, data, now, note, nreg, 
+                                    held, ret, sres, picked, sleeps, inlock, 
+                                    ip, mw, pool, nalloc, muFreed, refs, 
+                                    nwalive, taint3, stack, lt_l, clear, old_, 
+                                    zlo, zhi, wcnt, lw, lt_u, old_u, tc, wake, 
+                                    wty, sor, cor, rmq_, late, lt_m, old_m, 
+                                    lt_mu, old_mu, lt_mu_, ww, old_mu_, sdl, 
+                                    scn, lt, rc, old_t, c, dl_, cn_, old_mu_w, 
+                                    lt_, first, out_, rc_, hadw, ata, so_, 
+                                    havel, tw, allr, omw, fca, sorw, all, 
+                                    old_c, tws, alr, rmq, dl, cn, old_cv, lt_c, 
+                                    rc_c, so, out, ndl, old, wq, dw, k >>
 
 us_4_ld(self) == /\ pc[self] = "us_4_ld"
                  /\ old_u' = [old_u EXCEPT ![self] = word]
                  /\ pc' = [pc EXCEPT ![self] = "us_5_cas"]
                  /\ UNCHANGED << word, queue, cvword, cvq, waiting, rmc, cvmu, 
-                                 wl, wc, sc, nww, sem, data, now, note, nreg, 
-                                 held, ret, sres, picked, sleeps, inlock, ip, 
-                                 mw, pool, nalloc, muFreed, refs, nwalive, 
+                                 wl, wc, sc, nww, nwsem, sem, data, now, note, 
+                                 nreg, held, ret, sres, picked, sleeps, inlock, 
+                                 ip, mw, pool, nalloc, muFreed, refs, nwalive, 
                                  taint3, stack, lt_l, clear, old_, zlo, zhi, 
                                  wcnt, lw, lt_u, tc, nwl, wtrs, wake, wty, sor, 
                                  cor, rmq_, late, lt_m, old_m, lt_mu, old_mu, 
@@ -1327,12 +1337,12 @@ us_5_cas(self) == /\ pc[self] = "us_5_cas"
                                              wtrs, wake, wty, sor, cor, rmq_, 
                                              late >>
                   /\ UNCHANGED << queue, cvword, cvq, waiting, rmc, cvmu, wl, 
-                                  wc, sc, nww, sem, data, now, note, nreg, 
-                                  held, ret, sres, picked, sleeps, inlock, ip, 
-                                  mw, pool, nalloc, muFreed, refs, nwalive, 
-                                  taint3, lt_l, clear, old_, zlo, zhi, wcnt, 
-                                  lw, lt_m, old_m, lt_mu, old_mu, lt_mu_, ww, 
-                                  old_mu_, sdl, scn, lt, rc, old_t, c, dl_, 
+                                  wc, sc, nww, nwsem, sem, data, now, note, 
+                                  nreg, held, ret, sres, picked, sleeps, 
+                                  inlock, ip, mw, pool, nalloc, muFreed, refs, 
+                                  nwalive, taint3, lt_l, clear, old_, zlo, zhi, 
+                                  wcnt, lw, lt_m, old_m, lt_mu, old_mu, lt_mu_, 
+                                  ww, old_mu_, sdl, scn, lt, rc, old_t, c, dl_, 
                                   cn_, old_mu_w, lt_, first, out_, rc_, hadw, 
                                   ata, so_, havel, tw, allr, omw, fca, sorw, 
                                   all, old_c, tws, alr, rmq, dl, cn, old_cv, 
@@ -1342,18 +1352,18 @@ us_6_st(self) == /\ pc[self] = "us_6_st"
                  /\ waiting' = [waiting EXCEPT ![Head(wake[self])] = 0]
                  /\ pc' = [pc EXCEPT ![self] = "us_7_v"]
                  /\ UNCHANGED << word, queue, cvword, cvq, rmc, cvmu, wl, wc, 
-                                 sc, nww, sem, data, now, note, nreg, held, 
-                                 ret, sres, picked, sleeps, inlock, ip, mw, 
-                                 pool, nalloc, muFreed, refs, nwalive, taint3, 
-                                 stack, lt_l, clear, old_, zlo, zhi, wcnt, lw, 
-                                 lt_u, old_u, tc, nwl, wtrs, wake, wty, sor, 
-                                 cor, rmq_, late, lt_m, old_m, lt_mu, old_mu, 
-                                 lt_mu_, ww, old_mu_, sdl, scn, lt, rc, old_t, 
-                                 c, dl_, cn_, old_mu_w, lt_, first, out_, rc_, 
-                                 hadw, ata, so_, havel, tw, allr, omw, fca, 
-                                 sorw, all, old_c, tws, alr, rmq, dl, cn, 
-                                 old_cv, lt_c, rc_c, so, out, ndl, old, wq, dw, 
-                                 k >>
+                                 sc, nww, nwsem, sem, data, now, note, nreg, 
+                                 held, ret, sres, picked, sleeps, inlock, ip, 
+                                 mw, pool, nalloc, muFreed, refs, nwalive, 
+                                 taint3, stack, lt_l, clear, old_, zlo, zhi, 
+                                 wcnt, lw, lt_u, old_u, tc, nwl, wtrs, wake, 
+                                 wty, sor, cor, rmq_, late, lt_m, old_m, lt_mu, 
+                                 old_mu, lt_mu_, ww, old_mu_, sdl, scn, lt, rc, 
+                                 old_t, c, dl_, cn_, old_mu_w, lt_, first, 
+                                 out_, rc_, hadw, ata, so_, havel, tw, allr, 
+                                 omw, fca, sorw, all, old_c, tws, alr, rmq, dl, 
+                                 cn, old_cv, lt_c, rc_c, so, out, ndl, old, wq, 
+                                 dw, k >>
 
 us_7_v(self) == /\ pc[self] = "us_7_v"
                 /\ sem' = [sem EXCEPT ![Head(wake[self])] = SetV(sem[Head(wake[self])])]
@@ -1376,16 +1386,16 @@ us_7_v(self) == /\ pc[self] = "us_7_v"
                            /\ UNCHANGED << stack, lt_u, old_u, tc, nwl, wtrs, 
                                            wty, sor, cor, rmq_, late >>
                 /\ UNCHANGED << word, queue, cvword, cvq, waiting, rmc, cvmu, 
-                                wl, wc, sc, nww, data, now, note, nreg, held, 
-                                ret, sres, picked, sleeps, inlock, ip, mw, 
-                                pool, nalloc, muFreed, refs, nwalive, taint3, 
-                                lt_l, clear, old_, zlo, zhi, wcnt, lw, lt_m, 
-                                old_m, lt_mu, old_mu, lt_mu_, ww, old_mu_, sdl, 
-                                scn, lt, rc, old_t, c, dl_, cn_, old_mu_w, lt_, 
-                                first, out_, rc_, hadw, ata, so_, havel, tw, 
-                                allr, omw, fca, sorw, all, old_c, tws, alr, 
-                                rmq, dl, cn, old_cv, lt_c, rc_c, so, out, ndl, 
-                                old, wq, dw, k >>
+                                wl, wc, sc, nww, nwsem, data, now, note, nreg, 
+                                held, ret, sres, picked, sleeps, inlock, ip, 
+                                mw, pool, nalloc, muFreed, refs, nwalive, 
+                                taint3, lt_l, clear, old_, zlo, zhi, wcnt, lw, 
+                                lt_m, old_m, lt_mu, old_mu, lt_mu_, ww, 
+                                old_mu_, sdl, scn, lt, rc, old_t, c, dl_, cn_, 
+                                old_mu_w, lt_, first, out_, rc_, hadw, ata, 
+                                so_, havel, tw, allr, omw, fca, sorw, all, 
+                                old_c, tws, alr, rmq, dl, cn, old_cv, lt_c, 
+                                rc_c, so, out, ndl, old, wq, dw, k >>
 
 unlock_slow(self) == us_1_ld(self) \/ us_d(self) \/ us_2_cas(self)
                         \/ us_3_cas(self) \/ us_pass_l(self)
@@ -1411,17 +1421,17 @@ lk_1_cas(self) == /\ pc[self] = "lk_1_cas"
                              /\ UNCHANGED << word, held, inlock, stack, lt_m, 
                                              old_m >>
                   /\ UNCHANGED << queue, cvword, cvq, waiting, rmc, cvmu, wl, 
-                                  wc, sc, nww, sem, data, now, note, nreg, ret, 
-                                  sres, picked, sleeps, ip, mw, pool, nalloc, 
-                                  muFreed, refs, nwalive, taint3, lt_l, clear, 
-                                  old_, zlo, zhi, wcnt, lw, lt_u, old_u, tc, 
-                                  nwl, wtrs, wake, wty, sor, cor, rmq_, late, 
-                                  lt_mu, old_mu, lt_mu_, ww, old_mu_, sdl, scn, 
-                                  lt, rc, old_t, c, dl_, cn_, old_mu_w, lt_, 
-                                  first, out_, rc_, hadw, ata, so_, havel, tw, 
-                                  allr, omw, fca, sorw, all, old_c, tws, alr, 
-                                  rmq, dl, cn, old_cv, lt_c, rc_c, so, out, 
-                                  ndl, old, wq, dw, k >>
+                                  wc, sc, nww, nwsem, sem, data, now, note, 
+                                  nreg, ret, sres, picked, sleeps, ip, mw, 
+                                  pool, nalloc, muFreed, refs, nwalive, taint3, 
+                                  lt_l, clear, old_, zlo, zhi, wcnt, lw, lt_u, 
+                                  old_u, tc, nwl, wtrs, wake, wty, sor, cor, 
+                                  rmq_, late, lt_mu, old_mu, lt_mu_, ww, 
+                                  old_mu_, sdl, scn, lt, rc, old_t, c, dl_, 
+                                  cn_, old_mu_w, lt_, first, out_, rc_, hadw, 
+                                  ata, so_, havel, tw, allr, omw, fca, sorw, 
+                                  all, old_c, tws, alr, rmq, dl, cn, old_cv, 
+                                  lt_c, rc_c, so, out, ndl, old, wq, dw, k >>
 
 lk_2_ld(self) == /\ pc[self] = "lk_2_ld"
                  /\ IF AndZ(word, IF lt_m[self] = 1 THEN WZLO ELSE RZLO, IF lt_m[self] = 1 THEN WZHI ELSE RZHI) # 0
@@ -1459,11 +1469,11 @@ lk_2_ld(self) == /\ pc[self] = "lk_2_ld"
                             /\ UNCHANGED << mw, pool, nalloc, stack, lt_l, 
                                             clear, old_, zlo, zhi, wcnt, lw >>
                  /\ UNCHANGED << word, queue, cvword, cvq, waiting, rmc, cvmu, 
-                                 wl, wc, sc, nww, sem, data, now, note, nreg, 
-                                 held, ret, sres, picked, sleeps, inlock, ip, 
-                                 muFreed, refs, nwalive, taint3, lt_u, old_u, 
-                                 tc, nwl, wtrs, wake, wty, sor, cor, rmq_, 
-                                 late, lt_m, lt_mu, old_mu, lt_mu_, ww, 
+                                 wl, wc, sc, nww, nwsem, sem, data, now, note, 
+                                 nreg, held, ret, sres, picked, sleeps, inlock, 
+                                 ip, muFreed, refs, nwalive, taint3, lt_u, 
+                                 old_u, tc, nwl, wtrs, wake, wty, sor, cor, 
+                                 rmq_, late, lt_m, lt_mu, old_mu, lt_mu_, ww, 
                                  old_mu_, sdl, scn, lt, rc, old_t, c, dl_, cn_, 
                                  old_mu_w, lt_, first, out_, rc_, hadw, ata, 
                                  so_, havel, tw, allr, omw, fca, sorw, all, 
@@ -1512,10 +1522,10 @@ lk_3_cas(self) == /\ pc[self] = "lk_3_cas"
                              /\ pc' = [pc EXCEPT ![self] = "ls_1_ld"]
                              /\ UNCHANGED << word, held, inlock, lt_m >>
                   /\ UNCHANGED << queue, cvword, cvq, waiting, rmc, cvmu, wl, 
-                                  wc, sc, nww, sem, data, now, note, nreg, ret, 
-                                  sres, picked, sleeps, ip, muFreed, refs, 
-                                  nwalive, taint3, lt_u, old_u, tc, nwl, wtrs, 
-                                  wake, wty, sor, cor, rmq_, late, lt_mu, 
+                                  wc, sc, nww, nwsem, sem, data, now, note, 
+                                  nreg, ret, sres, picked, sleeps, ip, muFreed, 
+                                  refs, nwalive, taint3, lt_u, old_u, tc, nwl, 
+                                  wtrs, wake, wty, sor, cor, rmq_, late, lt_mu, 
                                   old_mu, lt_mu_, ww, old_mu_, sdl, scn, lt, 
                                   rc, old_t, c, dl_, cn_, old_mu_w, lt_, first, 
                                   out_, rc_, hadw, ata, so_, havel, tw, allr, 
@@ -1538,17 +1548,17 @@ tl_1_cas(self) == /\ pc[self] = "tl_1_cas"
                              /\ UNCHANGED << word, held, ret, stack, lt_mu, 
                                              old_mu >>
                   /\ UNCHANGED << queue, cvword, cvq, waiting, rmc, cvmu, wl, 
-                                  wc, sc, nww, sem, data, now, note, nreg, 
-                                  sres, picked, sleeps, inlock, ip, mw, pool, 
-                                  nalloc, muFreed, refs, nwalive, taint3, lt_l, 
-                                  clear, old_, zlo, zhi, wcnt, lw, lt_u, old_u, 
-                                  tc, nwl, wtrs, wake, wty, sor, cor, rmq_, 
-                                  late, lt_m, old_m, lt_mu_, ww, old_mu_, sdl, 
-                                  scn, lt, rc, old_t, c, dl_, cn_, old_mu_w, 
-                                  lt_, first, out_, rc_, hadw, ata, so_, havel, 
-                                  tw, allr, omw, fca, sorw, all, old_c, tws, 
-                                  alr, rmq, dl, cn, old_cv, lt_c, rc_c, so, 
-                                  out, ndl, old, wq, dw, k >>
+                                  wc, sc, nww, nwsem, sem, data, now, note, 
+                                  nreg, sres, picked, sleeps, inlock, ip, mw, 
+                                  pool, nalloc, muFreed, refs, nwalive, taint3, 
+                                  lt_l, clear, old_, zlo, zhi, wcnt, lw, lt_u, 
+                                  old_u, tc, nwl, wtrs, wake, wty, sor, cor, 
+                                  rmq_, late, lt_m, old_m, lt_mu_, ww, old_mu_, 
+                                  sdl, scn, lt, rc, old_t, c, dl_, cn_, 
+                                  old_mu_w, lt_, first, out_, rc_, hadw, ata, 
+                                  so_, havel, tw, allr, omw, fca, sorw, all, 
+                                  old_c, tws, alr, rmq, dl, cn, old_cv, lt_c, 
+                                  rc_c, so, out, ndl, old, wq, dw, k >>
 
 tl_2_ld(self) == /\ pc[self] = "tl_2_ld"
                  /\ IF AndZ(word, IF lt_mu[self] = 1 THEN WZLO ELSE RZLO, IF lt_mu[self] = 1 THEN WZHI ELSE RZHI) # 0
@@ -1561,13 +1571,13 @@ tl_2_ld(self) == /\ pc[self] = "tl_2_ld"
                             /\ pc' = [pc EXCEPT ![self] = "tl_3_cas"]
                             /\ UNCHANGED << ret, stack, lt_mu >>
                  /\ UNCHANGED << word, queue, cvword, cvq, waiting, rmc, cvmu, 
-                                 wl, wc, sc, nww, sem, data, now, note, nreg, 
-                                 held, sres, picked, sleeps, inlock, ip, mw, 
-                                 pool, nalloc, muFreed, refs, nwalive, taint3, 
-                                 lt_l, clear, old_, zlo, zhi, wcnt, lw, lt_u, 
-                                 old_u, tc, nwl, wtrs, wake, wty, sor, cor, 
-                                 rmq_, late, lt_m, old_m, lt_mu_, ww, old_mu_, 
-                                 sdl, scn, lt, rc, old_t, c, dl_, cn_, 
+                                 wl, wc, sc, nww, nwsem, sem, data, now, note, 
+                                 nreg, held, sres, picked, sleeps, inlock, ip, 
+                                 mw, pool, nalloc, muFreed, refs, nwalive, 
+                                 taint3, lt_l, clear, old_, zlo, zhi, wcnt, lw, 
+                                 lt_u, old_u, tc, nwl, wtrs, wake, wty, sor, 
+                                 cor, rmq_, late, lt_m, old_m, lt_mu_, ww, 
+                                 old_mu_, sdl, scn, lt, rc, old_t, c, dl_, cn_, 
                                  old_mu_w, lt_, first, out_, rc_, hadw, ata, 
                                  so_, havel, tw, allr, omw, fca, sorw, all, 
                                  old_c, tws, alr, rmq, dl, cn, old_cv, lt_c, 
@@ -1589,17 +1599,17 @@ tl_3_cas(self) == /\ pc[self] = "tl_3_cas"
                              /\ stack' = [stack EXCEPT ![self] = Tail(stack[self])]
                              /\ UNCHANGED << word, held >>
                   /\ UNCHANGED << queue, cvword, cvq, waiting, rmc, cvmu, wl, 
-                                  wc, sc, nww, sem, data, now, note, nreg, 
-                                  sres, picked, sleeps, inlock, ip, mw, pool, 
-                                  nalloc, muFreed, refs, nwalive, taint3, lt_l, 
-                                  clear, old_, zlo, zhi, wcnt, lw, lt_u, old_u, 
-                                  tc, nwl, wtrs, wake, wty, sor, cor, rmq_, 
-                                  late, lt_m, old_m, lt_mu_, ww, old_mu_, sdl, 
-                                  scn, lt, rc, old_t, c, dl_, cn_, old_mu_w, 
-                                  lt_, first, out_, rc_, hadw, ata, so_, havel, 
-                                  tw, allr, omw, fca, sorw, all, old_c, tws, 
-                                  alr, rmq, dl, cn, old_cv, lt_c, rc_c, so, 
-                                  out, ndl, old, wq, dw, k >>
+                                  wc, sc, nww, nwsem, sem, data, now, note, 
+                                  nreg, sres, picked, sleeps, inlock, ip, mw, 
+                                  pool, nalloc, muFreed, refs, nwalive, taint3, 
+                                  lt_l, clear, old_, zlo, zhi, wcnt, lw, lt_u, 
+                                  old_u, tc, nwl, wtrs, wake, wty, sor, cor, 
+                                  rmq_, late, lt_m, old_m, lt_mu_, ww, old_mu_, 
+                                  sdl, scn, lt, rc, old_t, c, dl_, cn_, 
+                                  old_mu_w, lt_, first, out_, rc_, hadw, ata, 
+                                  so_, havel, tw, allr, omw, fca, sorw, all, 
+                                  old_c, tws, alr, rmq, dl, cn, old_cv, lt_c, 
+                                  rc_c, so, out, ndl, old, wq, dw, k >>
 
 mu_trylock(self) == tl_1_cas(self) \/ tl_2_ld(self) \/ tl_3_cas(self)
 
@@ -1614,17 +1624,18 @@ ul_1_cas(self) == /\ pc[self] = "ul_1_cas"
                         ELSE /\ pc' = [pc EXCEPT ![self] = "ul_2_ld"]
                              /\ UNCHANGED << word, stack, lt_mu_, ww, old_mu_ >>
                   /\ UNCHANGED << queue, cvword, cvq, waiting, rmc, cvmu, wl, 
-                                  wc, sc, nww, sem, data, now, note, nreg, 
-                                  held, ret, sres, picked, sleeps, inlock, ip, 
-                                  mw, pool, nalloc, muFreed, refs, nwalive, 
-                                  taint3, lt_l, clear, old_, zlo, zhi, wcnt, 
-                                  lw, lt_u, old_u, tc, nwl, wtrs, wake, wty, 
-                                  sor, cor, rmq_, late, lt_m, old_m, lt_mu, 
-                                  old_mu, sdl, scn, lt, rc, old_t, c, dl_, cn_, 
-                                  old_mu_w, lt_, first, out_, rc_, hadw, ata, 
-                                  so_, havel, tw, allr, omw, fca, sorw, all, 
-                                  old_c, tws, alr, rmq, dl, cn, old_cv, lt_c, 
-                                  rc_c, so, out, ndl, old, wq, dw, k >>
+                                  wc, sc, nww, nwsem, sem, data, now, note, 
+                                  nreg, held, ret, sres, picked, sleeps, 
+                                  inlock, ip, mw, pool, nalloc, muFreed, refs, 
+                                  nwalive, taint3, lt_l, clear, old_, zlo, zhi, 
+                                  wcnt, lw, lt_u, old_u, tc, nwl, wtrs, wake, 
+                                  wty, sor, cor, rmq_, late, lt_m, old_m, 
+                                  lt_mu, old_mu, sdl, scn, lt, rc, old_t, c, 
+                                  dl_, cn_, old_mu_w, lt_, first, out_, rc_, 
+                                  hadw, ata, so_, havel, tw, allr, omw, fca, 
+                                  sorw, all, old_c, tws, alr, rmq, dl, cn, 
+                                  old_cv, lt_c, rc_c, so, out, ndl, old, wq, 
+                                  dw, k >>
 
 ul_2_ld(self) == /\ pc[self] = "ul_2_ld"
                  /\ IF lt_mu_[self] = 1 /\ ~ww[self] /\ (word & (WAITING + DESIG)) = WAITING
@@ -1720,9 +1731,9 @@ ul_2_ld(self) == /\ pc[self] = "ul_2_ld"
                                                                   sor, cor, 
                                                                   rmq_, late >>
                  /\ UNCHANGED << word, queue, cvword, cvq, waiting, rmc, cvmu, 
-                                 wl, wc, sc, nww, sem, data, now, note, nreg, 
-                                 held, ret, sres, picked, sleeps, inlock, ip, 
-                                 mw, pool, nalloc, muFreed, refs, nwalive, 
+                                 wl, wc, sc, nww, nwsem, sem, data, now, note, 
+                                 nreg, held, ret, sres, picked, sleeps, inlock, 
+                                 ip, mw, pool, nalloc, muFreed, refs, nwalive, 
                                  taint3, lt_l, clear, old_, zlo, zhi, wcnt, lw, 
                                  lt_m, old_m, lt_mu, old_mu, lt_mu_, ww, sdl, 
                                  scn, lt, rc, old_t, c, dl_, cn_, old_mu_w, 
@@ -1770,16 +1781,16 @@ ul_3_cas(self) == /\ pc[self] = "ul_3_cas"
                              /\ pc' = [pc EXCEPT ![self] = "us_1_ld"]
                              /\ UNCHANGED << word, lt_mu_, ww >>
                   /\ UNCHANGED << queue, cvword, cvq, waiting, rmc, cvmu, wl, 
-                                  wc, sc, nww, sem, data, now, note, nreg, 
-                                  held, ret, sres, picked, sleeps, inlock, ip, 
-                                  mw, pool, nalloc, muFreed, refs, nwalive, 
-                                  taint3, lt_l, clear, old_, zlo, zhi, wcnt, 
-                                  lw, lt_m, old_m, lt_mu, old_mu, sdl, scn, lt, 
-                                  rc, old_t, c, dl_, cn_, old_mu_w, lt_, first, 
-                                  out_, rc_, hadw, ata, so_, havel, tw, allr, 
-                                  omw, fca, sorw, all, old_c, tws, alr, rmq, 
-                                  dl, cn, old_cv, lt_c, rc_c, so, out, ndl, 
-                                  old, wq, dw, k >>
+                                  wc, sc, nww, nwsem, sem, data, now, note, 
+                                  nreg, held, ret, sres, picked, sleeps, 
+                                  inlock, ip, mw, pool, nalloc, muFreed, refs, 
+                                  nwalive, taint3, lt_l, clear, old_, zlo, zhi, 
+                                  wcnt, lw, lt_m, old_m, lt_mu, old_mu, sdl, 
+                                  scn, lt, rc, old_t, c, dl_, cn_, old_mu_w, 
+                                  lt_, first, out_, rc_, hadw, ata, so_, havel, 
+                                  tw, allr, omw, fca, sorw, all, old_c, tws, 
+                                  alr, rmq, dl, cn, old_cv, lt_c, rc_c, so, 
+                                  out, ndl, old, wq, dw, k >>
 
 mu_unlock(self) == ul_1_cas(self) \/ ul_2_ld(self) \/ ul_3_cas(self)
 
@@ -1798,17 +1809,17 @@ sw_1_r(self) == /\ pc[self] = "sw_1_r"
                                       /\ pc' = [pc EXCEPT ![self] = "sw_2_pd"]
                                       /\ UNCHANGED << sres, stack, sdl, scn >>
                 /\ UNCHANGED << word, queue, cvword, cvq, waiting, rmc, cvmu, 
-                                wl, wc, sc, nww, sem, data, now, note, held, 
-                                ret, picked, sleeps, inlock, ip, mw, pool, 
-                                nalloc, muFreed, refs, nwalive, taint3, lt_l, 
-                                clear, old_, zlo, zhi, wcnt, lw, lt_u, old_u, 
-                                tc, nwl, wtrs, wake, wty, sor, cor, rmq_, late, 
-                                lt_m, old_m, lt_mu, old_mu, lt_mu_, ww, 
-                                old_mu_, lt, rc, old_t, c, dl_, cn_, old_mu_w, 
-                                lt_, first, out_, rc_, hadw, ata, so_, havel, 
-                                tw, allr, omw, fca, sorw, all, old_c, tws, alr, 
-                                rmq, dl, cn, old_cv, lt_c, rc_c, so, out, ndl, 
-                                old, wq, dw, k >>
+                                wl, wc, sc, nww, nwsem, sem, data, now, note, 
+                                held, ret, picked, sleeps, inlock, ip, mw, 
+                                pool, nalloc, muFreed, refs, nwalive, taint3, 
+                                lt_l, clear, old_, zlo, zhi, wcnt, lw, lt_u, 
+                                old_u, tc, nwl, wtrs, wake, wty, sor, cor, 
+                                rmq_, late, lt_m, old_m, lt_mu, old_mu, lt_mu_, 
+                                ww, old_mu_, lt, rc, old_t, c, dl_, cn_, 
+                                old_mu_w, lt_, first, out_, rc_, hadw, ata, 
+                                so_, havel, tw, allr, omw, fca, sorw, all, 
+                                old_c, tws, alr, rmq, dl, cn, old_cv, lt_c, 
+                                rc_c, so, out, ndl, old, wq, dw, k >>
 
 sw_2_pd(self) == /\ pc[self] = "sw_2_pd"
                  /\ sem[W(self)] > 0 \/ Expired(sdl[self], now)
@@ -1823,12 +1834,12 @@ sw_2_pd(self) == /\ pc[self] = "sw_2_pd"
                  /\ scn' = [scn EXCEPT ![self] = Head(stack[self]).scn]
                  /\ stack' = [stack EXCEPT ![self] = Tail(stack[self])]
                  /\ UNCHANGED << word, queue, cvword, cvq, waiting, rmc, cvmu, 
-                                 wl, wc, sc, nww, data, now, note, held, ret, 
-                                 picked, sleeps, inlock, ip, mw, pool, nalloc, 
-                                 muFreed, refs, nwalive, taint3, lt_l, clear, 
-                                 old_, zlo, zhi, wcnt, lw, lt_u, old_u, tc, 
-                                 nwl, wtrs, wake, wty, sor, cor, rmq_, late, 
-                                 lt_m, old_m, lt_mu, old_mu, lt_mu_, ww, 
+                                 wl, wc, sc, nww, nwsem, data, now, note, held, 
+                                 ret, picked, sleeps, inlock, ip, mw, pool, 
+                                 nalloc, muFreed, refs, nwalive, taint3, lt_l, 
+                                 clear, old_, zlo, zhi, wcnt, lw, lt_u, old_u, 
+                                 tc, nwl, wtrs, wake, wty, sor, cor, rmq_, 
+                                 late, lt_m, old_m, lt_mu, old_mu, lt_mu_, ww, 
                                  old_mu_, lt, rc, old_t, c, dl_, cn_, old_mu_w, 
                                  lt_, first, out_, rc_, hadw, ata, so_, havel, 
                                  tw, allr, omw, fca, sorw, all, old_c, tws, 
@@ -1845,9 +1856,9 @@ ta_1_ld(self) == /\ pc[self] = "ta_1_ld"
                                   THEN /\ pc' = [pc EXCEPT ![self] = "ta_3_cas"]
                                   ELSE /\ pc' = [pc EXCEPT ![self] = "ta_d"]
                  /\ UNCHANGED << word, queue, cvword, cvq, waiting, rmc, cvmu, 
-                                 wl, wc, sc, nww, sem, data, now, note, nreg, 
-                                 held, ret, sres, picked, sleeps, inlock, ip, 
-                                 mw, pool, nalloc, muFreed, refs, nwalive, 
+                                 wl, wc, sc, nww, nwsem, sem, data, now, note, 
+                                 nreg, held, ret, sres, picked, sleeps, inlock, 
+                                 ip, mw, pool, nalloc, muFreed, refs, nwalive, 
                                  taint3, stack, lt_l, clear, old_, zlo, zhi, 
                                  wcnt, lw, lt_u, old_u, tc, nwl, wtrs, wake, 
                                  wty, sor, cor, rmq_, late, lt_m, old_m, lt_mu, 
@@ -1867,18 +1878,18 @@ ta_2_cas(self) == /\ pc[self] = "ta_2_cas"
                                    ELSE /\ pc' = [pc EXCEPT ![self] = "ta_d"]
                              /\ word' = word
                   /\ UNCHANGED << queue, cvword, cvq, waiting, rmc, cvmu, wl, 
-                                  wc, sc, nww, sem, data, now, note, nreg, 
-                                  held, ret, sres, picked, sleeps, inlock, ip, 
-                                  mw, pool, nalloc, muFreed, refs, nwalive, 
-                                  taint3, stack, lt_l, clear, old_, zlo, zhi, 
-                                  wcnt, lw, lt_u, old_u, tc, nwl, wtrs, wake, 
-                                  wty, sor, cor, rmq_, late, lt_m, old_m, 
-                                  lt_mu, old_mu, lt_mu_, ww, old_mu_, sdl, scn, 
-                                  lt, rc, old_t, c, dl_, cn_, old_mu_w, lt_, 
-                                  first, out_, rc_, hadw, ata, so_, havel, tw, 
-                                  allr, omw, fca, sorw, all, old_c, tws, alr, 
-                                  rmq, dl, cn, old_cv, lt_c, rc_c, so, out, 
-                                  ndl, old, wq, dw, k >>
+                                  wc, sc, nww, nwsem, sem, data, now, note, 
+                                  nreg, held, ret, sres, picked, sleeps, 
+                                  inlock, ip, mw, pool, nalloc, muFreed, refs, 
+                                  nwalive, taint3, stack, lt_l, clear, old_, 
+                                  zlo, zhi, wcnt, lw, lt_u, old_u, tc, nwl, 
+                                  wtrs, wake, wty, sor, cor, rmq_, late, lt_m, 
+                                  old_m, lt_mu, old_mu, lt_mu_, ww, old_mu_, 
+                                  sdl, scn, lt, rc, old_t, c, dl_, cn_, 
+                                  old_mu_w, lt_, first, out_, rc_, hadw, ata, 
+                                  so_, havel, tw, allr, omw, fca, sorw, all, 
+                                  old_c, tws, alr, rmq, dl, cn, old_cv, lt_c, 
+                                  rc_c, so, out, ndl, old, wq, dw, k >>
 
 ta_3_cas(self) == /\ pc[self] = "ta_3_cas"
                   /\ IF word = old_t[self]
@@ -1887,42 +1898,42 @@ ta_3_cas(self) == /\ pc[self] = "ta_3_cas"
                              /\ word' = word
                   /\ pc' = [pc EXCEPT ![self] = "ta_d"]
                   /\ UNCHANGED << queue, cvword, cvq, waiting, rmc, cvmu, wl, 
-                                  wc, sc, nww, sem, data, now, note, nreg, 
-                                  held, ret, sres, picked, sleeps, inlock, ip, 
-                                  mw, pool, nalloc, muFreed, refs, nwalive, 
-                                  taint3, stack, lt_l, clear, old_, zlo, zhi, 
-                                  wcnt, lw, lt_u, old_u, tc, nwl, wtrs, wake, 
-                                  wty, sor, cor, rmq_, late, lt_m, old_m, 
-                                  lt_mu, old_mu, lt_mu_, ww, old_mu_, sdl, scn, 
-                                  lt, rc, old_t, c, dl_, cn_, old_mu_w, lt_, 
-                                  first, out_, rc_, hadw, ata, so_, havel, tw, 
-                                  allr, omw, fca, sorw, all, old_c, tws, alr, 
-                                  rmq, dl, cn, old_cv, lt_c, rc_c, so, out, 
-                                  ndl, old, wq, dw, k >>
+                                  wc, sc, nww, nwsem, sem, data, now, note, 
+                                  nreg, held, ret, sres, picked, sleeps, 
+                                  inlock, ip, mw, pool, nalloc, muFreed, refs, 
+                                  nwalive, taint3, stack, lt_l, clear, old_, 
+                                  zlo, zhi, wcnt, lw, lt_u, old_u, tc, nwl, 
+                                  wtrs, wake, wty, sor, cor, rmq_, late, lt_m, 
+                                  old_m, lt_mu, old_mu, lt_mu_, ww, old_mu_, 
+                                  sdl, scn, lt, rc, old_t, c, dl_, cn_, 
+                                  old_mu_w, lt_, first, out_, rc_, hadw, ata, 
+                                  so_, havel, tw, allr, omw, fca, sorw, all, 
+                                  old_c, tws, alr, rmq, dl, cn, old_cv, lt_c, 
+                                  rc_c, so, out, ndl, old, wq, dw, k >>
 
 ta_d(self) == /\ pc[self] = "ta_d"
               /\ pc' = [pc EXCEPT ![self] = "ta_1_ld"]
               /\ UNCHANGED << word, queue, cvword, cvq, waiting, rmc, cvmu, wl, 
-                              wc, sc, nww, sem, data, now, note, nreg, held, 
-                              ret, sres, picked, sleeps, inlock, ip, mw, pool, 
-                              nalloc, muFreed, refs, nwalive, taint3, stack, 
-                              lt_l, clear, old_, zlo, zhi, wcnt, lw, lt_u, 
-                              old_u, tc, nwl, wtrs, wake, wty, sor, cor, rmq_, 
-                              late, lt_m, old_m, lt_mu, old_mu, lt_mu_, ww, 
-                              old_mu_, sdl, scn, lt, rc, old_t, c, dl_, cn_, 
-                              old_mu_w, lt_, first, out_, rc_, hadw, ata, so_, 
-                              havel, tw, allr, omw, fca, sorw, all, old_c, tws, 
-                              alr, rmq, dl, cn, old_cv, lt_c, rc_c, so, out, 
-                              ndl, old, wq, dw, k >>
+                              wc, sc, nww, nwsem, sem, data, now, note, nreg, 
+                              held, ret, sres, picked, sleeps, inlock, ip, mw, 
+                              pool, nalloc, muFreed, refs, nwalive, taint3, 
+                              stack, lt_l, clear, old_, zlo, zhi, wcnt, lw, 
+                              lt_u, old_u, tc, nwl, wtrs, wake, wty, sor, cor, 
+                              rmq_, late, lt_m, old_m, lt_mu, old_mu, lt_mu_, 
+                              ww, old_mu_, sdl, scn, lt, rc, old_t, c, dl_, 
+                              cn_, old_mu_w, lt_, first, out_, rc_, hadw, ata, 
+                              so_, havel, tw, allr, omw, fca, sorw, all, old_c, 
+                              tws, alr, rmq, dl, cn, old_cv, lt_c, rc_c, so, 
+                              out, ndl, old, wq, dw, k >>
 
 ta_5_ld(self) == /\ pc[self] = "ta_5_ld"
                  /\ IF waiting[W(self)] = 0
                        THEN /\ pc' = [pc EXCEPT ![self] = "ta_9_st"]
                        ELSE /\ pc' = [pc EXCEPT ![self] = "ta_6_ld"]
                  /\ UNCHANGED << word, queue, cvword, cvq, waiting, rmc, cvmu, 
-                                 wl, wc, sc, nww, sem, data, now, note, nreg, 
-                                 held, ret, sres, picked, sleeps, inlock, ip, 
-                                 mw, pool, nalloc, muFreed, refs, nwalive, 
+                                 wl, wc, sc, nww, nwsem, sem, data, now, note, 
+                                 nreg, held, ret, sres, picked, sleeps, inlock, 
+                                 ip, mw, pool, nalloc, muFreed, refs, nwalive, 
                                  taint3, stack, lt_l, clear, old_, zlo, zhi, 
                                  wcnt, lw, lt_u, old_u, tc, nwl, wtrs, wake, 
                                  wty, sor, cor, rmq_, late, lt_m, old_m, lt_mu, 
@@ -1942,12 +1953,12 @@ ta_6_ld(self) == /\ pc[self] = "ta_6_ld"
                                  /\ sc' = r.R
                             /\ pc' = [pc EXCEPT ![self] = "ta_7_ld"]
                  /\ UNCHANGED << word, cvword, cvq, waiting, rmc, cvmu, wl, wc, 
-                                 nww, sem, data, now, note, nreg, held, ret, 
-                                 sres, picked, sleeps, inlock, ip, mw, pool, 
-                                 nalloc, muFreed, refs, nwalive, taint3, stack, 
-                                 lt_l, clear, old_, zlo, zhi, wcnt, lw, lt_u, 
-                                 old_u, tc, nwl, wtrs, wake, wty, sor, cor, 
-                                 rmq_, late, lt_m, old_m, lt_mu, old_mu, 
+                                 nww, nwsem, sem, data, now, note, nreg, held, 
+                                 ret, sres, picked, sleeps, inlock, ip, mw, 
+                                 pool, nalloc, muFreed, refs, nwalive, taint3, 
+                                 stack, lt_l, clear, old_, zlo, zhi, wcnt, lw, 
+                                 lt_u, old_u, tc, nwl, wtrs, wake, wty, sor, 
+                                 cor, rmq_, late, lt_m, old_m, lt_mu, old_mu, 
                                  lt_mu_, ww, old_mu_, sdl, scn, lt, rc, old_t, 
                                  c, dl_, cn_, old_mu_w, lt_, first, out_, rc_, 
                                  hadw, ata, so_, havel, tw, allr, omw, fca, 
@@ -1959,9 +1970,9 @@ ta_7_ld(self) == /\ pc[self] = "ta_7_ld"
                  /\ TRUE
                  /\ pc' = [pc EXCEPT ![self] = "ta_7_cas"]
                  /\ UNCHANGED << word, queue, cvword, cvq, waiting, rmc, cvmu, 
-                                 wl, wc, sc, nww, sem, data, now, note, nreg, 
-                                 held, ret, sres, picked, sleeps, inlock, ip, 
-                                 mw, pool, nalloc, muFreed, refs, nwalive, 
+                                 wl, wc, sc, nww, nwsem, sem, data, now, note, 
+                                 nreg, held, ret, sres, picked, sleeps, inlock, 
+                                 ip, mw, pool, nalloc, muFreed, refs, nwalive, 
                                  taint3, stack, lt_l, clear, old_, zlo, zhi, 
                                  wcnt, lw, lt_u, old_u, tc, nwl, wtrs, wake, 
                                  wty, sor, cor, rmq_, late, lt_m, old_m, lt_mu, 
@@ -1976,35 +1987,35 @@ ta_7_cas(self) == /\ pc[self] = "ta_7_cas"
                   /\ rmc' = [rmc EXCEPT ![W(self)] = rmc[W(self)] + 1]
                   /\ pc' = [pc EXCEPT ![self] = "ta_8_st"]
                   /\ UNCHANGED << word, queue, cvword, cvq, waiting, cvmu, wl, 
-                                  wc, sc, nww, sem, data, now, note, nreg, 
-                                  held, ret, sres, picked, sleeps, inlock, ip, 
-                                  mw, pool, nalloc, muFreed, refs, nwalive, 
-                                  taint3, stack, lt_l, clear, old_, zlo, zhi, 
-                                  wcnt, lw, lt_u, old_u, tc, nwl, wtrs, wake, 
-                                  wty, sor, cor, rmq_, late, lt_m, old_m, 
-                                  lt_mu, old_mu, lt_mu_, ww, old_mu_, sdl, scn, 
-                                  lt, rc, old_t, c, dl_, cn_, old_mu_w, lt_, 
-                                  first, out_, rc_, hadw, ata, so_, havel, tw, 
-                                  allr, omw, fca, sorw, all, old_c, tws, alr, 
-                                  rmq, dl, cn, old_cv, lt_c, rc_c, so, out, 
-                                  ndl, old, wq, dw, k >>
+                                  wc, sc, nww, nwsem, sem, data, now, note, 
+                                  nreg, held, ret, sres, picked, sleeps, 
+                                  inlock, ip, mw, pool, nalloc, muFreed, refs, 
+                                  nwalive, taint3, stack, lt_l, clear, old_, 
+                                  zlo, zhi, wcnt, lw, lt_u, old_u, tc, nwl, 
+                                  wtrs, wake, wty, sor, cor, rmq_, late, lt_m, 
+                                  old_m, lt_mu, old_mu, lt_mu_, ww, old_mu_, 
+                                  sdl, scn, lt, rc, old_t, c, dl_, cn_, 
+                                  old_mu_w, lt_, first, out_, rc_, hadw, ata, 
+                                  so_, havel, tw, allr, omw, fca, sorw, all, 
+                                  old_c, tws, alr, rmq, dl, cn, old_cv, lt_c, 
+                                  rc_c, so, out, ndl, old, wq, dw, k >>
 
 ta_8_st(self) == /\ pc[self] = "ta_8_st"
                  /\ waiting' = [waiting EXCEPT ![W(self)] = 0]
                  /\ pc' = [pc EXCEPT ![self] = "ta_8b_st"]
                  /\ UNCHANGED << word, queue, cvword, cvq, rmc, cvmu, wl, wc, 
-                                 sc, nww, sem, data, now, note, nreg, held, 
-                                 ret, sres, picked, sleeps, inlock, ip, mw, 
-                                 pool, nalloc, muFreed, refs, nwalive, taint3, 
-                                 stack, lt_l, clear, old_, zlo, zhi, wcnt, lw, 
-                                 lt_u, old_u, tc, nwl, wtrs, wake, wty, sor, 
-                                 cor, rmq_, late, lt_m, old_m, lt_mu, old_mu, 
-                                 lt_mu_, ww, old_mu_, sdl, scn, lt, rc, old_t, 
-                                 c, dl_, cn_, old_mu_w, lt_, first, out_, rc_, 
-                                 hadw, ata, so_, havel, tw, allr, omw, fca, 
-                                 sorw, all, old_c, tws, alr, rmq, dl, cn, 
-                                 old_cv, lt_c, rc_c, so, out, ndl, old, wq, dw, 
-                                 k >>
+                                 sc, nww, nwsem, sem, data, now, note, nreg, 
+                                 held, ret, sres, picked, sleeps, inlock, ip, 
+                                 mw, pool, nalloc, muFreed, refs, nwalive, 
+                                 taint3, stack, lt_l, clear, old_, zlo, zhi, 
+                                 wcnt, lw, lt_u, old_u, tc, nwl, wtrs, wake, 
+                                 wty, sor, cor, rmq_, late, lt_m, old_m, lt_mu, 
+                                 old_mu, lt_mu_, ww, old_mu_, sdl, scn, lt, rc, 
+                                 old_t, c, dl_, cn_, old_mu_w, lt_, first, 
+                                 out_, rc_, hadw, ata, so_, havel, tw, allr, 
+                                 omw, fca, sorw, all, old_c, tws, alr, rmq, dl, 
+                                 cn, old_cv, lt_c, rc_c, so, out, ndl, old, wq, 
+                                 dw, k >>
 
 ta_8b_st(self) == /\ pc[self] = "ta_8b_st"
                   /\ word' = old_t[self] + Add(lt[self])
@@ -2016,17 +2027,17 @@ ta_8b_st(self) == /\ pc[self] = "ta_8b_st"
                   /\ rc' = [rc EXCEPT ![self] = Head(stack[self]).rc]
                   /\ stack' = [stack EXCEPT ![self] = Tail(stack[self])]
                   /\ UNCHANGED << queue, cvword, cvq, waiting, rmc, cvmu, wl, 
-                                  wc, sc, nww, sem, data, now, note, nreg, ret, 
-                                  picked, sleeps, inlock, ip, mw, pool, nalloc, 
-                                  muFreed, refs, nwalive, taint3, lt_l, clear, 
-                                  old_, zlo, zhi, wcnt, lw, lt_u, old_u, tc, 
-                                  nwl, wtrs, wake, wty, sor, cor, rmq_, late, 
-                                  lt_m, old_m, lt_mu, old_mu, lt_mu_, ww, 
-                                  old_mu_, sdl, scn, c, dl_, cn_, old_mu_w, 
-                                  lt_, first, out_, rc_, hadw, ata, so_, havel, 
-                                  tw, allr, omw, fca, sorw, all, old_c, tws, 
-                                  alr, rmq, dl, cn, old_cv, lt_c, rc_c, so, 
-                                  out, ndl, old, wq, dw, k >>
+                                  wc, sc, nww, nwsem, sem, data, now, note, 
+                                  nreg, ret, picked, sleeps, inlock, ip, mw, 
+                                  pool, nalloc, muFreed, refs, nwalive, taint3, 
+                                  lt_l, clear, old_, zlo, zhi, wcnt, lw, lt_u, 
+                                  old_u, tc, nwl, wtrs, wake, wty, sor, cor, 
+                                  rmq_, late, lt_m, old_m, lt_mu, old_mu, 
+                                  lt_mu_, ww, old_mu_, sdl, scn, c, dl_, cn_, 
+                                  old_mu_w, lt_, first, out_, rc_, hadw, ata, 
+                                  so_, havel, tw, allr, omw, fca, sorw, all, 
+                                  old_c, tws, alr, rmq, dl, cn, old_cv, lt_c, 
+                                  rc_c, so, out, ndl, old, wq, dw, k >>
 
 ta_9_st(self) == /\ pc[self] = "ta_9_st"
                  /\ word' = old_t[self]
@@ -2037,17 +2048,17 @@ ta_9_st(self) == /\ pc[self] = "ta_9_st"
                  /\ rc' = [rc EXCEPT ![self] = Head(stack[self]).rc]
                  /\ stack' = [stack EXCEPT ![self] = Tail(stack[self])]
                  /\ UNCHANGED << queue, cvword, cvq, waiting, rmc, cvmu, wl, 
-                                 wc, sc, nww, sem, data, now, note, nreg, held, 
-                                 ret, picked, sleeps, inlock, ip, mw, pool, 
-                                 nalloc, muFreed, refs, nwalive, taint3, lt_l, 
-                                 clear, old_, zlo, zhi, wcnt, lw, lt_u, old_u, 
-                                 tc, nwl, wtrs, wake, wty, sor, cor, rmq_, 
-                                 late, lt_m, old_m, lt_mu, old_mu, lt_mu_, ww, 
-                                 old_mu_, sdl, scn, c, dl_, cn_, old_mu_w, lt_, 
-                                 first, out_, rc_, hadw, ata, so_, havel, tw, 
-                                 allr, omw, fca, sorw, all, old_c, tws, alr, 
-                                 rmq, dl, cn, old_cv, lt_c, rc_c, so, out, ndl, 
-                                 old, wq, dw, k >>
+                                 wc, sc, nww, nwsem, sem, data, now, note, 
+                                 nreg, held, ret, picked, sleeps, inlock, ip, 
+                                 mw, pool, nalloc, muFreed, refs, nwalive, 
+                                 taint3, lt_l, clear, old_, zlo, zhi, wcnt, lw, 
+                                 lt_u, old_u, tc, nwl, wtrs, wake, wty, sor, 
+                                 cor, rmq_, late, lt_m, old_m, lt_mu, old_mu, 
+                                 lt_mu_, ww, old_mu_, sdl, scn, c, dl_, cn_, 
+                                 old_mu_w, lt_, first, out_, rc_, hadw, ata, 
+                                 so_, havel, tw, allr, omw, fca, sorw, all, 
+                                 old_c, tws, alr, rmq, dl, cn, old_cv, lt_c, 
+                                 rc_c, so, out, ndl, old, wq, dw, k >>
 
 try_acquire(self) == ta_1_ld(self) \/ ta_2_cas(self) \/ ta_3_cas(self)
                         \/ ta_d(self) \/ ta_5_ld(self) \/ ta_6_ld(self)
@@ -2088,8 +2099,8 @@ mw_1_ld(self) == /\ pc[self] = "mw_1_ld"
                                             first, out_, rc_, hadw, ata, so_, 
                                             havel >>
                  /\ UNCHANGED << word, queue, cvword, cvq, waiting, rmc, cvmu, 
-                                 wl, wc, sc, nww, sem, data, now, note, nreg, 
-                                 held, sres, picked, sleeps, inlock, ip, 
+                                 wl, wc, sc, nww, nwsem, sem, data, now, note, 
+                                 nreg, held, sres, picked, sleeps, inlock, ip, 
                                  muFreed, refs, nwalive, taint3, lt_l, clear, 
                                  old_, zlo, zhi, wcnt, lw, lt_u, old_u, tc, 
                                  nwl, wtrs, wake, wty, sor, cor, rmq_, late, 
@@ -2105,8 +2116,8 @@ mw_2_st(self) == /\ pc[self] = "mw_2_st"
                  /\ wl' = [wl EXCEPT ![W(self)] = lt_[self]]
                  /\ wc' = [wc EXCEPT ![W(self)] = c[self]]
                  /\ pc' = [pc EXCEPT ![self] = "mw_3_ld"]
-                 /\ UNCHANGED << word, queue, cvword, cvq, rmc, sc, nww, sem, 
-                                 data, now, note, nreg, held, ret, sres, 
+                 /\ UNCHANGED << word, queue, cvword, cvq, rmc, sc, nww, nwsem, 
+                                 sem, data, now, note, nreg, held, ret, sres, 
                                  picked, sleeps, inlock, ip, mw, pool, nalloc, 
                                  muFreed, refs, nwalive, taint3, stack, lt_l, 
                                  clear, old_, zlo, zhi, wcnt, lw, lt_u, old_u, 
@@ -2122,9 +2133,9 @@ mw_3_ld(self) == /\ pc[self] = "mw_3_ld"
                  /\ rc_' = [rc_ EXCEPT ![self] = rmc[W(self)]]
                  /\ pc' = [pc EXCEPT ![self] = "mw_4_ld"]
                  /\ UNCHANGED << word, queue, cvword, cvq, waiting, rmc, cvmu, 
-                                 wl, wc, sc, nww, sem, data, now, note, nreg, 
-                                 held, ret, sres, picked, sleeps, inlock, ip, 
-                                 mw, pool, nalloc, muFreed, refs, nwalive, 
+                                 wl, wc, sc, nww, nwsem, sem, data, now, note, 
+                                 nreg, held, ret, sres, picked, sleeps, inlock, 
+                                 ip, mw, pool, nalloc, muFreed, refs, nwalive, 
                                  taint3, stack, lt_l, clear, old_, zlo, zhi, 
                                  wcnt, lw, lt_u, old_u, tc, nwl, wtrs, wake, 
                                  wty, sor, cor, rmq_, late, lt_m, old_m, lt_mu, 
@@ -2141,9 +2152,9 @@ mw_4_ld(self) == /\ pc[self] = "mw_4_ld"
                        THEN /\ pc' = [pc EXCEPT ![self] = "mw_4_d"]
                        ELSE /\ pc' = [pc EXCEPT ![self] = "mw_5_cas"]
                  /\ UNCHANGED << word, queue, cvword, cvq, waiting, rmc, cvmu, 
-                                 wl, wc, sc, nww, sem, data, now, note, nreg, 
-                                 held, ret, sres, picked, sleeps, inlock, ip, 
-                                 mw, pool, nalloc, muFreed, refs, nwalive, 
+                                 wl, wc, sc, nww, nwsem, sem, data, now, note, 
+                                 nreg, held, ret, sres, picked, sleeps, inlock, 
+                                 ip, mw, pool, nalloc, muFreed, refs, nwalive, 
                                  taint3, stack, lt_l, clear, old_, zlo, zhi, 
                                  wcnt, lw, lt_u, old_u, tc, nwl, wtrs, wake, 
                                  wty, sor, cor, rmq_, late, lt_m, old_m, lt_mu, 
@@ -2170,7 +2181,7 @@ mw_5_cas(self) == /\ pc[self] = "mw_5_cas"
                              /\ UNCHANGED << word, queue, sc, held, first, 
                                              hadw >>
                   /\ UNCHANGED << cvword, cvq, waiting, rmc, cvmu, wl, wc, nww, 
-                                  sem, data, now, note, nreg, ret, sres, 
+                                  nwsem, sem, data, now, note, nreg, ret, sres, 
                                   picked, sleeps, inlock, ip, mw, pool, nalloc, 
                                   muFreed, refs, nwalive, taint3, stack, lt_l, 
                                   clear, old_, zlo, zhi, wcnt, lw, lt_u, old_u, 
@@ -2185,9 +2196,9 @@ mw_5_cas(self) == /\ pc[self] = "mw_5_cas"
 mw_4_d(self) == /\ pc[self] = "mw_4_d"
                 /\ pc' = [pc EXCEPT ![self] = "mw_4_ld"]
                 /\ UNCHANGED << word, queue, cvword, cvq, waiting, rmc, cvmu, 
-                                wl, wc, sc, nww, sem, data, now, note, nreg, 
-                                held, ret, sres, picked, sleeps, inlock, ip, 
-                                mw, pool, nalloc, muFreed, refs, nwalive, 
+                                wl, wc, sc, nww, nwsem, sem, data, now, note, 
+                                nreg, held, ret, sres, picked, sleeps, inlock, 
+                                ip, mw, pool, nalloc, muFreed, refs, nwalive, 
                                 taint3, stack, lt_l, clear, old_, zlo, zhi, 
                                 wcnt, lw, lt_u, old_u, tc, nwl, wtrs, wake, 
                                 wty, sor, cor, rmq_, late, lt_m, old_m, lt_mu, 
@@ -2203,9 +2214,9 @@ mw_6_ld(self) == /\ pc[self] = "mw_6_ld"
                  /\ ata' = [ata EXCEPT ![self] = IF AnyLock(old_mu_w'[self] - Add(lt_[self])) = 0 /\ hadw[self] THEN 0 ELSE Add(lt_[self])]
                  /\ pc' = [pc EXCEPT ![self] = "mw_7_cas"]
                  /\ UNCHANGED << word, queue, cvword, cvq, waiting, rmc, cvmu, 
-                                 wl, wc, sc, nww, sem, data, now, note, nreg, 
-                                 held, ret, sres, picked, sleeps, inlock, ip, 
-                                 mw, pool, nalloc, muFreed, refs, nwalive, 
+                                 wl, wc, sc, nww, nwsem, sem, data, now, note, 
+                                 nreg, held, ret, sres, picked, sleeps, inlock, 
+                                 ip, mw, pool, nalloc, muFreed, refs, nwalive, 
                                  taint3, stack, lt_l, clear, old_, zlo, zhi, 
                                  wcnt, lw, lt_u, old_u, tc, nwl, wtrs, wake, 
                                  wty, sor, cor, rmq_, late, lt_m, old_m, lt_mu, 
@@ -2256,12 +2267,12 @@ mw_7_cas(self) == /\ pc[self] = "mw_7_cas"
                                              wtrs, wake, wty, sor, cor, rmq_, 
                                              late, so_, havel >>
                   /\ UNCHANGED << queue, cvword, cvq, waiting, rmc, cvmu, wl, 
-                                  wc, sc, nww, sem, data, now, note, nreg, 
-                                  held, ret, sres, picked, sleeps, inlock, ip, 
-                                  mw, pool, nalloc, muFreed, refs, nwalive, 
-                                  taint3, lt_l, clear, old_, zlo, zhi, wcnt, 
-                                  lw, lt_m, old_m, lt_mu, old_mu, lt_mu_, ww, 
-                                  old_mu_, sdl, scn, lt, rc, old_t, c, dl_, 
+                                  wc, sc, nww, nwsem, sem, data, now, note, 
+                                  nreg, held, ret, sres, picked, sleeps, 
+                                  inlock, ip, mw, pool, nalloc, muFreed, refs, 
+                                  nwalive, taint3, lt_l, clear, old_, zlo, zhi, 
+                                  wcnt, lw, lt_m, old_m, lt_mu, old_mu, lt_mu_, 
+                                  ww, old_mu_, sdl, scn, lt, rc, old_t, c, dl_, 
                                   cn_, old_mu_w, lt_, first, out_, rc_, hadw, 
                                   ata, tw, allr, omw, fca, sorw, all, old_c, 
                                   tws, alr, rmq, dl, cn, old_cv, lt_c, rc_c, 
@@ -2283,9 +2294,9 @@ mw_8_ld(self) == /\ pc[self] = "mw_8_ld"
                                                                                \o stack[self]]
                                        /\ pc' = [pc EXCEPT ![self] = "sw_1_r"]
                  /\ UNCHANGED << word, queue, cvword, cvq, waiting, rmc, cvmu, 
-                                 wl, wc, sc, nww, sem, data, now, note, nreg, 
-                                 held, ret, sres, picked, sleeps, inlock, ip, 
-                                 mw, pool, nalloc, muFreed, refs, nwalive, 
+                                 wl, wc, sc, nww, nwsem, sem, data, now, note, 
+                                 nreg, held, ret, sres, picked, sleeps, inlock, 
+                                 ip, mw, pool, nalloc, muFreed, refs, nwalive, 
                                  taint3, lt_l, clear, old_, zlo, zhi, wcnt, lw, 
                                  lt_u, old_u, tc, nwl, wtrs, wake, wty, sor, 
                                  cor, rmq_, late, lt_m, old_m, lt_mu, old_mu, 
@@ -2301,9 +2312,9 @@ mw_9b_l(self) == /\ pc[self] = "mw_9b_l"
                        THEN /\ pc' = [pc EXCEPT ![self] = "mw_12_ld"]
                        ELSE /\ pc' = [pc EXCEPT ![self] = "mw_10_ld"]
                  /\ UNCHANGED << word, queue, cvword, cvq, waiting, rmc, cvmu, 
-                                 wl, wc, sc, nww, sem, data, now, note, nreg, 
-                                 held, ret, sres, picked, sleeps, inlock, ip, 
-                                 mw, pool, nalloc, muFreed, refs, nwalive, 
+                                 wl, wc, sc, nww, nwsem, sem, data, now, note, 
+                                 nreg, held, ret, sres, picked, sleeps, inlock, 
+                                 ip, mw, pool, nalloc, muFreed, refs, nwalive, 
                                  taint3, stack, lt_l, clear, old_, zlo, zhi, 
                                  wcnt, lw, lt_u, old_u, tc, nwl, wtrs, wake, 
                                  wty, sor, cor, rmq_, late, lt_m, old_m, lt_mu, 
@@ -2319,18 +2330,18 @@ mw_10_ld(self) == /\ pc[self] = "mw_10_ld"
                         THEN /\ pc' = [pc EXCEPT ![self] = "mw_12_ld"]
                         ELSE /\ pc' = [pc EXCEPT ![self] = "mw_11_l"]
                   /\ UNCHANGED << word, queue, cvword, cvq, waiting, rmc, cvmu, 
-                                  wl, wc, sc, nww, sem, data, now, note, nreg, 
-                                  held, ret, sres, picked, sleeps, inlock, ip, 
-                                  mw, pool, nalloc, muFreed, refs, nwalive, 
-                                  taint3, stack, lt_l, clear, old_, zlo, zhi, 
-                                  wcnt, lw, lt_u, old_u, tc, nwl, wtrs, wake, 
-                                  wty, sor, cor, rmq_, late, lt_m, old_m, 
-                                  lt_mu, old_mu, lt_mu_, ww, old_mu_, sdl, scn, 
-                                  lt, rc, old_t, c, dl_, cn_, old_mu_w, lt_, 
-                                  first, out_, rc_, hadw, ata, so_, havel, tw, 
-                                  allr, omw, fca, sorw, all, old_c, tws, alr, 
-                                  rmq, dl, cn, old_cv, lt_c, rc_c, so, out, 
-                                  ndl, old, wq, dw, k >>
+                                  wl, wc, sc, nww, nwsem, sem, data, now, note, 
+                                  nreg, held, ret, sres, picked, sleeps, 
+                                  inlock, ip, mw, pool, nalloc, muFreed, refs, 
+                                  nwalive, taint3, stack, lt_l, clear, old_, 
+                                  zlo, zhi, wcnt, lw, lt_u, old_u, tc, nwl, 
+                                  wtrs, wake, wty, sor, cor, rmq_, late, lt_m, 
+                                  old_m, lt_mu, old_mu, lt_mu_, ww, old_mu_, 
+                                  sdl, scn, lt, rc, old_t, c, dl_, cn_, 
+                                  old_mu_w, lt_, first, out_, rc_, hadw, ata, 
+                                  so_, havel, tw, allr, omw, fca, sorw, all, 
+                                  old_c, tws, alr, rmq, dl, cn, old_cv, lt_c, 
+                                  rc_c, so, out, ndl, old, wq, dw, k >>
 
 mw_11_l(self) == /\ pc[self] = "mw_11_l"
                  /\ /\ lt' = [lt EXCEPT ![self] = lt_[self]]
@@ -2344,9 +2355,9 @@ mw_11_l(self) == /\ pc[self] = "mw_11_l"
                  /\ old_t' = [old_t EXCEPT ![self] = 0]
                  /\ pc' = [pc EXCEPT ![self] = "ta_1_ld"]
                  /\ UNCHANGED << word, queue, cvword, cvq, waiting, rmc, cvmu, 
-                                 wl, wc, sc, nww, sem, data, now, note, nreg, 
-                                 held, ret, sres, picked, sleeps, inlock, ip, 
-                                 mw, pool, nalloc, muFreed, refs, nwalive, 
+                                 wl, wc, sc, nww, nwsem, sem, data, now, note, 
+                                 nreg, held, ret, sres, picked, sleeps, inlock, 
+                                 ip, mw, pool, nalloc, muFreed, refs, nwalive, 
                                  taint3, lt_l, clear, old_, zlo, zhi, wcnt, lw, 
                                  lt_u, old_u, tc, nwl, wtrs, wake, wty, sor, 
                                  cor, rmq_, late, lt_m, old_m, lt_mu, old_mu, 
@@ -2364,43 +2375,43 @@ mw_11b_l(self) == /\ pc[self] = "mw_11b_l"
                              /\ out_' = out_
                   /\ pc' = [pc EXCEPT ![self] = "mw_12_ld"]
                   /\ UNCHANGED << word, queue, cvword, cvq, waiting, rmc, cvmu, 
-                                  wl, wc, sc, nww, sem, data, now, note, nreg, 
-                                  held, ret, sres, picked, sleeps, inlock, ip, 
-                                  mw, pool, nalloc, muFreed, refs, nwalive, 
-                                  taint3, stack, lt_l, clear, old_, zlo, zhi, 
-                                  wcnt, lw, lt_u, old_u, tc, nwl, wtrs, wake, 
-                                  wty, sor, cor, rmq_, late, lt_m, old_m, 
-                                  lt_mu, old_mu, lt_mu_, ww, old_mu_, sdl, scn, 
-                                  lt, rc, old_t, c, dl_, cn_, old_mu_w, lt_, 
-                                  first, rc_, hadw, ata, so_, tw, allr, omw, 
-                                  fca, sorw, all, old_c, tws, alr, rmq, dl, cn, 
-                                  old_cv, lt_c, rc_c, so, out, ndl, old, wq, 
-                                  dw, k >>
+                                  wl, wc, sc, nww, nwsem, sem, data, now, note, 
+                                  nreg, held, ret, sres, picked, sleeps, 
+                                  inlock, ip, mw, pool, nalloc, muFreed, refs, 
+                                  nwalive, taint3, stack, lt_l, clear, old_, 
+                                  zlo, zhi, wcnt, lw, lt_u, old_u, tc, nwl, 
+                                  wtrs, wake, wty, sor, cor, rmq_, late, lt_m, 
+                                  old_m, lt_mu, old_mu, lt_mu_, ww, old_mu_, 
+                                  sdl, scn, lt, rc, old_t, c, dl_, cn_, 
+                                  old_mu_w, lt_, first, rc_, hadw, ata, so_, 
+                                  tw, allr, omw, fca, sorw, all, old_c, tws, 
+                                  alr, rmq, dl, cn, old_cv, lt_c, rc_c, so, 
+                                  out, ndl, old, wq, dw, k >>
 
 mw_12_ld(self) == /\ pc[self] = "mw_12_ld"
                   /\ IF waiting[W(self)] # 0
                         THEN /\ pc' = [pc EXCEPT ![self] = "mw_12_d"]
                         ELSE /\ pc' = [pc EXCEPT ![self] = "mw_8_ld"]
                   /\ UNCHANGED << word, queue, cvword, cvq, waiting, rmc, cvmu, 
-                                  wl, wc, sc, nww, sem, data, now, note, nreg, 
-                                  held, ret, sres, picked, sleeps, inlock, ip, 
-                                  mw, pool, nalloc, muFreed, refs, nwalive, 
-                                  taint3, stack, lt_l, clear, old_, zlo, zhi, 
-                                  wcnt, lw, lt_u, old_u, tc, nwl, wtrs, wake, 
-                                  wty, sor, cor, rmq_, late, lt_m, old_m, 
-                                  lt_mu, old_mu, lt_mu_, ww, old_mu_, sdl, scn, 
-                                  lt, rc, old_t, c, dl_, cn_, old_mu_w, lt_, 
-                                  first, out_, rc_, hadw, ata, so_, havel, tw, 
-                                  allr, omw, fca, sorw, all, old_c, tws, alr, 
-                                  rmq, dl, cn, old_cv, lt_c, rc_c, so, out, 
-                                  ndl, old, wq, dw, k >>
+                                  wl, wc, sc, nww, nwsem, sem, data, now, note, 
+                                  nreg, held, ret, sres, picked, sleeps, 
+                                  inlock, ip, mw, pool, nalloc, muFreed, refs, 
+                                  nwalive, taint3, stack, lt_l, clear, old_, 
+                                  zlo, zhi, wcnt, lw, lt_u, old_u, tc, nwl, 
+                                  wtrs, wake, wty, sor, cor, rmq_, late, lt_m, 
+                                  old_m, lt_mu, old_mu, lt_mu_, ww, old_mu_, 
+                                  sdl, scn, lt, rc, old_t, c, dl_, cn_, 
+                                  old_mu_w, lt_, first, out_, rc_, hadw, ata, 
+                                  so_, havel, tw, allr, omw, fca, sorw, all, 
+                                  old_c, tws, alr, rmq, dl, cn, old_cv, lt_c, 
+                                  rc_c, so, out, ndl, old, wq, dw, k >>
 
 mw_12_d(self) == /\ pc[self] = "mw_12_d"
                  /\ pc' = [pc EXCEPT ![self] = "mw_8_ld"]
                  /\ UNCHANGED << word, queue, cvword, cvq, waiting, rmc, cvmu, 
-                                 wl, wc, sc, nww, sem, data, now, note, nreg, 
-                                 held, ret, sres, picked, sleeps, inlock, ip, 
-                                 mw, pool, nalloc, muFreed, refs, nwalive, 
+                                 wl, wc, sc, nww, nwsem, sem, data, now, note, 
+                                 nreg, held, ret, sres, picked, sleeps, inlock, 
+                                 ip, mw, pool, nalloc, muFreed, refs, nwalive, 
                                  taint3, stack, lt_l, clear, old_, zlo, zhi, 
                                  wcnt, lw, lt_u, old_u, tc, nwl, wtrs, wake, 
                                  wty, sor, cor, rmq_, late, lt_m, old_m, lt_mu, 
@@ -2435,9 +2446,9 @@ mw_13_l(self) == /\ pc[self] = "mw_13_l"
                             /\ UNCHANGED << stack, lt_l, clear, old_, zlo, zhi, 
                                             wcnt, lw >>
                  /\ UNCHANGED << word, queue, cvword, cvq, waiting, rmc, cvmu, 
-                                 wl, wc, sc, nww, sem, data, now, note, nreg, 
-                                 held, ret, sres, picked, sleeps, inlock, ip, 
-                                 mw, pool, nalloc, muFreed, refs, nwalive, 
+                                 wl, wc, sc, nww, nwsem, sem, data, now, note, 
+                                 nreg, held, ret, sres, picked, sleeps, inlock, 
+                                 ip, mw, pool, nalloc, muFreed, refs, nwalive, 
                                  taint3, lt_u, old_u, tc, nwl, wtrs, wake, wty, 
                                  sor, cor, rmq_, late, lt_m, old_m, lt_mu, 
                                  old_mu, lt_mu_, ww, old_mu_, sdl, scn, lt, rc, 
@@ -2469,12 +2480,12 @@ mw_14_l(self) == /\ pc[self] = "mw_14_l"
                             /\ cn_' = [cn_ EXCEPT ![self] = Head(stack[self]).cn_]
                             /\ stack' = [stack EXCEPT ![self] = Tail(stack[self])]
                  /\ UNCHANGED << word, queue, cvword, cvq, waiting, rmc, cvmu, 
-                                 wl, wc, sc, nww, sem, data, now, note, nreg, 
-                                 held, sres, picked, sleeps, inlock, ip, mw, 
-                                 pool, nalloc, muFreed, refs, nwalive, taint3, 
-                                 lt_l, clear, old_, zlo, zhi, wcnt, lw, lt_u, 
-                                 old_u, tc, nwl, wtrs, wake, wty, sor, cor, 
-                                 rmq_, late, lt_m, old_m, lt_mu, old_mu, 
+                                 wl, wc, sc, nww, nwsem, sem, data, now, note, 
+                                 nreg, held, sres, picked, sleeps, inlock, ip, 
+                                 mw, pool, nalloc, muFreed, refs, nwalive, 
+                                 taint3, lt_l, clear, old_, zlo, zhi, wcnt, lw, 
+                                 lt_u, old_u, tc, nwl, wtrs, wake, wty, sor, 
+                                 cor, rmq_, late, lt_m, old_m, lt_mu, old_mu, 
                                  lt_mu_, ww, old_mu_, sdl, scn, lt, rc, old_t, 
                                  tw, allr, omw, fca, sorw, all, old_c, tws, 
                                  alr, rmq, dl, cn, old_cv, lt_c, rc_c, so, out, 
@@ -2492,9 +2503,9 @@ ww_0_l(self) == /\ pc[self] = "ww_0_l"
                       THEN /\ pc' = [pc EXCEPT ![self] = "ww_5_st"]
                       ELSE /\ pc' = [pc EXCEPT ![self] = "ww_1_ld"]
                 /\ UNCHANGED << word, queue, cvword, cvq, waiting, rmc, cvmu, 
-                                wl, wc, sc, nww, sem, data, now, note, nreg, 
-                                held, ret, sres, picked, sleeps, inlock, ip, 
-                                mw, pool, nalloc, muFreed, refs, nwalive, 
+                                wl, wc, sc, nww, nwsem, sem, data, now, note, 
+                                nreg, held, ret, sres, picked, sleeps, inlock, 
+                                ip, mw, pool, nalloc, muFreed, refs, nwalive, 
                                 taint3, stack, lt_l, clear, old_, zlo, zhi, 
                                 wcnt, lw, lt_u, old_u, tc, nwl, wtrs, wake, 
                                 wty, sor, cor, rmq_, late, lt_m, old_m, lt_mu, 
@@ -2512,9 +2523,9 @@ ww_1_ld(self) == /\ pc[self] = "ww_1_ld"
                        THEN /\ pc' = [pc EXCEPT ![self] = "ww_5_st"]
                        ELSE /\ pc' = [pc EXCEPT ![self] = "ww_2_cas"]
                  /\ UNCHANGED << word, queue, cvword, cvq, waiting, rmc, cvmu, 
-                                 wl, wc, sc, nww, sem, data, now, note, nreg, 
-                                 held, ret, sres, picked, sleeps, inlock, ip, 
-                                 mw, pool, nalloc, muFreed, refs, nwalive, 
+                                 wl, wc, sc, nww, nwsem, sem, data, now, note, 
+                                 nreg, held, ret, sres, picked, sleeps, inlock, 
+                                 ip, mw, pool, nalloc, muFreed, refs, nwalive, 
                                  taint3, stack, lt_l, clear, old_, zlo, zhi, 
                                  wcnt, lw, lt_u, old_u, tc, nwl, wtrs, wake, 
                                  wty, sor, cor, rmq_, late, lt_m, old_m, lt_mu, 
@@ -2537,25 +2548,25 @@ ww_2_cas(self) == /\ pc[self] = "ww_2_cas"
                         ELSE /\ pc' = [pc EXCEPT ![self] = "ww_5_st"]
                              /\ UNCHANGED << word, queue, cvmu, tw, sorw >>
                   /\ UNCHANGED << cvword, cvq, waiting, rmc, wl, wc, sc, nww, 
-                                  sem, data, now, note, nreg, held, ret, sres, 
-                                  picked, sleeps, inlock, ip, mw, pool, nalloc, 
-                                  muFreed, refs, nwalive, taint3, stack, lt_l, 
-                                  clear, old_, zlo, zhi, wcnt, lw, lt_u, old_u, 
-                                  tc, nwl, wtrs, wake, wty, sor, cor, rmq_, 
-                                  late, lt_m, old_m, lt_mu, old_mu, lt_mu_, ww, 
-                                  old_mu_, sdl, scn, lt, rc, old_t, c, dl_, 
-                                  cn_, old_mu_w, lt_, first, out_, rc_, hadw, 
-                                  ata, so_, havel, allr, omw, fca, all, old_c, 
-                                  tws, alr, rmq, dl, cn, old_cv, lt_c, rc_c, 
-                                  so, out, ndl, old, wq, dw, k >>
+                                  nwsem, sem, data, now, note, nreg, held, ret, 
+                                  sres, picked, sleeps, inlock, ip, mw, pool, 
+                                  nalloc, muFreed, refs, nwalive, taint3, 
+                                  stack, lt_l, clear, old_, zlo, zhi, wcnt, lw, 
+                                  lt_u, old_u, tc, nwl, wtrs, wake, wty, sor, 
+                                  cor, rmq_, late, lt_m, old_m, lt_mu, old_mu, 
+                                  lt_mu_, ww, old_mu_, sdl, scn, lt, rc, old_t, 
+                                  c, dl_, cn_, old_mu_w, lt_, first, out_, rc_, 
+                                  hadw, ata, so_, havel, allr, omw, fca, all, 
+                                  old_c, tws, alr, rmq, dl, cn, old_cv, lt_c, 
+                                  rc_c, so, out, ndl, old, wq, dw, k >>
 
 ww_3_ld(self) == /\ pc[self] = "ww_3_ld"
                  /\ omw' = [omw EXCEPT ![self] = word]
                  /\ pc' = [pc EXCEPT ![self] = "ww_4_cas"]
                  /\ UNCHANGED << word, queue, cvword, cvq, waiting, rmc, cvmu, 
-                                 wl, wc, sc, nww, sem, data, now, note, nreg, 
-                                 held, ret, sres, picked, sleeps, inlock, ip, 
-                                 mw, pool, nalloc, muFreed, refs, nwalive, 
+                                 wl, wc, sc, nww, nwsem, sem, data, now, note, 
+                                 nreg, held, ret, sres, picked, sleeps, inlock, 
+                                 ip, mw, pool, nalloc, muFreed, refs, nwalive, 
                                  taint3, stack, lt_l, clear, old_, zlo, zhi, 
                                  wcnt, lw, lt_u, old_u, tc, nwl, wtrs, wake, 
                                  wty, sor, cor, rmq_, late, lt_m, old_m, lt_mu, 
@@ -2573,18 +2584,18 @@ ww_4_cas(self) == /\ pc[self] = "ww_4_cas"
                         ELSE /\ pc' = [pc EXCEPT ![self] = "ww_3_ld"]
                              /\ word' = word
                   /\ UNCHANGED << queue, cvword, cvq, waiting, rmc, cvmu, wl, 
-                                  wc, sc, nww, sem, data, now, note, nreg, 
-                                  held, ret, sres, picked, sleeps, inlock, ip, 
-                                  mw, pool, nalloc, muFreed, refs, nwalive, 
-                                  taint3, stack, lt_l, clear, old_, zlo, zhi, 
-                                  wcnt, lw, lt_u, old_u, tc, nwl, wtrs, wake, 
-                                  wty, sor, cor, rmq_, late, lt_m, old_m, 
-                                  lt_mu, old_mu, lt_mu_, ww, old_mu_, sdl, scn, 
-                                  lt, rc, old_t, c, dl_, cn_, old_mu_w, lt_, 
-                                  first, out_, rc_, hadw, ata, so_, havel, tw, 
-                                  allr, omw, fca, sorw, all, old_c, tws, alr, 
-                                  rmq, dl, cn, old_cv, lt_c, rc_c, so, out, 
-                                  ndl, old, wq, dw, k >>
+                                  wc, sc, nww, nwsem, sem, data, now, note, 
+                                  nreg, held, ret, sres, picked, sleeps, 
+                                  inlock, ip, mw, pool, nalloc, muFreed, refs, 
+                                  nwalive, taint3, stack, lt_l, clear, old_, 
+                                  zlo, zhi, wcnt, lw, lt_u, old_u, tc, nwl, 
+                                  wtrs, wake, wty, sor, cor, rmq_, late, lt_m, 
+                                  old_m, lt_mu, old_mu, lt_mu_, ww, old_mu_, 
+                                  sdl, scn, lt, rc, old_t, c, dl_, cn_, 
+                                  old_mu_w, lt_, first, out_, rc_, hadw, ata, 
+                                  so_, havel, tw, allr, omw, fca, sorw, all, 
+                                  old_c, tws, alr, rmq, dl, cn, old_cv, lt_c, 
+                                  rc_c, so, out, ndl, old, wq, dw, k >>
 
 ww_4b_l(self) == /\ pc[self] = "ww_4b_l"
                  /\ IF tw[self] = <<>>
@@ -2598,9 +2609,9 @@ ww_4b_l(self) == /\ pc[self] = "ww_4b_l"
                        ELSE /\ pc' = [pc EXCEPT ![self] = "ww_5_st"]
                             /\ UNCHANGED << stack, tw, allr, omw, fca, sorw >>
                  /\ UNCHANGED << word, queue, cvword, cvq, waiting, rmc, cvmu, 
-                                 wl, wc, sc, nww, sem, data, now, note, nreg, 
-                                 held, ret, sres, picked, sleeps, inlock, ip, 
-                                 mw, pool, nalloc, muFreed, refs, nwalive, 
+                                 wl, wc, sc, nww, nwsem, sem, data, now, note, 
+                                 nreg, held, ret, sres, picked, sleeps, inlock, 
+                                 ip, mw, pool, nalloc, muFreed, refs, nwalive, 
                                  taint3, lt_l, clear, old_, zlo, zhi, wcnt, lw, 
                                  lt_u, old_u, tc, nwl, wtrs, wake, wty, sor, 
                                  cor, rmq_, late, lt_m, old_m, lt_mu, old_mu, 
@@ -2618,12 +2629,12 @@ ww_5_st(self) == /\ pc[self] = "ww_5_st"
                             /\ UNCHANGED waiting
                  /\ pc' = [pc EXCEPT ![self] = "ww_6_v"]
                  /\ UNCHANGED << word, queue, cvword, cvq, rmc, cvmu, wl, wc, 
-                                 sc, sem, data, now, note, nreg, held, ret, 
-                                 sres, picked, sleeps, inlock, ip, mw, pool, 
-                                 nalloc, muFreed, refs, nwalive, taint3, stack, 
-                                 lt_l, clear, old_, zlo, zhi, wcnt, lw, lt_u, 
-                                 old_u, tc, nwl, wtrs, wake, wty, sor, cor, 
-                                 rmq_, late, lt_m, old_m, lt_mu, old_mu, 
+                                 sc, nwsem, sem, data, now, note, nreg, held, 
+                                 ret, sres, picked, sleeps, inlock, ip, mw, 
+                                 pool, nalloc, muFreed, refs, nwalive, taint3, 
+                                 stack, lt_l, clear, old_, zlo, zhi, wcnt, lw, 
+                                 lt_u, old_u, tc, nwl, wtrs, wake, wty, sor, 
+                                 cor, rmq_, late, lt_m, old_m, lt_mu, old_mu, 
                                  lt_mu_, ww, old_mu_, sdl, scn, lt, rc, old_t, 
                                  c, dl_, cn_, old_mu_w, lt_, first, out_, rc_, 
                                  hadw, ata, so_, havel, tw, allr, omw, fca, 
@@ -2645,17 +2656,17 @@ ww_6_v(self) == /\ pc[self] = "ww_6_v"
                            /\ pc' = [pc EXCEPT ![self] = "ww_5_st"]
                            /\ UNCHANGED << stack, allr, omw, fca, sorw >>
                 /\ UNCHANGED << word, queue, cvword, cvq, waiting, rmc, cvmu, 
-                                wl, wc, sc, nww, data, now, note, nreg, held, 
-                                ret, sres, picked, sleeps, inlock, ip, mw, 
-                                pool, nalloc, muFreed, refs, nwalive, taint3, 
-                                lt_l, clear, old_, zlo, zhi, wcnt, lw, lt_u, 
-                                old_u, tc, nwl, wtrs, wake, wty, sor, cor, 
-                                rmq_, late, lt_m, old_m, lt_mu, old_mu, lt_mu_, 
-                                ww, old_mu_, sdl, scn, lt, rc, old_t, c, dl_, 
-                                cn_, old_mu_w, lt_, first, out_, rc_, hadw, 
-                                ata, so_, havel, all, old_c, tws, alr, rmq, dl, 
-                                cn, old_cv, lt_c, rc_c, so, out, ndl, old, wq, 
-                                dw, k >>
+                                wl, wc, sc, nww, nwsem, data, now, note, nreg, 
+                                held, ret, sres, picked, sleeps, inlock, ip, 
+                                mw, pool, nalloc, muFreed, refs, nwalive, 
+                                taint3, lt_l, clear, old_, zlo, zhi, wcnt, lw, 
+                                lt_u, old_u, tc, nwl, wtrs, wake, wty, sor, 
+                                cor, rmq_, late, lt_m, old_m, lt_mu, old_mu, 
+                                lt_mu_, ww, old_mu_, sdl, scn, lt, rc, old_t, 
+                                c, dl_, cn_, old_mu_w, lt_, first, out_, rc_, 
+                                hadw, ata, so_, havel, all, old_c, tws, alr, 
+                                rmq, dl, cn, old_cv, lt_c, rc_c, so, out, ndl, 
+                                old, wq, dw, k >>
 
 wake_waiters(self) == ww_0_l(self) \/ ww_1_ld(self) \/ ww_2_cas(self)
                          \/ ww_3_ld(self) \/ ww_4_cas(self)
@@ -2673,9 +2684,9 @@ cs_1_ld(self) == /\ pc[self] = "cs_1_ld"
                        ELSE /\ pc' = [pc EXCEPT ![self] = "cs_2_ld"]
                             /\ UNCHANGED << stack, all, old_c, tws, alr, rmq >>
                  /\ UNCHANGED << word, queue, cvword, cvq, waiting, rmc, cvmu, 
-                                 wl, wc, sc, nww, sem, data, now, note, nreg, 
-                                 held, ret, sres, picked, sleeps, inlock, ip, 
-                                 mw, pool, nalloc, muFreed, refs, nwalive, 
+                                 wl, wc, sc, nww, nwsem, sem, data, now, note, 
+                                 nreg, held, ret, sres, picked, sleeps, inlock, 
+                                 ip, mw, pool, nalloc, muFreed, refs, nwalive, 
                                  taint3, lt_l, clear, old_, zlo, zhi, wcnt, lw, 
                                  lt_u, old_u, tc, nwl, wtrs, wake, wty, sor, 
                                  cor, rmq_, late, lt_m, old_m, lt_mu, old_mu, 
@@ -2691,9 +2702,9 @@ cs_2_ld(self) == /\ pc[self] = "cs_2_ld"
                        THEN /\ pc' = [pc EXCEPT ![self] = "cs_2_d"]
                        ELSE /\ pc' = [pc EXCEPT ![self] = "cs_3_cas"]
                  /\ UNCHANGED << word, queue, cvword, cvq, waiting, rmc, cvmu, 
-                                 wl, wc, sc, nww, sem, data, now, note, nreg, 
-                                 held, ret, sres, picked, sleeps, inlock, ip, 
-                                 mw, pool, nalloc, muFreed, refs, nwalive, 
+                                 wl, wc, sc, nww, nwsem, sem, data, now, note, 
+                                 nreg, held, ret, sres, picked, sleeps, inlock, 
+                                 ip, mw, pool, nalloc, muFreed, refs, nwalive, 
                                  taint3, stack, lt_l, clear, old_, zlo, zhi, 
                                  wcnt, lw, lt_u, old_u, tc, nwl, wtrs, wake, 
                                  wty, sor, cor, rmq_, late, lt_m, old_m, lt_mu, 
@@ -2722,9 +2733,9 @@ cs_3_cas(self) == /\ pc[self] = "cs_3_cas"
                         ELSE /\ pc' = [pc EXCEPT ![self] = "cs_2_d"]
                              /\ UNCHANGED << cvword, cvq, tws, alr >>
                   /\ UNCHANGED << word, queue, waiting, rmc, cvmu, wl, wc, sc, 
-                                  nww, sem, data, now, note, nreg, held, ret, 
-                                  sres, picked, sleeps, inlock, ip, mw, pool, 
-                                  nalloc, muFreed, refs, nwalive, taint3, 
+                                  nww, nwsem, sem, data, now, note, nreg, held, 
+                                  ret, sres, picked, sleeps, inlock, ip, mw, 
+                                  pool, nalloc, muFreed, refs, nwalive, taint3, 
                                   stack, lt_l, clear, old_, zlo, zhi, wcnt, lw, 
                                   lt_u, old_u, tc, nwl, wtrs, wake, wty, sor, 
                                   cor, rmq_, late, lt_m, old_m, lt_mu, old_mu, 
@@ -2735,28 +2746,29 @@ cs_3_cas(self) == /\ pc[self] = "cs_3_cas"
                                   rc_c, so, out, ndl, old, wq, dw, k >>
 
 cs_3b_l(self) == /\ pc[self] = "cs_3b_l"
-                 /\ rmq' = [rmq EXCEPT ![self] = SelectSeq(tws[self], IsMuCv)]
+                 /\ rmq' = [rmq EXCEPT ![self] = IF CvFix THEN tws[self] ELSE SelectSeq(tws[self], IsMuCv)]
                  /\ picked' = [u \in Threads |-> picked[u] \/ (\E i \in 1..Len(tws[self]) : ThreadOf(tws[self][i]) = u)]
+                 /\ tws' = [tws EXCEPT ![self] = IF CvFix THEN SelectSeq(tws[self], IsMuCv) ELSE tws[self]]
                  /\ pc' = [pc EXCEPT ![self] = "cs_rmq_l"]
                  /\ UNCHANGED << word, queue, cvword, cvq, waiting, rmc, cvmu, 
-                                 wl, wc, sc, nww, sem, data, now, note, nreg, 
-                                 held, ret, sres, sleeps, inlock, ip, mw, pool, 
-                                 nalloc, muFreed, refs, nwalive, taint3, stack, 
-                                 lt_l, clear, old_, zlo, zhi, wcnt, lw, lt_u, 
-                                 old_u, tc, nwl, wtrs, wake, wty, sor, cor, 
-                                 rmq_, late, lt_m, old_m, lt_mu, old_mu, 
+                                 wl, wc, sc, nww, nwsem, sem, data, now, note, 
+                                 nreg, held, ret, sres, sleeps, inlock, ip, mw, 
+                                 pool, nalloc, muFreed, refs, nwalive, taint3, 
+                                 stack, lt_l, clear, old_, zlo, zhi, wcnt, lw, 
+                                 lt_u, old_u, tc, nwl, wtrs, wake, wty, sor, 
+                                 cor, rmq_, late, lt_m, old_m, lt_mu, old_mu, 
                                  lt_mu_, ww, old_mu_, sdl, scn, lt, rc, old_t, 
                                  c, dl_, cn_, old_mu_w, lt_, first, out_, rc_, 
                                  hadw, ata, so_, havel, tw, allr, omw, fca, 
-                                 sorw, all, old_c, tws, alr, dl, cn, old_cv, 
-                                 lt_c, rc_c, so, out, ndl, old, wq, dw, k >>
+                                 sorw, all, old_c, alr, dl, cn, old_cv, lt_c, 
+                                 rc_c, so, out, ndl, old, wq, dw, k >>
 
 cs_2_d(self) == /\ pc[self] = "cs_2_d"
                 /\ pc' = [pc EXCEPT ![self] = "cs_2_ld"]
                 /\ UNCHANGED << word, queue, cvword, cvq, waiting, rmc, cvmu, 
-                                wl, wc, sc, nww, sem, data, now, note, nreg, 
-                                held, ret, sres, picked, sleeps, inlock, ip, 
-                                mw, pool, nalloc, muFreed, refs, nwalive, 
+                                wl, wc, sc, nww, nwsem, sem, data, now, note, 
+                                nreg, held, ret, sres, picked, sleeps, inlock, 
+                                ip, mw, pool, nalloc, muFreed, refs, nwalive, 
                                 taint3, stack, lt_l, clear, old_, zlo, zhi, 
                                 wcnt, lw, lt_u, old_u, tc, nwl, wtrs, wake, 
                                 wty, sor, cor, rmq_, late, lt_m, old_m, lt_mu, 
@@ -2770,55 +2782,91 @@ cs_2_d(self) == /\ pc[self] = "cs_2_d"
 cs_rmq_l(self) == /\ pc[self] = "cs_rmq_l"
                   /\ IF rmq[self] = <<>>
                         THEN /\ pc' = [pc EXCEPT ![self] = "cs_4_st"]
-                        ELSE /\ pc' = [pc EXCEPT ![self] = "cs_rm_ld"]
+                        ELSE /\ IF ~IsMuCv(Head(rmq[self]))
+                                   THEN /\ pc' = [pc EXCEPT ![self] = "cs_f_st"]
+                                   ELSE /\ pc' = [pc EXCEPT ![self] = "cs_rm_ld"]
                   /\ UNCHANGED << word, queue, cvword, cvq, waiting, rmc, cvmu, 
-                                  wl, wc, sc, nww, sem, data, now, note, nreg, 
-                                  held, ret, sres, picked, sleeps, inlock, ip, 
-                                  mw, pool, nalloc, muFreed, refs, nwalive, 
-                                  taint3, stack, lt_l, clear, old_, zlo, zhi, 
-                                  wcnt, lw, lt_u, old_u, tc, nwl, wtrs, wake, 
-                                  wty, sor, cor, rmq_, late, lt_m, old_m, 
-                                  lt_mu, old_mu, lt_mu_, ww, old_mu_, sdl, scn, 
-                                  lt, rc, old_t, c, dl_, cn_, old_mu_w, lt_, 
-                                  first, out_, rc_, hadw, ata, so_, havel, tw, 
-                                  allr, omw, fca, sorw, all, old_c, tws, alr, 
-                                  rmq, dl, cn, old_cv, lt_c, rc_c, so, out, 
-                                  ndl, old, wq, dw, k >>
+                                  wl, wc, sc, nww, nwsem, sem, data, now, note, 
+                                  nreg, held, ret, sres, picked, sleeps, 
+                                  inlock, ip, mw, pool, nalloc, muFreed, refs, 
+                                  nwalive, taint3, stack, lt_l, clear, old_, 
+                                  zlo, zhi, wcnt, lw, lt_u, old_u, tc, nwl, 
+                                  wtrs, wake, wty, sor, cor, rmq_, late, lt_m, 
+                                  old_m, lt_mu, old_mu, lt_mu_, ww, old_mu_, 
+                                  sdl, scn, lt, rc, old_t, c, dl_, cn_, 
+                                  old_mu_w, lt_, first, out_, rc_, hadw, ata, 
+                                  so_, havel, tw, allr, omw, fca, sorw, all, 
+                                  old_c, tws, alr, rmq, dl, cn, old_cv, lt_c, 
+                                  rc_c, so, out, ndl, old, wq, dw, k >>
 
 cs_rm_ld(self) == /\ pc[self] = "cs_rm_ld"
                   /\ TRUE
                   /\ pc' = [pc EXCEPT ![self] = "cs_rm_cas"]
                   /\ UNCHANGED << word, queue, cvword, cvq, waiting, rmc, cvmu, 
-                                  wl, wc, sc, nww, sem, data, now, note, nreg, 
-                                  held, ret, sres, picked, sleeps, inlock, ip, 
-                                  mw, pool, nalloc, muFreed, refs, nwalive, 
-                                  taint3, stack, lt_l, clear, old_, zlo, zhi, 
-                                  wcnt, lw, lt_u, old_u, tc, nwl, wtrs, wake, 
-                                  wty, sor, cor, rmq_, late, lt_m, old_m, 
-                                  lt_mu, old_mu, lt_mu_, ww, old_mu_, sdl, scn, 
-                                  lt, rc, old_t, c, dl_, cn_, old_mu_w, lt_, 
-                                  first, out_, rc_, hadw, ata, so_, havel, tw, 
-                                  allr, omw, fca, sorw, all, old_c, tws, alr, 
-                                  rmq, dl, cn, old_cv, lt_c, rc_c, so, out, 
-                                  ndl, old, wq, dw, k >>
+                                  wl, wc, sc, nww, nwsem, sem, data, now, note, 
+                                  nreg, held, ret, sres, picked, sleeps, 
+                                  inlock, ip, mw, pool, nalloc, muFreed, refs, 
+                                  nwalive, taint3, stack, lt_l, clear, old_, 
+                                  zlo, zhi, wcnt, lw, lt_u, old_u, tc, nwl, 
+                                  wtrs, wake, wty, sor, cor, rmq_, late, lt_m, 
+                                  old_m, lt_mu, old_mu, lt_mu_, ww, old_mu_, 
+                                  sdl, scn, lt, rc, old_t, c, dl_, cn_, 
+                                  old_mu_w, lt_, first, out_, rc_, hadw, ata, 
+                                  so_, havel, tw, allr, omw, fca, sorw, all, 
+                                  old_c, tws, alr, rmq, dl, cn, old_cv, lt_c, 
+                                  rc_c, so, out, ndl, old, wq, dw, k >>
 
 cs_rm_cas(self) == /\ pc[self] = "cs_rm_cas"
                    /\ rmc' = [rmc EXCEPT ![Head(rmq[self])] = rmc[Head(rmq[self])] + 1]
                    /\ rmq' = [rmq EXCEPT ![self] = Tail(rmq[self])]
                    /\ pc' = [pc EXCEPT ![self] = "cs_rmq_l"]
                    /\ UNCHANGED << word, queue, cvword, cvq, waiting, cvmu, wl, 
-                                   wc, sc, nww, sem, data, now, note, nreg, 
-                                   held, ret, sres, picked, sleeps, inlock, ip, 
-                                   mw, pool, nalloc, muFreed, refs, nwalive, 
-                                   taint3, stack, lt_l, clear, old_, zlo, zhi, 
-                                   wcnt, lw, lt_u, old_u, tc, nwl, wtrs, wake, 
-                                   wty, sor, cor, rmq_, late, lt_m, old_m, 
-                                   lt_mu, old_mu, lt_mu_, ww, old_mu_, sdl, 
-                                   scn, lt, rc, old_t, c, dl_, cn_, old_mu_w, 
-                                   lt_, first, out_, rc_, hadw, ata, so_, 
-                                   havel, tw, allr, omw, fca, sorw, all, old_c, 
-                                   tws, alr, dl, cn, old_cv, lt_c, rc_c, so, 
-                                   out, ndl, old, wq, dw, k >>
+                                   wc, sc, nww, nwsem, sem, data, now, note, 
+                                   nreg, held, ret, sres, picked, sleeps, 
+                                   inlock, ip, mw, pool, nalloc, muFreed, refs, 
+                                   nwalive, taint3, stack, lt_l, clear, old_, 
+                                   zlo, zhi, wcnt, lw, lt_u, old_u, tc, nwl, 
+                                   wtrs, wake, wty, sor, cor, rmq_, late, lt_m, 
+                                   old_m, lt_mu, old_mu, lt_mu_, ww, old_mu_, 
+                                   sdl, scn, lt, rc, old_t, c, dl_, cn_, 
+                                   old_mu_w, lt_, first, out_, rc_, hadw, ata, 
+                                   so_, havel, tw, allr, omw, fca, sorw, all, 
+                                   old_c, tws, alr, dl, cn, old_cv, lt_c, rc_c, 
+                                   so, out, ndl, old, wq, dw, k >>
+
+cs_f_st(self) == /\ pc[self] = "cs_f_st"
+                 /\ nww' = [nww EXCEPT ![-Head(rmq[self])] = 0]
+                 /\ pc' = [pc EXCEPT ![self] = "cs_f_v"]
+                 /\ UNCHANGED << word, queue, cvword, cvq, waiting, rmc, cvmu, 
+                                 wl, wc, sc, nwsem, sem, data, now, note, nreg, 
+                                 held, ret, sres, picked, sleeps, inlock, ip, 
+                                 mw, pool, nalloc, muFreed, refs, nwalive, 
+                                 taint3, stack, lt_l, clear, old_, zlo, zhi, 
+                                 wcnt, lw, lt_u, old_u, tc, nwl, wtrs, wake, 
+                                 wty, sor, cor, rmq_, late, lt_m, old_m, lt_mu, 
+                                 old_mu, lt_mu_, ww, old_mu_, sdl, scn, lt, rc, 
+                                 old_t, c, dl_, cn_, old_mu_w, lt_, first, 
+                                 out_, rc_, hadw, ata, so_, havel, tw, allr, 
+                                 omw, fca, sorw, all, old_c, tws, alr, rmq, dl, 
+                                 cn, old_cv, lt_c, rc_c, so, out, ndl, old, wq, 
+                                 dw, k >>
+
+cs_f_v(self) == /\ pc[self] = "cs_f_v"
+                /\ sem' = [sem EXCEPT ![SemOf(Head(rmq[self]))] = SetV(sem[SemOf(Head(rmq[self]))])]
+                /\ rmq' = [rmq EXCEPT ![self] = Tail(rmq[self])]
+                /\ pc' = [pc EXCEPT ![self] = "cs_rmq_l"]
+                /\ UNCHANGED << word, queue, cvword, cvq, waiting, rmc, cvmu, 
+                                wl, wc, sc, nww, nwsem, data, now, note, nreg, 
+                                held, ret, sres, picked, sleeps, inlock, ip, 
+                                mw, pool, nalloc, muFreed, refs, nwalive, 
+                                taint3, stack, lt_l, clear, old_, zlo, zhi, 
+                                wcnt, lw, lt_u, old_u, tc, nwl, wtrs, wake, 
+                                wty, sor, cor, rmq_, late, lt_m, old_m, lt_mu, 
+                                old_mu, lt_mu_, ww, old_mu_, sdl, scn, lt, rc, 
+                                old_t, c, dl_, cn_, old_mu_w, lt_, first, out_, 
+                                rc_, hadw, ata, so_, havel, tw, allr, omw, fca, 
+                                sorw, all, old_c, tws, alr, dl, cn, old_cv, 
+                                lt_c, rc_c, so, out, ndl, old, wq, dw, k >>
 
 cs_4_st(self) == /\ pc[self] = "cs_4_st"
                  /\ cvword' = IF all[self] THEN 0 ELSE (IF cvq = <<>> THEN Clr(old_c[self], CVNE) ELSE old_c[self])
@@ -2851,12 +2899,12 @@ cs_4_st(self) == /\ pc[self] = "cs_4_st"
                             /\ pc' = [pc EXCEPT ![self] = "ww_0_l"]
                             /\ all' = all
                  /\ UNCHANGED << word, queue, cvq, waiting, rmc, cvmu, wl, wc, 
-                                 sc, nww, sem, data, now, note, nreg, held, 
-                                 ret, sres, picked, sleeps, inlock, ip, mw, 
-                                 pool, nalloc, muFreed, refs, nwalive, taint3, 
-                                 lt_l, clear, old_, zlo, zhi, wcnt, lw, lt_u, 
-                                 old_u, tc, nwl, wtrs, wake, wty, sor, cor, 
-                                 rmq_, late, lt_m, old_m, lt_mu, old_mu, 
+                                 sc, nww, nwsem, sem, data, now, note, nreg, 
+                                 held, ret, sres, picked, sleeps, inlock, ip, 
+                                 mw, pool, nalloc, muFreed, refs, nwalive, 
+                                 taint3, lt_l, clear, old_, zlo, zhi, wcnt, lw, 
+                                 lt_u, old_u, tc, nwl, wtrs, wake, wty, sor, 
+                                 cor, rmq_, late, lt_m, old_m, lt_mu, old_mu, 
                                  lt_mu_, ww, old_mu_, sdl, scn, lt, rc, old_t, 
                                  c, dl_, cn_, old_mu_w, lt_, first, out_, rc_, 
                                  hadw, ata, so_, havel, dl, cn, old_cv, lt_c, 
@@ -2864,7 +2912,8 @@ cs_4_st(self) == /\ pc[self] = "cs_4_st"
 
 cv_wake(self) == cs_1_ld(self) \/ cs_2_ld(self) \/ cs_3_cas(self)
                     \/ cs_3b_l(self) \/ cs_2_d(self) \/ cs_rmq_l(self)
-                    \/ cs_rm_ld(self) \/ cs_rm_cas(self) \/ cs_4_st(self)
+                    \/ cs_rm_ld(self) \/ cs_rm_cas(self) \/ cs_f_st(self)
+                    \/ cs_f_v(self) \/ cs_4_st(self)
 
 cw_1_st(self) == /\ pc[self] = "cw_1_st"
                  /\ waiting' = [waiting EXCEPT ![W(self)] = 1]
@@ -2872,17 +2921,18 @@ cw_1_st(self) == /\ pc[self] = "cw_1_st"
                  /\ picked' = [picked EXCEPT ![self] = FALSE]
                  /\ pc' = [pc EXCEPT ![self] = "cw_2_ld"]
                  /\ UNCHANGED << word, queue, cvword, cvq, rmc, cvmu, wl, sc, 
-                                 nww, sem, data, now, note, nreg, held, ret, 
-                                 sres, sleeps, inlock, ip, mw, pool, nalloc, 
-                                 muFreed, refs, nwalive, taint3, stack, lt_l, 
-                                 clear, old_, zlo, zhi, wcnt, lw, lt_u, old_u, 
-                                 tc, nwl, wtrs, wake, wty, sor, cor, rmq_, 
-                                 late, lt_m, old_m, lt_mu, old_mu, lt_mu_, ww, 
-                                 old_mu_, sdl, scn, lt, rc, old_t, c, dl_, cn_, 
-                                 old_mu_w, lt_, first, out_, rc_, hadw, ata, 
-                                 so_, havel, tw, allr, omw, fca, sorw, all, 
-                                 old_c, tws, alr, rmq, dl, cn, old_cv, lt_c, 
-                                 rc_c, so, out, ndl, old, wq, dw, k >>
+                                 nww, nwsem, sem, data, now, note, nreg, held, 
+                                 ret, sres, sleeps, inlock, ip, mw, pool, 
+                                 nalloc, muFreed, refs, nwalive, taint3, stack, 
+                                 lt_l, clear, old_, zlo, zhi, wcnt, lw, lt_u, 
+                                 old_u, tc, nwl, wtrs, wake, wty, sor, cor, 
+                                 rmq_, late, lt_m, old_m, lt_mu, old_mu, 
+                                 lt_mu_, ww, old_mu_, sdl, scn, lt, rc, old_t, 
+                                 c, dl_, cn_, old_mu_w, lt_, first, out_, rc_, 
+                                 hadw, ata, so_, havel, tw, allr, omw, fca, 
+                                 sorw, all, old_c, tws, alr, rmq, dl, cn, 
+                                 old_cv, lt_c, rc_c, so, out, ndl, old, wq, dw, 
+                                 k >>
 
 cw_2_ld(self) == /\ pc[self] = "cw_2_ld"
                  /\ lt_c' = [lt_c EXCEPT ![self] = IF (word & WLOCK) # 0 THEN 1 ELSE 2]
@@ -2890,17 +2940,18 @@ cw_2_ld(self) == /\ pc[self] = "cw_2_ld"
                  /\ wl' = [wl EXCEPT ![W(self)] = lt_c'[self]]
                  /\ pc' = [pc EXCEPT ![self] = "cw_3_ld"]
                  /\ UNCHANGED << word, queue, cvword, cvq, waiting, rmc, wc, 
-                                 sc, nww, sem, data, now, note, nreg, held, 
-                                 ret, sres, picked, sleeps, inlock, ip, mw, 
-                                 pool, nalloc, muFreed, refs, nwalive, taint3, 
-                                 stack, lt_l, clear, old_, zlo, zhi, wcnt, lw, 
-                                 lt_u, old_u, tc, nwl, wtrs, wake, wty, sor, 
-                                 cor, rmq_, late, lt_m, old_m, lt_mu, old_mu, 
-                                 lt_mu_, ww, old_mu_, sdl, scn, lt, rc, old_t, 
-                                 c, dl_, cn_, old_mu_w, lt_, first, out_, rc_, 
-                                 hadw, ata, so_, havel, tw, allr, omw, fca, 
-                                 sorw, all, old_c, tws, alr, rmq, dl, cn, 
-                                 old_cv, rc_c, so, out, ndl, old, wq, dw, k >>
+                                 sc, nww, nwsem, sem, data, now, note, nreg, 
+                                 held, ret, sres, picked, sleeps, inlock, ip, 
+                                 mw, pool, nalloc, muFreed, refs, nwalive, 
+                                 taint3, stack, lt_l, clear, old_, zlo, zhi, 
+                                 wcnt, lw, lt_u, old_u, tc, nwl, wtrs, wake, 
+                                 wty, sor, cor, rmq_, late, lt_m, old_m, lt_mu, 
+                                 old_mu, lt_mu_, ww, old_mu_, sdl, scn, lt, rc, 
+                                 old_t, c, dl_, cn_, old_mu_w, lt_, first, 
+                                 out_, rc_, hadw, ata, so_, havel, tw, allr, 
+                                 omw, fca, sorw, all, old_c, tws, alr, rmq, dl, 
+                                 cn, old_cv, rc_c, so, out, ndl, old, wq, dw, 
+                                 k >>
 
 cw_3_ld(self) == /\ pc[self] = "cw_3_ld"
                  /\ old_cv' = [old_cv EXCEPT ![self] = cvword]
@@ -2908,9 +2959,9 @@ cw_3_ld(self) == /\ pc[self] = "cw_3_ld"
                        THEN /\ pc' = [pc EXCEPT ![self] = "cw_3_d"]
                        ELSE /\ pc' = [pc EXCEPT ![self] = "cw_4_cas"]
                  /\ UNCHANGED << word, queue, cvword, cvq, waiting, rmc, cvmu, 
-                                 wl, wc, sc, nww, sem, data, now, note, nreg, 
-                                 held, ret, sres, picked, sleeps, inlock, ip, 
-                                 mw, pool, nalloc, muFreed, refs, nwalive, 
+                                 wl, wc, sc, nww, nwsem, sem, data, now, note, 
+                                 nreg, held, ret, sres, picked, sleeps, inlock, 
+                                 ip, mw, pool, nalloc, muFreed, refs, nwalive, 
                                  taint3, stack, lt_l, clear, old_, zlo, zhi, 
                                  wcnt, lw, lt_u, old_u, tc, nwl, wtrs, wake, 
                                  wty, sor, cor, rmq_, late, lt_m, old_m, lt_mu, 
@@ -2928,9 +2979,9 @@ cw_4_cas(self) == /\ pc[self] = "cw_4_cas"
                         ELSE /\ pc' = [pc EXCEPT ![self] = "cw_3_d"]
                              /\ UNCHANGED << cvword, cvq >>
                   /\ UNCHANGED << word, queue, waiting, rmc, cvmu, wl, wc, sc, 
-                                  nww, sem, data, now, note, nreg, held, ret, 
-                                  sres, picked, sleeps, inlock, ip, mw, pool, 
-                                  nalloc, muFreed, refs, nwalive, taint3, 
+                                  nww, nwsem, sem, data, now, note, nreg, held, 
+                                  ret, sres, picked, sleeps, inlock, ip, mw, 
+                                  pool, nalloc, muFreed, refs, nwalive, taint3, 
                                   stack, lt_l, clear, old_, zlo, zhi, wcnt, lw, 
                                   lt_u, old_u, tc, nwl, wtrs, wake, wty, sor, 
                                   cor, rmq_, late, lt_m, old_m, lt_mu, old_mu, 
@@ -2944,9 +2995,9 @@ cw_4_cas(self) == /\ pc[self] = "cw_4_cas"
 cw_3_d(self) == /\ pc[self] = "cw_3_d"
                 /\ pc' = [pc EXCEPT ![self] = "cw_3_ld"]
                 /\ UNCHANGED << word, queue, cvword, cvq, waiting, rmc, cvmu, 
-                                wl, wc, sc, nww, sem, data, now, note, nreg, 
-                                held, ret, sres, picked, sleeps, inlock, ip, 
-                                mw, pool, nalloc, muFreed, refs, nwalive, 
+                                wl, wc, sc, nww, nwsem, sem, data, now, note, 
+                                nreg, held, ret, sres, picked, sleeps, inlock, 
+                                ip, mw, pool, nalloc, muFreed, refs, nwalive, 
                                 taint3, stack, lt_l, clear, old_, zlo, zhi, 
                                 wcnt, lw, lt_u, old_u, tc, nwl, wtrs, wake, 
                                 wty, sor, cor, rmq_, late, lt_m, old_m, lt_mu, 
@@ -2961,9 +3012,9 @@ cw_5_ld(self) == /\ pc[self] = "cw_5_ld"
                  /\ rc_c' = [rc_c EXCEPT ![self] = rmc[W(self)]]
                  /\ pc' = [pc EXCEPT ![self] = "cw_6_st"]
                  /\ UNCHANGED << word, queue, cvword, cvq, waiting, rmc, cvmu, 
-                                 wl, wc, sc, nww, sem, data, now, note, nreg, 
-                                 held, ret, sres, picked, sleeps, inlock, ip, 
-                                 mw, pool, nalloc, muFreed, refs, nwalive, 
+                                 wl, wc, sc, nww, nwsem, sem, data, now, note, 
+                                 nreg, held, ret, sres, picked, sleeps, inlock, 
+                                 ip, mw, pool, nalloc, muFreed, refs, nwalive, 
                                  taint3, stack, lt_l, clear, old_, zlo, zhi, 
                                  wcnt, lw, lt_u, old_u, tc, nwl, wtrs, wake, 
                                  wty, sor, cor, rmq_, late, lt_m, old_m, lt_mu, 
@@ -2990,17 +3041,17 @@ cw_6_st(self) == /\ pc[self] = "cw_6_st"
                  /\ old_mu_' = [old_mu_ EXCEPT ![self] = 0]
                  /\ pc' = [pc EXCEPT ![self] = "ul_1_cas"]
                  /\ UNCHANGED << word, queue, cvq, waiting, rmc, cvmu, wl, wc, 
-                                 sc, nww, sem, data, now, note, nreg, ret, 
-                                 sres, picked, sleeps, inlock, ip, mw, pool, 
-                                 nalloc, muFreed, refs, nwalive, taint3, lt_l, 
-                                 clear, old_, zlo, zhi, wcnt, lw, lt_u, old_u, 
-                                 tc, nwl, wtrs, wake, wty, sor, cor, rmq_, 
-                                 late, lt_m, old_m, lt_mu, old_mu, sdl, scn, 
-                                 lt, rc, old_t, c, dl_, cn_, old_mu_w, lt_, 
-                                 first, out_, rc_, hadw, ata, so_, havel, tw, 
-                                 allr, omw, fca, sorw, all, old_c, tws, alr, 
-                                 rmq, dl, cn, old_cv, lt_c, rc_c, ndl, old, wq, 
-                                 dw, k >>
+                                 sc, nww, nwsem, sem, data, now, note, nreg, 
+                                 ret, sres, picked, sleeps, inlock, ip, mw, 
+                                 pool, nalloc, muFreed, refs, nwalive, taint3, 
+                                 lt_l, clear, old_, zlo, zhi, wcnt, lw, lt_u, 
+                                 old_u, tc, nwl, wtrs, wake, wty, sor, cor, 
+                                 rmq_, late, lt_m, old_m, lt_mu, old_mu, sdl, 
+                                 scn, lt, rc, old_t, c, dl_, cn_, old_mu_w, 
+                                 lt_, first, out_, rc_, hadw, ata, so_, havel, 
+                                 tw, allr, omw, fca, sorw, all, old_c, tws, 
+                                 alr, rmq, dl, cn, old_cv, lt_c, rc_c, ndl, 
+                                 old, wq, dw, k >>
 
 cw_7_ld(self) == /\ pc[self] = "cw_7_ld"
                  /\ IF waiting[W(self)] = 0
@@ -3018,9 +3069,9 @@ cw_7_ld(self) == /\ pc[self] = "cw_7_ld"
                                                                                \o stack[self]]
                                        /\ pc' = [pc EXCEPT ![self] = "sw_1_r"]
                  /\ UNCHANGED << word, queue, cvword, cvq, waiting, rmc, cvmu, 
-                                 wl, wc, sc, nww, sem, data, now, note, nreg, 
-                                 held, ret, sres, picked, sleeps, inlock, ip, 
-                                 mw, pool, nalloc, muFreed, refs, nwalive, 
+                                 wl, wc, sc, nww, nwsem, sem, data, now, note, 
+                                 nreg, held, ret, sres, picked, sleeps, inlock, 
+                                 ip, mw, pool, nalloc, muFreed, refs, nwalive, 
                                  taint3, lt_l, clear, old_, zlo, zhi, wcnt, lw, 
                                  lt_u, old_u, tc, nwl, wtrs, wake, wty, sor, 
                                  cor, rmq_, late, lt_m, old_m, lt_mu, old_mu, 
@@ -3036,9 +3087,9 @@ cw_8b_l(self) == /\ pc[self] = "cw_8b_l"
                        THEN /\ pc' = [pc EXCEPT ![self] = "cw_16_ld"]
                        ELSE /\ pc' = [pc EXCEPT ![self] = "cw_9_ld"]
                  /\ UNCHANGED << word, queue, cvword, cvq, waiting, rmc, cvmu, 
-                                 wl, wc, sc, nww, sem, data, now, note, nreg, 
-                                 held, ret, sres, picked, sleeps, inlock, ip, 
-                                 mw, pool, nalloc, muFreed, refs, nwalive, 
+                                 wl, wc, sc, nww, nwsem, sem, data, now, note, 
+                                 nreg, held, ret, sres, picked, sleeps, inlock, 
+                                 ip, mw, pool, nalloc, muFreed, refs, nwalive, 
                                  taint3, stack, lt_l, clear, old_, zlo, zhi, 
                                  wcnt, lw, lt_u, old_u, tc, nwl, wtrs, wake, 
                                  wty, sor, cor, rmq_, late, lt_m, old_m, lt_mu, 
@@ -3054,9 +3105,9 @@ cw_9_ld(self) == /\ pc[self] = "cw_9_ld"
                        THEN /\ pc' = [pc EXCEPT ![self] = "cw_16_ld"]
                        ELSE /\ pc' = [pc EXCEPT ![self] = "cw_10_ld"]
                  /\ UNCHANGED << word, queue, cvword, cvq, waiting, rmc, cvmu, 
-                                 wl, wc, sc, nww, sem, data, now, note, nreg, 
-                                 held, ret, sres, picked, sleeps, inlock, ip, 
-                                 mw, pool, nalloc, muFreed, refs, nwalive, 
+                                 wl, wc, sc, nww, nwsem, sem, data, now, note, 
+                                 nreg, held, ret, sres, picked, sleeps, inlock, 
+                                 ip, mw, pool, nalloc, muFreed, refs, nwalive, 
                                  taint3, stack, lt_l, clear, old_, zlo, zhi, 
                                  wcnt, lw, lt_u, old_u, tc, nwl, wtrs, wake, 
                                  wty, sor, cor, rmq_, late, lt_m, old_m, lt_mu, 
@@ -3073,18 +3124,18 @@ cw_10_ld(self) == /\ pc[self] = "cw_10_ld"
                         THEN /\ pc' = [pc EXCEPT ![self] = "cw_10_d"]
                         ELSE /\ pc' = [pc EXCEPT ![self] = "cw_11_cas"]
                   /\ UNCHANGED << word, queue, cvword, cvq, waiting, rmc, cvmu, 
-                                  wl, wc, sc, nww, sem, data, now, note, nreg, 
-                                  held, ret, sres, picked, sleeps, inlock, ip, 
-                                  mw, pool, nalloc, muFreed, refs, nwalive, 
-                                  taint3, stack, lt_l, clear, old_, zlo, zhi, 
-                                  wcnt, lw, lt_u, old_u, tc, nwl, wtrs, wake, 
-                                  wty, sor, cor, rmq_, late, lt_m, old_m, 
-                                  lt_mu, old_mu, lt_mu_, ww, old_mu_, sdl, scn, 
-                                  lt, rc, old_t, c, dl_, cn_, old_mu_w, lt_, 
-                                  first, out_, rc_, hadw, ata, so_, havel, tw, 
-                                  allr, omw, fca, sorw, all, old_c, tws, alr, 
-                                  rmq, dl, cn, lt_c, rc_c, so, out, ndl, old, 
-                                  wq, dw, k >>
+                                  wl, wc, sc, nww, nwsem, sem, data, now, note, 
+                                  nreg, held, ret, sres, picked, sleeps, 
+                                  inlock, ip, mw, pool, nalloc, muFreed, refs, 
+                                  nwalive, taint3, stack, lt_l, clear, old_, 
+                                  zlo, zhi, wcnt, lw, lt_u, old_u, tc, nwl, 
+                                  wtrs, wake, wty, sor, cor, rmq_, late, lt_m, 
+                                  old_m, lt_mu, old_mu, lt_mu_, ww, old_mu_, 
+                                  sdl, scn, lt, rc, old_t, c, dl_, cn_, 
+                                  old_mu_w, lt_, first, out_, rc_, hadw, ata, 
+                                  so_, havel, tw, allr, omw, fca, sorw, all, 
+                                  old_c, tws, alr, rmq, dl, cn, lt_c, rc_c, so, 
+                                  out, ndl, old, wq, dw, k >>
 
 cw_11_cas(self) == /\ pc[self] = "cw_11_cas"
                    /\ IF cvword = old_cv[self]
@@ -3093,25 +3144,25 @@ cw_11_cas(self) == /\ pc[self] = "cw_11_cas"
                          ELSE /\ pc' = [pc EXCEPT ![self] = "cw_10_d"]
                               /\ UNCHANGED cvword
                    /\ UNCHANGED << word, queue, cvq, waiting, rmc, cvmu, wl, 
-                                   wc, sc, nww, sem, data, now, note, nreg, 
-                                   held, ret, sres, picked, sleeps, inlock, ip, 
-                                   mw, pool, nalloc, muFreed, refs, nwalive, 
-                                   taint3, stack, lt_l, clear, old_, zlo, zhi, 
-                                   wcnt, lw, lt_u, old_u, tc, nwl, wtrs, wake, 
-                                   wty, sor, cor, rmq_, late, lt_m, old_m, 
-                                   lt_mu, old_mu, lt_mu_, ww, old_mu_, sdl, 
-                                   scn, lt, rc, old_t, c, dl_, cn_, old_mu_w, 
-                                   lt_, first, out_, rc_, hadw, ata, so_, 
-                                   havel, tw, allr, omw, fca, sorw, all, old_c, 
-                                   tws, alr, rmq, dl, cn, old_cv, lt_c, rc_c, 
-                                   so, out, ndl, old, wq, dw, k >>
+                                   wc, sc, nww, nwsem, sem, data, now, note, 
+                                   nreg, held, ret, sres, picked, sleeps, 
+                                   inlock, ip, mw, pool, nalloc, muFreed, refs, 
+                                   nwalive, taint3, stack, lt_l, clear, old_, 
+                                   zlo, zhi, wcnt, lw, lt_u, old_u, tc, nwl, 
+                                   wtrs, wake, wty, sor, cor, rmq_, late, lt_m, 
+                                   old_m, lt_mu, old_mu, lt_mu_, ww, old_mu_, 
+                                   sdl, scn, lt, rc, old_t, c, dl_, cn_, 
+                                   old_mu_w, lt_, first, out_, rc_, hadw, ata, 
+                                   so_, havel, tw, allr, omw, fca, sorw, all, 
+                                   old_c, tws, alr, rmq, dl, cn, old_cv, lt_c, 
+                                   rc_c, so, out, ndl, old, wq, dw, k >>
 
 cw_10_d(self) == /\ pc[self] = "cw_10_d"
                  /\ pc' = [pc EXCEPT ![self] = "cw_10_ld"]
                  /\ UNCHANGED << word, queue, cvword, cvq, waiting, rmc, cvmu, 
-                                 wl, wc, sc, nww, sem, data, now, note, nreg, 
-                                 held, ret, sres, picked, sleeps, inlock, ip, 
-                                 mw, pool, nalloc, muFreed, refs, nwalive, 
+                                 wl, wc, sc, nww, nwsem, sem, data, now, note, 
+                                 nreg, held, ret, sres, picked, sleeps, inlock, 
+                                 ip, mw, pool, nalloc, muFreed, refs, nwalive, 
                                  taint3, stack, lt_l, clear, old_, zlo, zhi, 
                                  wcnt, lw, lt_u, old_u, tc, nwl, wtrs, wake, 
                                  wty, sor, cor, rmq_, late, lt_m, old_m, lt_mu, 
@@ -3127,18 +3178,18 @@ cw_12_ld(self) == /\ pc[self] = "cw_12_ld"
                         THEN /\ pc' = [pc EXCEPT ![self] = "cw_15_st"]
                         ELSE /\ pc' = [pc EXCEPT ![self] = "cw_13_ld"]
                   /\ UNCHANGED << word, queue, cvword, cvq, waiting, rmc, cvmu, 
-                                  wl, wc, sc, nww, sem, data, now, note, nreg, 
-                                  held, ret, sres, picked, sleeps, inlock, ip, 
-                                  mw, pool, nalloc, muFreed, refs, nwalive, 
-                                  taint3, stack, lt_l, clear, old_, zlo, zhi, 
-                                  wcnt, lw, lt_u, old_u, tc, nwl, wtrs, wake, 
-                                  wty, sor, cor, rmq_, late, lt_m, old_m, 
-                                  lt_mu, old_mu, lt_mu_, ww, old_mu_, sdl, scn, 
-                                  lt, rc, old_t, c, dl_, cn_, old_mu_w, lt_, 
-                                  first, out_, rc_, hadw, ata, so_, havel, tw, 
-                                  allr, omw, fca, sorw, all, old_c, tws, alr, 
-                                  rmq, dl, cn, old_cv, lt_c, rc_c, so, out, 
-                                  ndl, old, wq, dw, k >>
+                                  wl, wc, sc, nww, nwsem, sem, data, now, note, 
+                                  nreg, held, ret, sres, picked, sleeps, 
+                                  inlock, ip, mw, pool, nalloc, muFreed, refs, 
+                                  nwalive, taint3, stack, lt_l, clear, old_, 
+                                  zlo, zhi, wcnt, lw, lt_u, old_u, tc, nwl, 
+                                  wtrs, wake, wty, sor, cor, rmq_, late, lt_m, 
+                                  old_m, lt_mu, old_mu, lt_mu_, ww, old_mu_, 
+                                  sdl, scn, lt, rc, old_t, c, dl_, cn_, 
+                                  old_mu_w, lt_, first, out_, rc_, hadw, ata, 
+                                  so_, havel, tw, allr, omw, fca, sorw, all, 
+                                  old_c, tws, alr, rmq, dl, cn, old_cv, lt_c, 
+                                  rc_c, so, out, ndl, old, wq, dw, k >>
 
 cw_13_ld(self) == /\ pc[self] = "cw_13_ld"
                   /\ IF rc_c[self] # rmc[W(self)]
@@ -3148,94 +3199,59 @@ cw_13_ld(self) == /\ pc[self] = "cw_13_ld"
                              /\ cvq' = Without(cvq, W(self))
                              /\ pc' = [pc EXCEPT ![self] = "cw_14_ld"]
                   /\ UNCHANGED << word, queue, cvword, waiting, rmc, cvmu, wl, 
-                                  wc, sc, nww, sem, data, now, note, nreg, 
-                                  held, ret, sres, picked, sleeps, inlock, ip, 
-                                  mw, pool, nalloc, muFreed, refs, nwalive, 
-                                  taint3, stack, lt_l, clear, old_, zlo, zhi, 
-                                  wcnt, lw, lt_u, old_u, tc, nwl, wtrs, wake, 
-                                  wty, sor, cor, rmq_, late, lt_m, old_m, 
-                                  lt_mu, old_mu, lt_mu_, ww, old_mu_, sdl, scn, 
-                                  lt, rc, old_t, c, dl_, cn_, old_mu_w, lt_, 
-                                  first, out_, rc_, hadw, ata, so_, havel, tw, 
-                                  allr, omw, fca, sorw, all, old_c, tws, alr, 
-                                  rmq, dl, cn, old_cv, lt_c, rc_c, so, ndl, 
-                                  old, wq, dw, k >>
+                                  wc, sc, nww, nwsem, sem, data, now, note, 
+                                  nreg, held, ret, sres, picked, sleeps, 
+                                  inlock, ip, mw, pool, nalloc, muFreed, refs, 
+                                  nwalive, taint3, stack, lt_l, clear, old_, 
+                                  zlo, zhi, wcnt, lw, lt_u, old_u, tc, nwl, 
+                                  wtrs, wake, wty, sor, cor, rmq_, late, lt_m, 
+                                  old_m, lt_mu, old_mu, lt_mu_, ww, old_mu_, 
+                                  sdl, scn, lt, rc, old_t, c, dl_, cn_, 
+                                  old_mu_w, lt_, first, out_, rc_, hadw, ata, 
+                                  so_, havel, tw, allr, omw, fca, sorw, all, 
+                                  old_c, tws, alr, rmq, dl, cn, old_cv, lt_c, 
+                                  rc_c, so, ndl, old, wq, dw, k >>
 
 cw_14_ld(self) == /\ pc[self] = "cw_14_ld"
                   /\ TRUE
                   /\ pc' = [pc EXCEPT ![self] = "cw_14_cas"]
                   /\ UNCHANGED << word, queue, cvword, cvq, waiting, rmc, cvmu, 
-                                  wl, wc, sc, nww, sem, data, now, note, nreg, 
-                                  held, ret, sres, picked, sleeps, inlock, ip, 
-                                  mw, pool, nalloc, muFreed, refs, nwalive, 
-                                  taint3, stack, lt_l, clear, old_, zlo, zhi, 
-                                  wcnt, lw, lt_u, old_u, tc, nwl, wtrs, wake, 
-                                  wty, sor, cor, rmq_, late, lt_m, old_m, 
-                                  lt_mu, old_mu, lt_mu_, ww, old_mu_, sdl, scn, 
-                                  lt, rc, old_t, c, dl_, cn_, old_mu_w, lt_, 
-                                  first, out_, rc_, hadw, ata, so_, havel, tw, 
-                                  allr, omw, fca, sorw, all, old_c, tws, alr, 
-                                  rmq, dl, cn, old_cv, lt_c, rc_c, so, out, 
-                                  ndl, old, wq, dw, k >>
+                                  wl, wc, sc, nww, nwsem, sem, data, now, note, 
+                                  nreg, held, ret, sres, picked, sleeps, 
+                                  inlock, ip, mw, pool, nalloc, muFreed, refs, 
+                                  nwalive, taint3, stack, lt_l, clear, old_, 
+                                  zlo, zhi, wcnt, lw, lt_u, old_u, tc, nwl, 
+                                  wtrs, wake, wty, sor, cor, rmq_, late, lt_m, 
+                                  old_m, lt_mu, old_mu, lt_mu_, ww, old_mu_, 
+                                  sdl, scn, lt, rc, old_t, c, dl_, cn_, 
+                                  old_mu_w, lt_, first, out_, rc_, hadw, ata, 
+                                  so_, havel, tw, allr, omw, fca, sorw, all, 
+                                  old_c, tws, alr, rmq, dl, cn, old_cv, lt_c, 
+                                  rc_c, so, out, ndl, old, wq, dw, k >>
 
 cw_14_cas(self) == /\ pc[self] = "cw_14_cas"
                    /\ rmc' = [rmc EXCEPT ![W(self)] = rmc[W(self)] + 1]
                    /\ old_cv' = [old_cv EXCEPT ![self] = IF cvq = <<>> THEN Clr(old_cv[self], CVNE) ELSE old_cv[self]]
                    /\ pc' = [pc EXCEPT ![self] = "cw_14_st"]
                    /\ UNCHANGED << word, queue, cvword, cvq, waiting, cvmu, wl, 
-                                   wc, sc, nww, sem, data, now, note, nreg, 
-                                   held, ret, sres, picked, sleeps, inlock, ip, 
-                                   mw, pool, nalloc, muFreed, refs, nwalive, 
-                                   taint3, stack, lt_l, clear, old_, zlo, zhi, 
-                                   wcnt, lw, lt_u, old_u, tc, nwl, wtrs, wake, 
-                                   wty, sor, cor, rmq_, late, lt_m, old_m, 
-                                   lt_mu, old_mu, lt_mu_, ww, old_mu_, sdl, 
-                                   scn, lt, rc, old_t, c, dl_, cn_, old_mu_w, 
-                                   lt_, first, out_, rc_, hadw, ata, so_, 
-                                   havel, tw, allr, omw, fca, sorw, all, old_c, 
-                                   tws, alr, rmq, dl, cn, lt_c, rc_c, so, out, 
-                                   ndl, old, wq, dw, k >>
+                                   wc, sc, nww, nwsem, sem, data, now, note, 
+                                   nreg, held, ret, sres, picked, sleeps, 
+                                   inlock, ip, mw, pool, nalloc, muFreed, refs, 
+                                   nwalive, taint3, stack, lt_l, clear, old_, 
+                                   zlo, zhi, wcnt, lw, lt_u, old_u, tc, nwl, 
+                                   wtrs, wake, wty, sor, cor, rmq_, late, lt_m, 
+                                   old_m, lt_mu, old_mu, lt_mu_, ww, old_mu_, 
+                                   sdl, scn, lt, rc, old_t, c, dl_, cn_, 
+                                   old_mu_w, lt_, first, out_, rc_, hadw, ata, 
+                                   so_, havel, tw, allr, omw, fca, sorw, all, 
+                                   old_c, tws, alr, rmq, dl, cn, lt_c, rc_c, 
+                                   so, out, ndl, old, wq, dw, k >>
 
 cw_14_st(self) == /\ pc[self] = "cw_14_st"
                   /\ waiting' = [waiting EXCEPT ![W(self)] = 0]
                   /\ pc' = [pc EXCEPT ![self] = "cw_15_st"]
                   /\ UNCHANGED << word, queue, cvword, cvq, rmc, cvmu, wl, wc, 
-                                  sc, nww, sem, data, now, note, nreg, held, 
-                                  ret, sres, picked, sleeps, inlock, ip, mw, 
-                                  pool, nalloc, muFreed, refs, nwalive, taint3, 
-                                  stack, lt_l, clear, old_, zlo, zhi, wcnt, lw, 
-                                  lt_u, old_u, tc, nwl, wtrs, wake, wty, sor, 
-                                  cor, rmq_, late, lt_m, old_m, lt_mu, old_mu, 
-                                  lt_mu_, ww, old_mu_, sdl, scn, lt, rc, old_t, 
-                                  c, dl_, cn_, old_mu_w, lt_, first, out_, rc_, 
-                                  hadw, ata, so_, havel, tw, allr, omw, fca, 
-                                  sorw, all, old_c, tws, alr, rmq, dl, cn, 
-                                  old_cv, lt_c, rc_c, so, out, ndl, old, wq, 
-                                  dw, k >>
-
-cw_15_st(self) == /\ pc[self] = "cw_15_st"
-                  /\ cvword' = old_cv[self]
-                  /\ pc' = [pc EXCEPT ![self] = "cw_16_ld"]
-                  /\ UNCHANGED << word, queue, cvq, waiting, rmc, cvmu, wl, wc, 
-                                  sc, nww, sem, data, now, note, nreg, held, 
-                                  ret, sres, picked, sleeps, inlock, ip, mw, 
-                                  pool, nalloc, muFreed, refs, nwalive, taint3, 
-                                  stack, lt_l, clear, old_, zlo, zhi, wcnt, lw, 
-                                  lt_u, old_u, tc, nwl, wtrs, wake, wty, sor, 
-                                  cor, rmq_, late, lt_m, old_m, lt_mu, old_mu, 
-                                  lt_mu_, ww, old_mu_, sdl, scn, lt, rc, old_t, 
-                                  c, dl_, cn_, old_mu_w, lt_, first, out_, rc_, 
-                                  hadw, ata, so_, havel, tw, allr, omw, fca, 
-                                  sorw, all, old_c, tws, alr, rmq, dl, cn, 
-                                  old_cv, lt_c, rc_c, so, out, ndl, old, wq, 
-                                  dw, k >>
-
-cw_16_ld(self) == /\ pc[self] = "cw_16_ld"
-                  /\ IF waiting[W(self)] # 0
-                        THEN /\ pc' = [pc EXCEPT ![self] = "cw_16_d"]
-                        ELSE /\ pc' = [pc EXCEPT ![self] = "cw_7_ld"]
-                  /\ UNCHANGED << word, queue, cvword, cvq, waiting, rmc, cvmu, 
-                                  wl, wc, sc, nww, sem, data, now, note, nreg, 
+                                  sc, nww, nwsem, sem, data, now, note, nreg, 
                                   held, ret, sres, picked, sleeps, inlock, ip, 
                                   mw, pool, nalloc, muFreed, refs, nwalive, 
                                   taint3, stack, lt_l, clear, old_, zlo, zhi, 
@@ -3248,12 +3264,47 @@ cw_16_ld(self) == /\ pc[self] = "cw_16_ld"
                                   rmq, dl, cn, old_cv, lt_c, rc_c, so, out, 
                                   ndl, old, wq, dw, k >>
 
+cw_15_st(self) == /\ pc[self] = "cw_15_st"
+                  /\ cvword' = old_cv[self]
+                  /\ pc' = [pc EXCEPT ![self] = "cw_16_ld"]
+                  /\ UNCHANGED << word, queue, cvq, waiting, rmc, cvmu, wl, wc, 
+                                  sc, nww, nwsem, sem, data, now, note, nreg, 
+                                  held, ret, sres, picked, sleeps, inlock, ip, 
+                                  mw, pool, nalloc, muFreed, refs, nwalive, 
+                                  taint3, stack, lt_l, clear, old_, zlo, zhi, 
+                                  wcnt, lw, lt_u, old_u, tc, nwl, wtrs, wake, 
+                                  wty, sor, cor, rmq_, late, lt_m, old_m, 
+                                  lt_mu, old_mu, lt_mu_, ww, old_mu_, sdl, scn, 
+                                  lt, rc, old_t, c, dl_, cn_, old_mu_w, lt_, 
+                                  first, out_, rc_, hadw, ata, so_, havel, tw, 
+                                  allr, omw, fca, sorw, all, old_c, tws, alr, 
+                                  rmq, dl, cn, old_cv, lt_c, rc_c, so, out, 
+                                  ndl, old, wq, dw, k >>
+
+cw_16_ld(self) == /\ pc[self] = "cw_16_ld"
+                  /\ IF waiting[W(self)] # 0
+                        THEN /\ pc' = [pc EXCEPT ![self] = "cw_16_d"]
+                        ELSE /\ pc' = [pc EXCEPT ![self] = "cw_7_ld"]
+                  /\ UNCHANGED << word, queue, cvword, cvq, waiting, rmc, cvmu, 
+                                  wl, wc, sc, nww, nwsem, sem, data, now, note, 
+                                  nreg, held, ret, sres, picked, sleeps, 
+                                  inlock, ip, mw, pool, nalloc, muFreed, refs, 
+                                  nwalive, taint3, stack, lt_l, clear, old_, 
+                                  zlo, zhi, wcnt, lw, lt_u, old_u, tc, nwl, 
+                                  wtrs, wake, wty, sor, cor, rmq_, late, lt_m, 
+                                  old_m, lt_mu, old_mu, lt_mu_, ww, old_mu_, 
+                                  sdl, scn, lt, rc, old_t, c, dl_, cn_, 
+                                  old_mu_w, lt_, first, out_, rc_, hadw, ata, 
+                                  so_, havel, tw, allr, omw, fca, sorw, all, 
+                                  old_c, tws, alr, rmq, dl, cn, old_cv, lt_c, 
+                                  rc_c, so, out, ndl, old, wq, dw, k >>
+
 cw_16_d(self) == /\ pc[self] = "cw_16_d"
                  /\ pc' = [pc EXCEPT ![self] = "cw_7_ld"]
                  /\ UNCHANGED << word, queue, cvword, cvq, waiting, rmc, cvmu, 
-                                 wl, wc, sc, nww, sem, data, now, note, nreg, 
-                                 held, ret, sres, picked, sleeps, inlock, ip, 
-                                 mw, pool, nalloc, muFreed, refs, nwalive, 
+                                 wl, wc, sc, nww, nwsem, sem, data, now, note, 
+                                 nreg, held, ret, sres, picked, sleeps, inlock, 
+                                 ip, mw, pool, nalloc, muFreed, refs, nwalive, 
                                  taint3, stack, lt_l, clear, old_, zlo, zhi, 
                                  wcnt, lw, lt_u, old_u, tc, nwl, wtrs, wake, 
                                  wty, sor, cor, rmq_, late, lt_m, old_m, lt_mu, 
@@ -3296,9 +3347,9 @@ cw_17_l(self) == /\ pc[self] = "cw_17_l"
                             /\ UNCHANGED << lt_l, clear, old_, zlo, zhi, wcnt, 
                                             lw >>
                  /\ UNCHANGED << word, queue, cvword, cvq, waiting, rmc, cvmu, 
-                                 wl, wc, sc, nww, sem, data, now, note, nreg, 
-                                 held, ret, sres, picked, sleeps, inlock, ip, 
-                                 mw, pool, nalloc, muFreed, refs, nwalive, 
+                                 wl, wc, sc, nww, nwsem, sem, data, now, note, 
+                                 nreg, held, ret, sres, picked, sleeps, inlock, 
+                                 ip, mw, pool, nalloc, muFreed, refs, nwalive, 
                                  taint3, lt_u, old_u, tc, nwl, wtrs, wake, wty, 
                                  sor, cor, rmq_, late, lt_mu, old_mu, lt_mu_, 
                                  ww, old_mu_, sdl, scn, lt, rc, old_t, c, dl_, 
@@ -3319,12 +3370,12 @@ cw_18_l(self) == /\ pc[self] = "cw_18_l"
                  /\ cn' = [cn EXCEPT ![self] = Head(stack[self]).cn]
                  /\ stack' = [stack EXCEPT ![self] = Tail(stack[self])]
                  /\ UNCHANGED << word, queue, cvword, cvq, waiting, rmc, cvmu, 
-                                 wl, wc, sc, nww, sem, data, now, note, nreg, 
-                                 held, sres, picked, sleeps, inlock, ip, mw, 
-                                 pool, nalloc, muFreed, refs, nwalive, taint3, 
-                                 lt_l, clear, old_, zlo, zhi, wcnt, lw, lt_u, 
-                                 old_u, tc, nwl, wtrs, wake, wty, sor, cor, 
-                                 rmq_, late, lt_m, old_m, lt_mu, old_mu, 
+                                 wl, wc, sc, nww, nwsem, sem, data, now, note, 
+                                 nreg, held, sres, picked, sleeps, inlock, ip, 
+                                 mw, pool, nalloc, muFreed, refs, nwalive, 
+                                 taint3, lt_l, clear, old_, zlo, zhi, wcnt, lw, 
+                                 lt_u, old_u, tc, nwl, wtrs, wake, wty, sor, 
+                                 cor, rmq_, late, lt_m, old_m, lt_mu, old_mu, 
                                  lt_mu_, ww, old_mu_, sdl, scn, lt, rc, old_t, 
                                  c, dl_, cn_, old_mu_w, lt_, first, out_, rc_, 
                                  hadw, ata, so_, havel, tw, allr, omw, fca, 
@@ -3344,6 +3395,7 @@ wn_1_st(self) == /\ pc[self] = "wn_1_st"
                  /\ nww' = [nww EXCEPT ![self] = 0]
                  /\ picked' = [picked EXCEPT ![self] = FALSE]
                  /\ nwalive' = [nwalive EXCEPT ![self] = TRUE]
+                 /\ nwsem' = [nwsem EXCEPT ![self] = W(self)]
                  /\ pc' = [pc EXCEPT ![self] = "wn_2_ld"]
                  /\ UNCHANGED << word, queue, cvword, cvq, waiting, rmc, cvmu, 
                                  wl, wc, sc, sem, data, now, note, nreg, held, 
@@ -3364,9 +3416,9 @@ wn_2_ld(self) == /\ pc[self] = "wn_2_ld"
                        THEN /\ pc' = [pc EXCEPT ![self] = "wn_2_d"]
                        ELSE /\ pc' = [pc EXCEPT ![self] = "wn_3_cas"]
                  /\ UNCHANGED << word, queue, cvword, cvq, waiting, rmc, cvmu, 
-                                 wl, wc, sc, nww, sem, data, now, note, nreg, 
-                                 held, ret, sres, picked, sleeps, inlock, ip, 
-                                 mw, pool, nalloc, muFreed, refs, nwalive, 
+                                 wl, wc, sc, nww, nwsem, sem, data, now, note, 
+                                 nreg, held, ret, sres, picked, sleeps, inlock, 
+                                 ip, mw, pool, nalloc, muFreed, refs, nwalive, 
                                  taint3, stack, lt_l, clear, old_, zlo, zhi, 
                                  wcnt, lw, lt_u, old_u, tc, nwl, wtrs, wake, 
                                  wty, sor, cor, rmq_, late, lt_m, old_m, lt_mu, 
@@ -3385,9 +3437,9 @@ wn_3_cas(self) == /\ pc[self] = "wn_3_cas"
                         ELSE /\ pc' = [pc EXCEPT ![self] = "wn_2_d"]
                              /\ UNCHANGED << cvword, cvq >>
                   /\ UNCHANGED << word, queue, waiting, rmc, cvmu, wl, wc, sc, 
-                                  nww, sem, data, now, note, nreg, held, ret, 
-                                  sres, picked, sleeps, inlock, ip, mw, pool, 
-                                  nalloc, muFreed, refs, nwalive, taint3, 
+                                  nww, nwsem, sem, data, now, note, nreg, held, 
+                                  ret, sres, picked, sleeps, inlock, ip, mw, 
+                                  pool, nalloc, muFreed, refs, nwalive, taint3, 
                                   stack, lt_l, clear, old_, zlo, zhi, wcnt, lw, 
                                   lt_u, old_u, tc, nwl, wtrs, wake, wty, sor, 
                                   cor, rmq_, late, lt_m, old_m, lt_mu, old_mu, 
@@ -3401,9 +3453,9 @@ wn_3_cas(self) == /\ pc[self] = "wn_3_cas"
 wn_2_d(self) == /\ pc[self] = "wn_2_d"
                 /\ pc' = [pc EXCEPT ![self] = "wn_2_ld"]
                 /\ UNCHANGED << word, queue, cvword, cvq, waiting, rmc, cvmu, 
-                                wl, wc, sc, nww, sem, data, now, note, nreg, 
-                                held, ret, sres, picked, sleeps, inlock, ip, 
-                                mw, pool, nalloc, muFreed, refs, nwalive, 
+                                wl, wc, sc, nww, nwsem, sem, data, now, note, 
+                                nreg, held, ret, sres, picked, sleeps, inlock, 
+                                ip, mw, pool, nalloc, muFreed, refs, nwalive, 
                                 taint3, stack, lt_l, clear, old_, zlo, zhi, 
                                 wcnt, lw, lt_u, old_u, tc, nwl, wtrs, wake, 
                                 wty, sor, cor, rmq_, late, lt_m, old_m, lt_mu, 
@@ -3418,18 +3470,18 @@ wn_4_st(self) == /\ pc[self] = "wn_4_st"
                  /\ nww' = [nww EXCEPT ![self] = 1]
                  /\ pc' = [pc EXCEPT ![self] = "wn_5_st"]
                  /\ UNCHANGED << word, queue, cvword, cvq, waiting, rmc, cvmu, 
-                                 wl, wc, sc, sem, data, now, note, nreg, held, 
-                                 ret, sres, picked, sleeps, inlock, ip, mw, 
-                                 pool, nalloc, muFreed, refs, nwalive, taint3, 
-                                 stack, lt_l, clear, old_, zlo, zhi, wcnt, lw, 
-                                 lt_u, old_u, tc, nwl, wtrs, wake, wty, sor, 
-                                 cor, rmq_, late, lt_m, old_m, lt_mu, old_mu, 
-                                 lt_mu_, ww, old_mu_, sdl, scn, lt, rc, old_t, 
-                                 c, dl_, cn_, old_mu_w, lt_, first, out_, rc_, 
-                                 hadw, ata, so_, havel, tw, allr, omw, fca, 
-                                 sorw, all, old_c, tws, alr, rmq, dl, cn, 
-                                 old_cv, lt_c, rc_c, so, out, ndl, old, wq, dw, 
-                                 k >>
+                                 wl, wc, sc, nwsem, sem, data, now, note, nreg, 
+                                 held, ret, sres, picked, sleeps, inlock, ip, 
+                                 mw, pool, nalloc, muFreed, refs, nwalive, 
+                                 taint3, stack, lt_l, clear, old_, zlo, zhi, 
+                                 wcnt, lw, lt_u, old_u, tc, nwl, wtrs, wake, 
+                                 wty, sor, cor, rmq_, late, lt_m, old_m, lt_mu, 
+                                 old_mu, lt_mu_, ww, old_mu_, sdl, scn, lt, rc, 
+                                 old_t, c, dl_, cn_, old_mu_w, lt_, first, 
+                                 out_, rc_, hadw, ata, so_, havel, tw, allr, 
+                                 omw, fca, sorw, all, old_c, tws, alr, rmq, dl, 
+                                 cn, old_cv, lt_c, rc_c, so, out, ndl, old, wq, 
+                                 dw, k >>
 
 wn_5_st(self) == /\ pc[self] = "wn_5_st"
                  /\ cvword' = old[self] | CVNE
@@ -3445,26 +3497,26 @@ wn_5_st(self) == /\ pc[self] = "wn_5_st"
                  /\ old_mu_' = [old_mu_ EXCEPT ![self] = 0]
                  /\ pc' = [pc EXCEPT ![self] = "ul_1_cas"]
                  /\ UNCHANGED << word, queue, cvq, waiting, rmc, cvmu, wl, wc, 
-                                 sc, nww, sem, data, now, note, nreg, ret, 
-                                 sres, picked, sleeps, inlock, ip, mw, pool, 
-                                 nalloc, muFreed, refs, nwalive, taint3, lt_l, 
-                                 clear, old_, zlo, zhi, wcnt, lw, lt_u, old_u, 
-                                 tc, nwl, wtrs, wake, wty, sor, cor, rmq_, 
-                                 late, lt_m, old_m, lt_mu, old_mu, sdl, scn, 
-                                 lt, rc, old_t, c, dl_, cn_, old_mu_w, lt_, 
-                                 first, out_, rc_, hadw, ata, so_, havel, tw, 
-                                 allr, omw, fca, sorw, all, old_c, tws, alr, 
-                                 rmq, dl, cn, old_cv, lt_c, rc_c, so, out, ndl, 
-                                 old, wq, dw, k >>
+                                 sc, nww, nwsem, sem, data, now, note, nreg, 
+                                 ret, sres, picked, sleeps, inlock, ip, mw, 
+                                 pool, nalloc, muFreed, refs, nwalive, taint3, 
+                                 lt_l, clear, old_, zlo, zhi, wcnt, lw, lt_u, 
+                                 old_u, tc, nwl, wtrs, wake, wty, sor, cor, 
+                                 rmq_, late, lt_m, old_m, lt_mu, old_mu, sdl, 
+                                 scn, lt, rc, old_t, c, dl_, cn_, old_mu_w, 
+                                 lt_, first, out_, rc_, hadw, ata, so_, havel, 
+                                 tw, allr, omw, fca, sorw, all, old_c, tws, 
+                                 alr, rmq, dl, cn, old_cv, lt_c, rc_c, so, out, 
+                                 ndl, old, wq, dw, k >>
 
 wn_6_ld(self) == /\ pc[self] = "wn_6_ld"
                  /\ IF nww[self] = 0
                        THEN /\ pc' = [pc EXCEPT ![self] = "wn_8_ld"]
                        ELSE /\ pc' = [pc EXCEPT ![self] = "wn_7_pd"]
                  /\ UNCHANGED << word, queue, cvword, cvq, waiting, rmc, cvmu, 
-                                 wl, wc, sc, nww, sem, data, now, note, nreg, 
-                                 held, ret, sres, picked, sleeps, inlock, ip, 
-                                 mw, pool, nalloc, muFreed, refs, nwalive, 
+                                 wl, wc, sc, nww, nwsem, sem, data, now, note, 
+                                 nreg, held, ret, sres, picked, sleeps, inlock, 
+                                 ip, mw, pool, nalloc, muFreed, refs, nwalive, 
                                  taint3, stack, lt_l, clear, old_, zlo, zhi, 
                                  wcnt, lw, lt_u, old_u, tc, nwl, wtrs, wake, 
                                  wty, sor, cor, rmq_, late, lt_m, old_m, lt_mu, 
@@ -3483,18 +3535,18 @@ wn_7_pd(self) == /\ pc[self] = "wn_7_pd"
                        ELSE /\ pc' = [pc EXCEPT ![self] = "wn_8_ld"]
                             /\ sem' = sem
                  /\ UNCHANGED << word, queue, cvword, cvq, waiting, rmc, cvmu, 
-                                 wl, wc, sc, nww, data, now, note, nreg, held, 
-                                 ret, sres, picked, sleeps, inlock, ip, mw, 
-                                 pool, nalloc, muFreed, refs, nwalive, taint3, 
-                                 stack, lt_l, clear, old_, zlo, zhi, wcnt, lw, 
-                                 lt_u, old_u, tc, nwl, wtrs, wake, wty, sor, 
-                                 cor, rmq_, late, lt_m, old_m, lt_mu, old_mu, 
-                                 lt_mu_, ww, old_mu_, sdl, scn, lt, rc, old_t, 
-                                 c, dl_, cn_, old_mu_w, lt_, first, out_, rc_, 
-                                 hadw, ata, so_, havel, tw, allr, omw, fca, 
-                                 sorw, all, old_c, tws, alr, rmq, dl, cn, 
-                                 old_cv, lt_c, rc_c, so, out, ndl, old, wq, dw, 
-                                 k >>
+                                 wl, wc, sc, nww, nwsem, data, now, note, nreg, 
+                                 held, ret, sres, picked, sleeps, inlock, ip, 
+                                 mw, pool, nalloc, muFreed, refs, nwalive, 
+                                 taint3, stack, lt_l, clear, old_, zlo, zhi, 
+                                 wcnt, lw, lt_u, old_u, tc, nwl, wtrs, wake, 
+                                 wty, sor, cor, rmq_, late, lt_m, old_m, lt_mu, 
+                                 old_mu, lt_mu_, ww, old_mu_, sdl, scn, lt, rc, 
+                                 old_t, c, dl_, cn_, old_mu_w, lt_, first, 
+                                 out_, rc_, hadw, ata, so_, havel, tw, allr, 
+                                 omw, fca, sorw, all, old_c, tws, alr, rmq, dl, 
+                                 cn, old_cv, lt_c, rc_c, so, out, ndl, old, wq, 
+                                 dw, k >>
 
 wn_8_ld(self) == /\ pc[self] = "wn_8_ld"
                  /\ old' = [old EXCEPT ![self] = cvword]
@@ -3502,9 +3554,9 @@ wn_8_ld(self) == /\ pc[self] = "wn_8_ld"
                        THEN /\ pc' = [pc EXCEPT ![self] = "wn_8_d"]
                        ELSE /\ pc' = [pc EXCEPT ![self] = "wn_9_cas"]
                  /\ UNCHANGED << word, queue, cvword, cvq, waiting, rmc, cvmu, 
-                                 wl, wc, sc, nww, sem, data, now, note, nreg, 
-                                 held, ret, sres, picked, sleeps, inlock, ip, 
-                                 mw, pool, nalloc, muFreed, refs, nwalive, 
+                                 wl, wc, sc, nww, nwsem, sem, data, now, note, 
+                                 nreg, held, ret, sres, picked, sleeps, inlock, 
+                                 ip, mw, pool, nalloc, muFreed, refs, nwalive, 
                                  taint3, stack, lt_l, clear, old_, zlo, zhi, 
                                  wcnt, lw, lt_u, old_u, tc, nwl, wtrs, wake, 
                                  wty, sor, cor, rmq_, late, lt_m, old_m, lt_mu, 
@@ -3522,25 +3574,25 @@ wn_9_cas(self) == /\ pc[self] = "wn_9_cas"
                         ELSE /\ pc' = [pc EXCEPT ![self] = "wn_8_d"]
                              /\ UNCHANGED cvword
                   /\ UNCHANGED << word, queue, cvq, waiting, rmc, cvmu, wl, wc, 
-                                  sc, nww, sem, data, now, note, nreg, held, 
-                                  ret, sres, picked, sleeps, inlock, ip, mw, 
-                                  pool, nalloc, muFreed, refs, nwalive, taint3, 
-                                  stack, lt_l, clear, old_, zlo, zhi, wcnt, lw, 
-                                  lt_u, old_u, tc, nwl, wtrs, wake, wty, sor, 
-                                  cor, rmq_, late, lt_m, old_m, lt_mu, old_mu, 
-                                  lt_mu_, ww, old_mu_, sdl, scn, lt, rc, old_t, 
-                                  c, dl_, cn_, old_mu_w, lt_, first, out_, rc_, 
-                                  hadw, ata, so_, havel, tw, allr, omw, fca, 
-                                  sorw, all, old_c, tws, alr, rmq, dl, cn, 
-                                  old_cv, lt_c, rc_c, so, out, ndl, old, wq, 
-                                  dw, k >>
+                                  sc, nww, nwsem, sem, data, now, note, nreg, 
+                                  held, ret, sres, picked, sleeps, inlock, ip, 
+                                  mw, pool, nalloc, muFreed, refs, nwalive, 
+                                  taint3, stack, lt_l, clear, old_, zlo, zhi, 
+                                  wcnt, lw, lt_u, old_u, tc, nwl, wtrs, wake, 
+                                  wty, sor, cor, rmq_, late, lt_m, old_m, 
+                                  lt_mu, old_mu, lt_mu_, ww, old_mu_, sdl, scn, 
+                                  lt, rc, old_t, c, dl_, cn_, old_mu_w, lt_, 
+                                  first, out_, rc_, hadw, ata, so_, havel, tw, 
+                                  allr, omw, fca, sorw, all, old_c, tws, alr, 
+                                  rmq, dl, cn, old_cv, lt_c, rc_c, so, out, 
+                                  ndl, old, wq, dw, k >>
 
 wn_8_d(self) == /\ pc[self] = "wn_8_d"
                 /\ pc' = [pc EXCEPT ![self] = "wn_8_ld"]
                 /\ UNCHANGED << word, queue, cvword, cvq, waiting, rmc, cvmu, 
-                                wl, wc, sc, nww, sem, data, now, note, nreg, 
-                                held, ret, sres, picked, sleeps, inlock, ip, 
-                                mw, pool, nalloc, muFreed, refs, nwalive, 
+                                wl, wc, sc, nww, nwsem, sem, data, now, note, 
+                                nreg, held, ret, sres, picked, sleeps, inlock, 
+                                ip, mw, pool, nalloc, muFreed, refs, nwalive, 
                                 taint3, stack, lt_l, clear, old_, zlo, zhi, 
                                 wcnt, lw, lt_u, old_u, tc, nwl, wtrs, wake, 
                                 wty, sor, cor, rmq_, late, lt_m, old_m, lt_mu, 
@@ -3561,34 +3613,35 @@ wn_10_ld(self) == /\ pc[self] = "wn_10_ld"
                              /\ wq' = [wq EXCEPT ![self] = TRUE]
                              /\ pc' = [pc EXCEPT ![self] = "wn_11_st"]
                   /\ UNCHANGED << word, queue, cvword, waiting, rmc, cvmu, wl, 
-                                  wc, sc, nww, sem, data, now, note, nreg, 
-                                  held, ret, sres, picked, sleeps, inlock, ip, 
-                                  mw, pool, nalloc, muFreed, refs, nwalive, 
-                                  stack, lt_l, clear, old_, zlo, zhi, wcnt, lw, 
-                                  lt_u, old_u, tc, nwl, wtrs, wake, wty, sor, 
-                                  cor, rmq_, late, lt_m, old_m, lt_mu, old_mu, 
-                                  lt_mu_, ww, old_mu_, sdl, scn, lt, rc, old_t, 
-                                  c, dl_, cn_, old_mu_w, lt_, first, out_, rc_, 
-                                  hadw, ata, so_, havel, tw, allr, omw, fca, 
-                                  sorw, all, old_c, tws, alr, rmq, dl, cn, 
-                                  old_cv, lt_c, rc_c, so, out, ndl, old, dw, k >>
+                                  wc, sc, nww, nwsem, sem, data, now, note, 
+                                  nreg, held, ret, sres, picked, sleeps, 
+                                  inlock, ip, mw, pool, nalloc, muFreed, refs, 
+                                  nwalive, stack, lt_l, clear, old_, zlo, zhi, 
+                                  wcnt, lw, lt_u, old_u, tc, nwl, wtrs, wake, 
+                                  wty, sor, cor, rmq_, late, lt_m, old_m, 
+                                  lt_mu, old_mu, lt_mu_, ww, old_mu_, sdl, scn, 
+                                  lt, rc, old_t, c, dl_, cn_, old_mu_w, lt_, 
+                                  first, out_, rc_, hadw, ata, so_, havel, tw, 
+                                  allr, omw, fca, sorw, all, old_c, tws, alr, 
+                                  rmq, dl, cn, old_cv, lt_c, rc_c, so, out, 
+                                  ndl, old, dw, k >>
 
 wn_11_st(self) == /\ pc[self] = "wn_11_st"
                   /\ nww' = [nww EXCEPT ![self] = 0]
                   /\ pc' = [pc EXCEPT ![self] = "wn_12_st"]
                   /\ UNCHANGED << word, queue, cvword, cvq, waiting, rmc, cvmu, 
-                                  wl, wc, sc, sem, data, now, note, nreg, held, 
-                                  ret, sres, picked, sleeps, inlock, ip, mw, 
-                                  pool, nalloc, muFreed, refs, nwalive, taint3, 
-                                  stack, lt_l, clear, old_, zlo, zhi, wcnt, lw, 
-                                  lt_u, old_u, tc, nwl, wtrs, wake, wty, sor, 
-                                  cor, rmq_, late, lt_m, old_m, lt_mu, old_mu, 
-                                  lt_mu_, ww, old_mu_, sdl, scn, lt, rc, old_t, 
-                                  c, dl_, cn_, old_mu_w, lt_, first, out_, rc_, 
-                                  hadw, ata, so_, havel, tw, allr, omw, fca, 
-                                  sorw, all, old_c, tws, alr, rmq, dl, cn, 
-                                  old_cv, lt_c, rc_c, so, out, ndl, old, wq, 
-                                  dw, k >>
+                                  wl, wc, sc, nwsem, sem, data, now, note, 
+                                  nreg, held, ret, sres, picked, sleeps, 
+                                  inlock, ip, mw, pool, nalloc, muFreed, refs, 
+                                  nwalive, taint3, stack, lt_l, clear, old_, 
+                                  zlo, zhi, wcnt, lw, lt_u, old_u, tc, nwl, 
+                                  wtrs, wake, wty, sor, cor, rmq_, late, lt_m, 
+                                  old_m, lt_mu, old_mu, lt_mu_, ww, old_mu_, 
+                                  sdl, scn, lt, rc, old_t, c, dl_, cn_, 
+                                  old_mu_w, lt_, first, out_, rc_, hadw, ata, 
+                                  so_, havel, tw, allr, omw, fca, sorw, all, 
+                                  old_c, tws, alr, rmq, dl, cn, old_cv, lt_c, 
+                                  rc_c, so, out, ndl, old, wq, dw, k >>
 
 wn_12_st(self) == /\ pc[self] = "wn_12_st"
                   /\ cvword' = (IF cvq = <<>> THEN Clr(old[self], CVNE) ELSE old[self])
@@ -3601,13 +3654,13 @@ wn_12_st(self) == /\ pc[self] = "wn_12_st"
                   /\ old_m' = [old_m EXCEPT ![self] = 0]
                   /\ pc' = [pc EXCEPT ![self] = "lk_1_cas"]
                   /\ UNCHANGED << word, queue, cvq, waiting, rmc, cvmu, wl, wc, 
-                                  sc, nww, sem, data, now, note, nreg, held, 
-                                  ret, sres, picked, sleeps, inlock, ip, mw, 
-                                  pool, nalloc, muFreed, refs, nwalive, taint3, 
-                                  lt_l, clear, old_, zlo, zhi, wcnt, lw, lt_u, 
-                                  old_u, tc, nwl, wtrs, wake, wty, sor, cor, 
-                                  rmq_, late, lt_mu, old_mu, lt_mu_, ww, 
-                                  old_mu_, sdl, scn, lt, rc, old_t, c, dl_, 
+                                  sc, nww, nwsem, sem, data, now, note, nreg, 
+                                  held, ret, sres, picked, sleeps, inlock, ip, 
+                                  mw, pool, nalloc, muFreed, refs, nwalive, 
+                                  taint3, lt_l, clear, old_, zlo, zhi, wcnt, 
+                                  lw, lt_u, old_u, tc, nwl, wtrs, wake, wty, 
+                                  sor, cor, rmq_, late, lt_mu, old_mu, lt_mu_, 
+                                  ww, old_mu_, sdl, scn, lt, rc, old_t, c, dl_, 
                                   cn_, old_mu_w, lt_, first, out_, rc_, hadw, 
                                   ata, so_, havel, tw, allr, omw, fca, sorw, 
                                   all, old_c, tws, alr, rmq, dl, cn, old_cv, 
@@ -3622,9 +3675,9 @@ wn_13_l(self) == /\ pc[self] = "wn_13_l"
                  /\ ndl' = [ndl EXCEPT ![self] = Head(stack[self]).ndl]
                  /\ stack' = [stack EXCEPT ![self] = Tail(stack[self])]
                  /\ UNCHANGED << word, queue, cvword, cvq, waiting, rmc, cvmu, 
-                                 wl, wc, sc, nww, sem, data, now, note, nreg, 
-                                 held, sres, picked, sleeps, inlock, ip, mw, 
-                                 pool, nalloc, muFreed, refs, taint3, lt_l, 
+                                 wl, wc, sc, nww, nwsem, sem, data, now, note, 
+                                 nreg, held, sres, picked, sleeps, inlock, ip, 
+                                 mw, pool, nalloc, muFreed, refs, taint3, lt_l, 
                                  clear, old_, zlo, zhi, wcnt, lw, lt_u, old_u, 
                                  tc, nwl, wtrs, wake, wty, sor, cor, rmq_, 
                                  late, lt_m, old_m, lt_mu, old_mu, lt_mu_, ww, 
@@ -3649,9 +3702,9 @@ db_1_ld(self) == /\ pc[self] = "db_1_ld"
                        ELSE /\ pc' = [pc EXCEPT ![self] = "db_2_ld"]
                             /\ UNCHANGED << stack, dw, k >>
                  /\ UNCHANGED << word, queue, cvword, cvq, waiting, rmc, cvmu, 
-                                 wl, wc, sc, nww, sem, data, now, note, nreg, 
-                                 held, ret, sres, picked, sleeps, inlock, ip, 
-                                 mw, pool, nalloc, muFreed, refs, nwalive, 
+                                 wl, wc, sc, nww, nwsem, sem, data, now, note, 
+                                 nreg, held, ret, sres, picked, sleeps, inlock, 
+                                 ip, mw, pool, nalloc, muFreed, refs, nwalive, 
                                  taint3, lt_l, clear, old_, zlo, zhi, wcnt, lw, 
                                  lt_u, old_u, tc, nwl, wtrs, wake, wty, sor, 
                                  cor, rmq_, late, lt_m, old_m, lt_mu, old_mu, 
@@ -3667,9 +3720,9 @@ db_2_ld(self) == /\ pc[self] = "db_2_ld"
                        THEN /\ pc' = [pc EXCEPT ![self] = "db_d"]
                        ELSE /\ pc' = [pc EXCEPT ![self] = "db_3_cas"]
                  /\ UNCHANGED << word, queue, cvword, cvq, waiting, rmc, cvmu, 
-                                 wl, wc, sc, nww, sem, data, now, note, nreg, 
-                                 held, ret, sres, picked, sleeps, inlock, ip, 
-                                 mw, pool, nalloc, muFreed, refs, nwalive, 
+                                 wl, wc, sc, nww, nwsem, sem, data, now, note, 
+                                 nreg, held, ret, sres, picked, sleeps, inlock, 
+                                 ip, mw, pool, nalloc, muFreed, refs, nwalive, 
                                  taint3, stack, lt_l, clear, old_, zlo, zhi, 
                                  wcnt, lw, lt_u, old_u, tc, nwl, wtrs, wake, 
                                  wty, sor, cor, rmq_, late, lt_m, old_m, lt_mu, 
@@ -3688,42 +3741,42 @@ db_3_cas(self) == /\ pc[self] = "db_3_cas"
                         ELSE /\ pc' = [pc EXCEPT ![self] = "db_d"]
                              /\ UNCHANGED << word, k >>
                   /\ UNCHANGED << queue, cvword, cvq, waiting, rmc, cvmu, wl, 
-                                  wc, sc, nww, sem, data, now, note, nreg, 
-                                  held, ret, sres, picked, sleeps, inlock, ip, 
-                                  mw, pool, nalloc, muFreed, refs, nwalive, 
-                                  taint3, stack, lt_l, clear, old_, zlo, zhi, 
-                                  wcnt, lw, lt_u, old_u, tc, nwl, wtrs, wake, 
-                                  wty, sor, cor, rmq_, late, lt_m, old_m, 
-                                  lt_mu, old_mu, lt_mu_, ww, old_mu_, sdl, scn, 
-                                  lt, rc, old_t, c, dl_, cn_, old_mu_w, lt_, 
-                                  first, out_, rc_, hadw, ata, so_, havel, tw, 
-                                  allr, omw, fca, sorw, all, old_c, tws, alr, 
-                                  rmq, dl, cn, old_cv, lt_c, rc_c, so, out, 
-                                  ndl, old, wq, dw >>
+                                  wc, sc, nww, nwsem, sem, data, now, note, 
+                                  nreg, held, ret, sres, picked, sleeps, 
+                                  inlock, ip, mw, pool, nalloc, muFreed, refs, 
+                                  nwalive, taint3, stack, lt_l, clear, old_, 
+                                  zlo, zhi, wcnt, lw, lt_u, old_u, tc, nwl, 
+                                  wtrs, wake, wty, sor, cor, rmq_, late, lt_m, 
+                                  old_m, lt_mu, old_mu, lt_mu_, ww, old_mu_, 
+                                  sdl, scn, lt, rc, old_t, c, dl_, cn_, 
+                                  old_mu_w, lt_, first, out_, rc_, hadw, ata, 
+                                  so_, havel, tw, allr, omw, fca, sorw, all, 
+                                  old_c, tws, alr, rmq, dl, cn, old_cv, lt_c, 
+                                  rc_c, so, out, ndl, old, wq, dw >>
 
 db_d(self) == /\ pc[self] = "db_d"
               /\ pc' = [pc EXCEPT ![self] = "db_2_ld"]
               /\ UNCHANGED << word, queue, cvword, cvq, waiting, rmc, cvmu, wl, 
-                              wc, sc, nww, sem, data, now, note, nreg, held, 
-                              ret, sres, picked, sleeps, inlock, ip, mw, pool, 
-                              nalloc, muFreed, refs, nwalive, taint3, stack, 
-                              lt_l, clear, old_, zlo, zhi, wcnt, lw, lt_u, 
-                              old_u, tc, nwl, wtrs, wake, wty, sor, cor, rmq_, 
-                              late, lt_m, old_m, lt_mu, old_mu, lt_mu_, ww, 
-                              old_mu_, sdl, scn, lt, rc, old_t, c, dl_, cn_, 
-                              old_mu_w, lt_, first, out_, rc_, hadw, ata, so_, 
-                              havel, tw, allr, omw, fca, sorw, all, old_c, tws, 
-                              alr, rmq, dl, cn, old_cv, lt_c, rc_c, so, out, 
-                              ndl, old, wq, dw, k >>
+                              wc, sc, nww, nwsem, sem, data, now, note, nreg, 
+                              held, ret, sres, picked, sleeps, inlock, ip, mw, 
+                              pool, nalloc, muFreed, refs, nwalive, taint3, 
+                              stack, lt_l, clear, old_, zlo, zhi, wcnt, lw, 
+                              lt_u, old_u, tc, nwl, wtrs, wake, wty, sor, cor, 
+                              rmq_, late, lt_m, old_m, lt_mu, old_mu, lt_mu_, 
+                              ww, old_mu_, sdl, scn, lt, rc, old_t, c, dl_, 
+                              cn_, old_mu_w, lt_, first, out_, rc_, hadw, ata, 
+                              so_, havel, tw, allr, omw, fca, sorw, all, old_c, 
+                              tws, alr, rmq, dl, cn, old_cv, lt_c, rc_c, so, 
+                              out, ndl, old, wq, dw, k >>
 
 db_w_l(self) == /\ pc[self] = "db_w_l"
                 /\ IF k[self] = 0
                       THEN /\ pc' = [pc EXCEPT ![self] = "db_rel_l"]
                       ELSE /\ pc' = [pc EXCEPT ![self] = "db_w1_ld"]
                 /\ UNCHANGED << word, queue, cvword, cvq, waiting, rmc, cvmu, 
-                                wl, wc, sc, nww, sem, data, now, note, nreg, 
-                                held, ret, sres, picked, sleeps, inlock, ip, 
-                                mw, pool, nalloc, muFreed, refs, nwalive, 
+                                wl, wc, sc, nww, nwsem, sem, data, now, note, 
+                                nreg, held, ret, sres, picked, sleeps, inlock, 
+                                ip, mw, pool, nalloc, muFreed, refs, nwalive, 
                                 taint3, stack, lt_l, clear, old_, zlo, zhi, 
                                 wcnt, lw, lt_u, old_u, tc, nwl, wtrs, wake, 
                                 wty, sor, cor, rmq_, late, lt_m, old_m, lt_mu, 
@@ -3738,53 +3791,53 @@ db_w1_ld(self) == /\ pc[self] = "db_w1_ld"
                   /\ TRUE
                   /\ pc' = [pc EXCEPT ![self] = "db_w2_ld"]
                   /\ UNCHANGED << word, queue, cvword, cvq, waiting, rmc, cvmu, 
-                                  wl, wc, sc, nww, sem, data, now, note, nreg, 
-                                  held, ret, sres, picked, sleeps, inlock, ip, 
-                                  mw, pool, nalloc, muFreed, refs, nwalive, 
-                                  taint3, stack, lt_l, clear, old_, zlo, zhi, 
-                                  wcnt, lw, lt_u, old_u, tc, nwl, wtrs, wake, 
-                                  wty, sor, cor, rmq_, late, lt_m, old_m, 
-                                  lt_mu, old_mu, lt_mu_, ww, old_mu_, sdl, scn, 
-                                  lt, rc, old_t, c, dl_, cn_, old_mu_w, lt_, 
-                                  first, out_, rc_, hadw, ata, so_, havel, tw, 
-                                  allr, omw, fca, sorw, all, old_c, tws, alr, 
-                                  rmq, dl, cn, old_cv, lt_c, rc_c, so, out, 
-                                  ndl, old, wq, dw, k >>
+                                  wl, wc, sc, nww, nwsem, sem, data, now, note, 
+                                  nreg, held, ret, sres, picked, sleeps, 
+                                  inlock, ip, mw, pool, nalloc, muFreed, refs, 
+                                  nwalive, taint3, stack, lt_l, clear, old_, 
+                                  zlo, zhi, wcnt, lw, lt_u, old_u, tc, nwl, 
+                                  wtrs, wake, wty, sor, cor, rmq_, late, lt_m, 
+                                  old_m, lt_mu, old_mu, lt_mu_, ww, old_mu_, 
+                                  sdl, scn, lt, rc, old_t, c, dl_, cn_, 
+                                  old_mu_w, lt_, first, out_, rc_, hadw, ata, 
+                                  so_, havel, tw, allr, omw, fca, sorw, all, 
+                                  old_c, tws, alr, rmq, dl, cn, old_cv, lt_c, 
+                                  rc_c, so, out, ndl, old, wq, dw, k >>
 
 db_w2_ld(self) == /\ pc[self] = "db_w2_ld"
                   /\ k' = [k EXCEPT ![self] = k[self] - 1]
                   /\ pc' = [pc EXCEPT ![self] = "db_w_l"]
                   /\ UNCHANGED << word, queue, cvword, cvq, waiting, rmc, cvmu, 
-                                  wl, wc, sc, nww, sem, data, now, note, nreg, 
-                                  held, ret, sres, picked, sleeps, inlock, ip, 
-                                  mw, pool, nalloc, muFreed, refs, nwalive, 
-                                  taint3, stack, lt_l, clear, old_, zlo, zhi, 
-                                  wcnt, lw, lt_u, old_u, tc, nwl, wtrs, wake, 
-                                  wty, sor, cor, rmq_, late, lt_m, old_m, 
-                                  lt_mu, old_mu, lt_mu_, ww, old_mu_, sdl, scn, 
-                                  lt, rc, old_t, c, dl_, cn_, old_mu_w, lt_, 
-                                  first, out_, rc_, hadw, ata, so_, havel, tw, 
-                                  allr, omw, fca, sorw, all, old_c, tws, alr, 
-                                  rmq, dl, cn, old_cv, lt_c, rc_c, so, out, 
-                                  ndl, old, wq, dw >>
+                                  wl, wc, sc, nww, nwsem, sem, data, now, note, 
+                                  nreg, held, ret, sres, picked, sleeps, 
+                                  inlock, ip, mw, pool, nalloc, muFreed, refs, 
+                                  nwalive, taint3, stack, lt_l, clear, old_, 
+                                  zlo, zhi, wcnt, lw, lt_u, old_u, tc, nwl, 
+                                  wtrs, wake, wty, sor, cor, rmq_, late, lt_m, 
+                                  old_m, lt_mu, old_mu, lt_mu_, ww, old_mu_, 
+                                  sdl, scn, lt, rc, old_t, c, dl_, cn_, 
+                                  old_mu_w, lt_, first, out_, rc_, hadw, ata, 
+                                  so_, havel, tw, allr, omw, fca, sorw, all, 
+                                  old_c, tws, alr, rmq, dl, cn, old_cv, lt_c, 
+                                  rc_c, so, out, ndl, old, wq, dw >>
 
 db_rel_l(self) == /\ pc[self] = "db_rel_l"
                   /\ IF DbgFixed
                         THEN /\ pc' = [pc EXCEPT ![self] = "db_5_ld"]
                         ELSE /\ pc' = [pc EXCEPT ![self] = "db_4_st"]
                   /\ UNCHANGED << word, queue, cvword, cvq, waiting, rmc, cvmu, 
-                                  wl, wc, sc, nww, sem, data, now, note, nreg, 
-                                  held, ret, sres, picked, sleeps, inlock, ip, 
-                                  mw, pool, nalloc, muFreed, refs, nwalive, 
-                                  taint3, stack, lt_l, clear, old_, zlo, zhi, 
-                                  wcnt, lw, lt_u, old_u, tc, nwl, wtrs, wake, 
-                                  wty, sor, cor, rmq_, late, lt_m, old_m, 
-                                  lt_mu, old_mu, lt_mu_, ww, old_mu_, sdl, scn, 
-                                  lt, rc, old_t, c, dl_, cn_, old_mu_w, lt_, 
-                                  first, out_, rc_, hadw, ata, so_, havel, tw, 
-                                  allr, omw, fca, sorw, all, old_c, tws, alr, 
-                                  rmq, dl, cn, old_cv, lt_c, rc_c, so, out, 
-                                  ndl, old, wq, dw, k >>
+                                  wl, wc, sc, nww, nwsem, sem, data, now, note, 
+                                  nreg, held, ret, sres, picked, sleeps, 
+                                  inlock, ip, mw, pool, nalloc, muFreed, refs, 
+                                  nwalive, taint3, stack, lt_l, clear, old_, 
+                                  zlo, zhi, wcnt, lw, lt_u, old_u, tc, nwl, 
+                                  wtrs, wake, wty, sor, cor, rmq_, late, lt_m, 
+                                  old_m, lt_mu, old_mu, lt_mu_, ww, old_mu_, 
+                                  sdl, scn, lt, rc, old_t, c, dl_, cn_, 
+                                  old_mu_w, lt_, first, out_, rc_, hadw, ata, 
+                                  so_, havel, tw, allr, omw, fca, sorw, all, 
+                                  old_c, tws, alr, rmq, dl, cn, old_cv, lt_c, 
+                                  rc_c, so, out, ndl, old, wq, dw, k >>
 
 db_4_st(self) == /\ pc[self] = "db_4_st"
                  /\ word' = dw[self]
@@ -3793,12 +3846,12 @@ db_4_st(self) == /\ pc[self] = "db_4_st"
                  /\ k' = [k EXCEPT ![self] = Head(stack[self]).k]
                  /\ stack' = [stack EXCEPT ![self] = Tail(stack[self])]
                  /\ UNCHANGED << queue, cvword, cvq, waiting, rmc, cvmu, wl, 
-                                 wc, sc, nww, sem, data, now, note, nreg, held, 
-                                 ret, sres, picked, sleeps, inlock, ip, mw, 
-                                 pool, nalloc, muFreed, refs, nwalive, taint3, 
-                                 lt_l, clear, old_, zlo, zhi, wcnt, lw, lt_u, 
-                                 old_u, tc, nwl, wtrs, wake, wty, sor, cor, 
-                                 rmq_, late, lt_m, old_m, lt_mu, old_mu, 
+                                 wc, sc, nww, nwsem, sem, data, now, note, 
+                                 nreg, held, ret, sres, picked, sleeps, inlock, 
+                                 ip, mw, pool, nalloc, muFreed, refs, nwalive, 
+                                 taint3, lt_l, clear, old_, zlo, zhi, wcnt, lw, 
+                                 lt_u, old_u, tc, nwl, wtrs, wake, wty, sor, 
+                                 cor, rmq_, late, lt_m, old_m, lt_mu, old_mu, 
                                  lt_mu_, ww, old_mu_, sdl, scn, lt, rc, old_t, 
                                  c, dl_, cn_, old_mu_w, lt_, first, out_, rc_, 
                                  hadw, ata, so_, havel, tw, allr, omw, fca, 
@@ -3809,9 +3862,9 @@ db_5_ld(self) == /\ pc[self] = "db_5_ld"
                  /\ dw' = [dw EXCEPT ![self] = word]
                  /\ pc' = [pc EXCEPT ![self] = "db_6_cas"]
                  /\ UNCHANGED << word, queue, cvword, cvq, waiting, rmc, cvmu, 
-                                 wl, wc, sc, nww, sem, data, now, note, nreg, 
-                                 held, ret, sres, picked, sleeps, inlock, ip, 
-                                 mw, pool, nalloc, muFreed, refs, nwalive, 
+                                 wl, wc, sc, nww, nwsem, sem, data, now, note, 
+                                 nreg, held, ret, sres, picked, sleeps, inlock, 
+                                 ip, mw, pool, nalloc, muFreed, refs, nwalive, 
                                  taint3, stack, lt_l, clear, old_, zlo, zhi, 
                                  wcnt, lw, lt_u, old_u, tc, nwl, wtrs, wake, 
                                  wty, sor, cor, rmq_, late, lt_m, old_m, lt_mu, 
@@ -3832,18 +3885,18 @@ db_6_cas(self) == /\ pc[self] = "db_6_cas"
                         ELSE /\ pc' = [pc EXCEPT ![self] = "db_5_ld"]
                              /\ UNCHANGED << word, stack, dw, k >>
                   /\ UNCHANGED << queue, cvword, cvq, waiting, rmc, cvmu, wl, 
-                                  wc, sc, nww, sem, data, now, note, nreg, 
-                                  held, ret, sres, picked, sleeps, inlock, ip, 
-                                  mw, pool, nalloc, muFreed, refs, nwalive, 
-                                  taint3, lt_l, clear, old_, zlo, zhi, wcnt, 
-                                  lw, lt_u, old_u, tc, nwl, wtrs, wake, wty, 
-                                  sor, cor, rmq_, late, lt_m, old_m, lt_mu, 
-                                  old_mu, lt_mu_, ww, old_mu_, sdl, scn, lt, 
-                                  rc, old_t, c, dl_, cn_, old_mu_w, lt_, first, 
-                                  out_, rc_, hadw, ata, so_, havel, tw, allr, 
-                                  omw, fca, sorw, all, old_c, tws, alr, rmq, 
-                                  dl, cn, old_cv, lt_c, rc_c, so, out, ndl, 
-                                  old, wq >>
+                                  wc, sc, nww, nwsem, sem, data, now, note, 
+                                  nreg, held, ret, sres, picked, sleeps, 
+                                  inlock, ip, mw, pool, nalloc, muFreed, refs, 
+                                  nwalive, taint3, lt_l, clear, old_, zlo, zhi, 
+                                  wcnt, lw, lt_u, old_u, tc, nwl, wtrs, wake, 
+                                  wty, sor, cor, rmq_, late, lt_m, old_m, 
+                                  lt_mu, old_mu, lt_mu_, ww, old_mu_, sdl, scn, 
+                                  lt, rc, old_t, c, dl_, cn_, old_mu_w, lt_, 
+                                  first, out_, rc_, hadw, ata, so_, havel, tw, 
+                                  allr, omw, fca, sorw, all, old_c, tws, alr, 
+                                  rmq, dl, cn, old_cv, lt_c, rc_c, so, out, 
+                                  ndl, old, wq >>
 
 debug_state(self) == db_1_ld(self) \/ db_2_ld(self) \/ db_3_cas(self)
                         \/ db_d(self) \/ db_w_l(self) \/ db_w1_ld(self)
@@ -4474,8 +4527,8 @@ c0(self) == /\ pc[self] = "c0"
                                                                                                                                                                                                                        refs >>
                                                                                                                                                                                                   ELSE /\ IF CurOp(self).op = "decref"
                                                                                                                                                                                                              THEN /\ ip' = [ip EXCEPT ![self] = ip[self] + 1]
+                                                                                                                                                                                                                  /\ ret' = [ret EXCEPT ![self] = IF refs = 1 THEN 1 ELSE 0]
                                                                                                                                                                                                                   /\ refs' = refs - 1
-                                                                                                                                                                                                                  /\ ret' = [ret EXCEPT ![self] = IF refs' = 1 THEN 1 ELSE 0]
                                                                                                                                                                                                                   /\ UNCHANGED muFreed
                                                                                                                                                                                                              ELSE /\ IF CurOp(self).op = "freeiflast"
                                                                                                                                                                                                                         THEN /\ ip' = [ip EXCEPT ![self] = ip[self] + 1]
@@ -4534,10 +4587,11 @@ c0(self) == /\ pc[self] = "c0"
                                              /\ UNCHANGED << sleeps, inlock, 
                                                              lt_m, old_m >>
             /\ UNCHANGED << word, queue, cvword, cvq, waiting, rmc, cvmu, wl, 
-                            wc, sc, nww, now, sres, picked, nwalive, taint3, 
-                            lt_l, clear, old_, zlo, zhi, wcnt, lw, lt_u, old_u, 
-                            tc, nwl, wtrs, wake, wty, sor, cor, rmq_, late, 
-                            sdl, scn, lt, rc, old_t, tw, allr, omw, fca, sorw >>
+                            wc, sc, nww, nwsem, now, sres, picked, nwalive, 
+                            taint3, lt_l, clear, old_, zlo, zhi, wcnt, lw, 
+                            lt_u, old_u, tc, nwl, wtrs, wake, wty, sor, cor, 
+                            rmq_, late, sdl, scn, lt, rc, old_t, tw, allr, omw, 
+                            fca, sorw >>
 
 thr(self) == c0(self)
 
@@ -4571,7 +4625,7 @@ TickUseful == \E u \in Threads : \/ (pc[u] = "sw_2_pd" /\ sdl[u] > now)
                                  \/ (pc[u] = "wn_7_pd" /\ ndl[u] > now)
 Tick == /\ now < MaxNow /\ TickUseful
         /\ now' = now + 1
-        /\ UNCHANGED <<pc, word, queue, cvword, cvq, waiting, rmc, cvmu, wl, wc, sc, nww, sem, data, note, nreg, held, ret, sres, picked, sleeps, inlock, ip, mw, pool, nalloc, muFreed, refs, nwalive, taint3, stack, lt_l, clear, old_, zlo, zhi, wcnt, lw, lt_u, old_u, tc, nwl, wtrs, wake, wty, sor, cor, rmq_, late, lt_m, old_m, lt_mu, old_mu, lt_mu_, ww, old_mu_, sdl, scn, lt, rc, old_t, c, dl_, cn_, old_mu_w, lt_, first, out_, rc_, hadw, ata, so_, havel, tw, allr, omw, fca, sorw, all, old_c, tws, alr, rmq, dl, cn, old_cv, lt_c, rc_c, so, out, ndl, old, wq, dw, k>>
+        /\ UNCHANGED <<pc, word, queue, cvword, cvq, waiting, rmc, cvmu, wl, wc, sc, nww, nwsem, sem, data, note, nreg, held, ret, sres, picked, sleeps, inlock, ip, mw, pool, nalloc, muFreed, refs, nwalive, taint3, stack, lt_l, clear, old_, zlo, zhi, wcnt, lw, lt_u, old_u, tc, nwl, wtrs, wake, wty, sor, cor, rmq_, late, lt_m, old_m, lt_mu, old_mu, lt_mu_, ww, old_mu_, sdl, scn, lt, rc, old_t, c, dl_, cn_, old_mu_w, lt_, first, out_, rc_, hadw, ata, so_, havel, tw, allr, omw, fca, sorw, all, old_c, tws, alr, rmq, dl, cn, old_cv, lt_c, rc_c, so, out, ndl, old, wq, dw, k>>
 \* Local steps (no shared operation) commute with every step of other threads, so they are taken
 \* eagerly: a thread at a local label runs before anything else happens.
 LocalPending == {u \in Threads : pc[u] \in LocalLabels}
@@ -4593,9 +4647,10 @@ PickedReportsWake == \A u \in Threads : (AtClient(u) /\ picked[u] /\ ret[u] # -1
 \* ---- C05 ----
 RetHonest == \A u \in Threads : AtClient(u) => /\ (ret[u] = ECANCELED => note)
 \* ---- C13 ----
-MuLabels == {"db_1_ld", "db_2_ld", "db_3_cas", "db_4_st", "db_5_ld", "db_6_cas", "db_w1_ld", "db_w2_ld", "lk_1_cas", "lk_2_ld", "lk_3_cas", "ls_1_ld", "ls_2_cas", "ls_3_cas", "ls_4_st", "ls_5_ld", "ls_6_cas", "ls_7_ld", "ls_8_p", "mw_1_ld", "mw_4_ld", "mw_5_cas", "mw_6_ld", "mw_7_cas", "ta_1_ld", "ta_2_cas", "ta_3_cas", "ta_5_ld", "ta_6_ld", "ta_7_cas", "ta_7_ld", "ta_8_st", "ta_8b_st", "ta_9_st", "tl_1_cas", "tl_2_ld", "tl_3_cas", "ul_1_cas", "ul_2_ld", "ul_3_cas", "us_1_ld", "us_2_cas", "us_3_cas", "us_4_ld", "us_5_cas", "us_6_st", "us_7_v", "us_rm_cas", "us_rm_ld", "us_rs_cas", "us_rs_ld", "us_ts_cas", "us_ts_ld", "ww_1_ld", "ww_2_cas", "ww_3_ld", "ww_4_cas"}
+MuLabels == {"cw_2_ld", "db_1_ld", "db_2_ld", "db_3_cas", "db_4_st", "db_5_ld", "db_6_cas", "lk_1_cas", "lk_2_ld", "lk_3_cas", "ls_1_ld", "ls_2_cas", "ls_3_cas", "ls_4_st", "ls_5_ld", "ls_6_cas", "mw_1_ld", "mw_4_ld", "mw_5_cas", "mw_6_ld", "mw_7_cas", "ta_1_ld", "ta_2_cas", "ta_3_cas", "ta_6_ld", "ta_8b_st", "ta_9_st", "tl_1_cas", "tl_2_ld", "tl_3_cas", "ul_1_cas", "ul_2_ld", "ul_3_cas", "us_1_ld", "us_2_cas", "us_3_cas", "us_4_ld", "us_5_cas", "us_merge_l", "us_pass_l", "us_rs_cas", "us_rs_ld", "us_scan_l", "us_ts_cas", "us_ts_ld", "ww_1_ld", "ww_2_cas", "ww_3_ld", "ww_4_cas"}
 NoTouchAfterFree == muFreed => \A u \in Threads : pc[u] \notin MuLabels
-NoDeadRecordTouch == \A u \in Threads : (pc[u] \in {"ww_5_st", "ww_6_v"} /\ tw[u] # <<>> /\ Head(tw[u]) < 0) => nwalive[-Head(tw[u])]
+NoDeadRecordTouch == \A u \in Threads : /\ ((pc[u] \in {"ww_5_st", "ww_6_v"} /\ tw[u] # <<>> /\ Head(tw[u]) < 0) => nwalive[-Head(tw[u])])
+                                          /\ ((pc[u] \in {"cs_f_st", "cs_f_v"} /\ rmq[u] # <<>> /\ Head(rmq[u]) < 0) => nwalive[-Head(rmq[u])])
 \* the same invariants outside the window of known finding 6.3
 PickedReportsWakeK == ~taint3 => PickedReportsWake
 NoDeadRecordTouchK == ~taint3 => NoDeadRecordTouch
